@@ -36,6 +36,8 @@ var ghost struct {
 	trace  [65536]int
 	trTold [65536]int
 	told   [65536]int
+
+	warns int // number of diagnostic Warn calls issued by printOut after a failed destination (C13)
 }
 
 // specTreat: the built-in level a severity is compared as (C01 "treated as").
@@ -82,6 +84,17 @@ func specInterrupts() bool {
 	return (!inTesting || flags&Linterruptalways != 0) && flags&LnoInterrupt != LnoInterrupt
 }
 
+// ---------------------------------------------------------------- package invariants
+// Assumed at the entry of every function under contract and after every call, checked again at
+// every return of every function under contract (functions that are not under contract are
+// assumed to preserve them; this is listed in the evidence).
+
+//@ invariant [INV-glob] defaultWriter != nil && defaultLog != nil && ghost.trN >= 0
+//@ invariant [INV-registry] levelToString != nil && stringToLevel != nil && shortTagMap != nil && mLevelIsEnabledAs != nil && mLevelUseErrorDevice != nil && mLevelColors != nil
+//@ invariant [INV-tagmaps] forall(k, 0, 6, has(shortTagMap, k) && shortTagMap[k] != nil)
+//@ invariant [INV-colors] forall(k, implies(has(mLevelColors, Level(k)), len(mLevelColors[Level(k)]) >= 1))
+//@ invariant [INV-width] 1 <= levelOutputWidth && levelOutputWidth <= 5
+
 // ---------------------------------------------------------------- C01 gating / C12 termination
 
 //@ func (Level).Enabled
@@ -106,30 +119,35 @@ func specInterrupts() bool {
 //@ func getpc
 //@   trusted
 
-//@ func (*Entry).print
-//@   trusted
-//@   assigns everything
-//@   ensures ghost.emits >= old(ghost.emits) && ghost.records >= old(ghost.records) + 1
-//@   ensures flags == old(flags) && inTesting == old(inTesting)
-
 //@ func (*Entry).collectArgs
 //@   trusted
 //@   assigns everything
-//@   ensures ghost.emits == old(ghost.emits) && ghost.records == old(ghost.records)
-//@   ensures flags == old(flags) && inTesting == old(inTesting)
+//@   noghost
+//@   keeps PrintCtx.off, PrintCtx.lvl
 
 //@ func (*Entry).logContext
-//@   props C01 C12
-//@   requires s != nil
+//@   props C01 C02 C12 C13
+//@   requires s != nil && specFmtInv(s)
+//@   requires [INV-dw] forall(k, 0, len(specDest(s, lvl)), !isnil(specDest(s, lvl)[k]) && !typeis(specDest(s, lvl)[k], LWs) && implies(typeis(specDest(s, lvl)[k], *logwr), dyn(specDest(s, lvl)[k], *logwr) != nil && !typeis(dyn(specDest(s, lvl)[k], *logwr).Writer, *logwr) && !typeis(dyn(specDest(s, lvl)[k], *logwr).Writer, LWs)))
+//@   requires [INV-dw.warn] forall(k, 0, len(specDest(s, WarnLevel)), !isnil(specDest(s, WarnLevel)[k]) && !typeis(specDest(s, WarnLevel)[k], LWs) && implies(typeis(specDest(s, WarnLevel)[k], *logwr), dyn(specDest(s, WarnLevel)[k], *logwr) != nil && !typeis(dyn(specDest(s, WarnLevel)[k], *logwr).Writer, *logwr) && !typeis(dyn(specDest(s, WarnLevel)[k], *logwr).Writer, LWs)))
 //@   effect ghost.emits = ghost.emits + 1
 //@   assigns everything
+//@   keeps PrintCtx.off, PrintCtx.lvl
 //@   panics [C12.panic] when lvl == PanicLevel && specInterrupts() && isnil(s.handlerOpt)
 //@   exits [C12.exit] when lvl == FatalLevel && specInterrupts() && isnil(s.handlerOpt)
 //@   ensures [C01.count] ghost.emits >= old(ghost.emits) + 1
+//@   ensures [C02.appendonly] ghost.trN >= old(ghost.trN) && forall(k, 0, old(ghost.trN), ghost.trace[k] == old(ghost.trace[k]) && ghost.trTold[k] == old(ghost.trTold[k]))
+//@   ensures [C02.deliver] implies(isnil(old(s.handlerOpt)), ghost.trN >= old(ghost.trN) + old(len(specDest(s, lvl))))
+//@   ensures [C13.algebra] implies(isnil(old(s.handlerOpt)), ghost.records - old(ghost.records) == 1 + ite(old(specAdmits(s.level, WarnLevel)), ghost.warns - old(ghost.warns), 0)) && ghost.warns >= old(ghost.warns) && ghost.warns <= old(ghost.warns) + 1
+//@   ensures [C13.nocascade] implies(lvl == WarnLevel, ghost.warns == old(ghost.warns))
+//@   ensures [C13.quiet] implies(isnil(old(s.handlerOpt)) && ghost.warns == old(ghost.warns), ghost.trN == old(ghost.trN) + old(len(specDest(s, lvl))))
+//@   ensures [C02.handler] implies(!isnil(old(s.handlerOpt)), ghost.trN == old(ghost.trN) && ghost.records == old(ghost.records) && ghost.warns == old(ghost.warns))
+//@   ensures [C12.flags] flags == old(flags) && inTesting == old(inTesting)
 //@   at panic assert [C12.order] ghost.records >= old(ghost.records) + 1
 //@   at panic assert [C12.value] typeis(value, string) && dyn(value, string) == msg
 //@   at exit assert [C12.order] ghost.records >= old(ghost.records) + 1
 //@   at exit assert [C12.code] value == -3
+//@   at call (*Entry).print assert [C02.once] callee.s == s && callee.lvl == lvl && callee.msg == msg && callee.stackFrame == stackFrame
 
 //@ func (*Entry).Verbose
 //@   props C01
@@ -154,477 +172,1161 @@ func specInterrupts() bool {
 // ---- generated by /verif/tools/gen_c01.py: one block per public entry point
 
 //@ func (*Entry).Panic
-//@   props C01 C12
-//@   requires s != nil
+//@   props C01 C02 C12 C13
+//@   requires s != nil && specFmtInv(s)
 //@   assigns everything
+//@   keeps PrintCtx.off, PrintCtx.lvl
 //@   panics [C12.panic] when specAdmits(s.level, PanicLevel) && specInterrupts() && isnil(s.handlerOpt)
+//@   requires defaultWriter != nil && ghost.trN >= 0
+//@   requires [INV-dw] forall(k, 0, len(specDest(s, PanicLevel)), !isnil(specDest(s, PanicLevel)[k]) && !typeis(specDest(s, PanicLevel)[k], LWs) && implies(typeis(specDest(s, PanicLevel)[k], *logwr), dyn(specDest(s, PanicLevel)[k], *logwr) != nil && !typeis(dyn(specDest(s, PanicLevel)[k], *logwr).Writer, *logwr) && !typeis(dyn(specDest(s, PanicLevel)[k], *logwr).Writer, LWs)))
+//@   requires [INV-dw.warn] forall(k, 0, len(specDest(s, WarnLevel)), !isnil(specDest(s, WarnLevel)[k]) && !typeis(specDest(s, WarnLevel)[k], LWs) && implies(typeis(specDest(s, WarnLevel)[k], *logwr), dyn(specDest(s, WarnLevel)[k], *logwr) != nil && !typeis(dyn(specDest(s, WarnLevel)[k], *logwr).Writer, *logwr) && !typeis(dyn(specDest(s, WarnLevel)[k], *logwr).Writer, LWs)))
+//@   ensures [C02.silent] implies(!old(specAdmits(s.level, PanicLevel)), ghost.trN == old(ghost.trN) && ghost.records == old(ghost.records) && ghost.warns == old(ghost.warns))
+//@   ensures [C02.appendonly] ghost.trN >= old(ghost.trN) && forall(k, 0, old(ghost.trN), ghost.trace[k] == old(ghost.trace[k]) && ghost.trTold[k] == old(ghost.trTold[k]))
+//@   ensures [C02.handler] implies(!isnil(old(s.handlerOpt)), ghost.trN == old(ghost.trN) && ghost.records == old(ghost.records) && ghost.warns == old(ghost.warns))
+//@   ensures [C13.algebra] implies(isnil(old(s.handlerOpt)) && old(specAdmits(s.level, PanicLevel)), ghost.records - old(ghost.records) == 1 + ite(old(specAdmits(s.level, WarnLevel)), ghost.warns - old(ghost.warns), 0)) && ghost.warns >= old(ghost.warns) && ghost.warns <= old(ghost.warns) + 1
+//@   ensures [C13.nocascade] implies(PanicLevel == WarnLevel, ghost.warns == old(ghost.warns))
+//@   ensures [C02.deliver] implies(isnil(old(s.handlerOpt)) && old(specAdmits(s.level, PanicLevel)), ghost.trN >= old(ghost.trN) + old(len(specDest(s, PanicLevel))))
+//@   ensures [C13.quiet] implies(isnil(old(s.handlerOpt)) && old(specAdmits(s.level, PanicLevel)) && ghost.warns == old(ghost.warns), ghost.trN == old(ghost.trN) + old(len(specDest(s, PanicLevel))))
+//@   ensures [C12.flags] flags == old(flags) && inTesting == old(inTesting)
 //@   ensures [C01.gate] implies(!old(specAdmits(s.level, PanicLevel)), ghost.emits == old(ghost.emits))
 //@   ensures [C01.emit] implies(old(specAdmits(s.level, PanicLevel)), ghost.emits > old(ghost.emits))
 //@   at call (*Entry).log1 assert [C01.sev] callee.lvl == PanicLevel && callee.s == s
 //@
 //@ func (*Entry).Fatal
-//@   props C01 C12
-//@   requires s != nil
+//@   props C01 C02 C12 C13
+//@   requires s != nil && specFmtInv(s)
 //@   assigns everything
+//@   keeps PrintCtx.off, PrintCtx.lvl
 //@   exits [C12.exit] when specAdmits(s.level, FatalLevel) && specInterrupts() && isnil(s.handlerOpt)
+//@   requires defaultWriter != nil && ghost.trN >= 0
+//@   requires [INV-dw] forall(k, 0, len(specDest(s, FatalLevel)), !isnil(specDest(s, FatalLevel)[k]) && !typeis(specDest(s, FatalLevel)[k], LWs) && implies(typeis(specDest(s, FatalLevel)[k], *logwr), dyn(specDest(s, FatalLevel)[k], *logwr) != nil && !typeis(dyn(specDest(s, FatalLevel)[k], *logwr).Writer, *logwr) && !typeis(dyn(specDest(s, FatalLevel)[k], *logwr).Writer, LWs)))
+//@   requires [INV-dw.warn] forall(k, 0, len(specDest(s, WarnLevel)), !isnil(specDest(s, WarnLevel)[k]) && !typeis(specDest(s, WarnLevel)[k], LWs) && implies(typeis(specDest(s, WarnLevel)[k], *logwr), dyn(specDest(s, WarnLevel)[k], *logwr) != nil && !typeis(dyn(specDest(s, WarnLevel)[k], *logwr).Writer, *logwr) && !typeis(dyn(specDest(s, WarnLevel)[k], *logwr).Writer, LWs)))
+//@   ensures [C02.silent] implies(!old(specAdmits(s.level, FatalLevel)), ghost.trN == old(ghost.trN) && ghost.records == old(ghost.records) && ghost.warns == old(ghost.warns))
+//@   ensures [C02.appendonly] ghost.trN >= old(ghost.trN) && forall(k, 0, old(ghost.trN), ghost.trace[k] == old(ghost.trace[k]) && ghost.trTold[k] == old(ghost.trTold[k]))
+//@   ensures [C02.handler] implies(!isnil(old(s.handlerOpt)), ghost.trN == old(ghost.trN) && ghost.records == old(ghost.records) && ghost.warns == old(ghost.warns))
+//@   ensures [C13.algebra] implies(isnil(old(s.handlerOpt)) && old(specAdmits(s.level, FatalLevel)), ghost.records - old(ghost.records) == 1 + ite(old(specAdmits(s.level, WarnLevel)), ghost.warns - old(ghost.warns), 0)) && ghost.warns >= old(ghost.warns) && ghost.warns <= old(ghost.warns) + 1
+//@   ensures [C13.nocascade] implies(FatalLevel == WarnLevel, ghost.warns == old(ghost.warns))
+//@   ensures [C02.deliver] implies(isnil(old(s.handlerOpt)) && old(specAdmits(s.level, FatalLevel)), ghost.trN >= old(ghost.trN) + old(len(specDest(s, FatalLevel))))
+//@   ensures [C13.quiet] implies(isnil(old(s.handlerOpt)) && old(specAdmits(s.level, FatalLevel)) && ghost.warns == old(ghost.warns), ghost.trN == old(ghost.trN) + old(len(specDest(s, FatalLevel))))
+//@   ensures [C12.flags] flags == old(flags) && inTesting == old(inTesting)
 //@   ensures [C01.gate] implies(!old(specAdmits(s.level, FatalLevel)), ghost.emits == old(ghost.emits))
 //@   ensures [C01.emit] implies(old(specAdmits(s.level, FatalLevel)), ghost.emits > old(ghost.emits))
 //@   at call (*Entry).log1 assert [C01.sev] callee.lvl == FatalLevel && callee.s == s
 //@
 //@ func (*Entry).Error
-//@   props C01 C12
-//@   requires s != nil
+//@   props C01 C02 C12 C13
+//@   requires s != nil && specFmtInv(s)
 //@   assigns everything
+//@   keeps PrintCtx.off, PrintCtx.lvl
+//@   requires defaultWriter != nil && ghost.trN >= 0
+//@   requires [INV-dw] forall(k, 0, len(specDest(s, ErrorLevel)), !isnil(specDest(s, ErrorLevel)[k]) && !typeis(specDest(s, ErrorLevel)[k], LWs) && implies(typeis(specDest(s, ErrorLevel)[k], *logwr), dyn(specDest(s, ErrorLevel)[k], *logwr) != nil && !typeis(dyn(specDest(s, ErrorLevel)[k], *logwr).Writer, *logwr) && !typeis(dyn(specDest(s, ErrorLevel)[k], *logwr).Writer, LWs)))
+//@   requires [INV-dw.warn] forall(k, 0, len(specDest(s, WarnLevel)), !isnil(specDest(s, WarnLevel)[k]) && !typeis(specDest(s, WarnLevel)[k], LWs) && implies(typeis(specDest(s, WarnLevel)[k], *logwr), dyn(specDest(s, WarnLevel)[k], *logwr) != nil && !typeis(dyn(specDest(s, WarnLevel)[k], *logwr).Writer, *logwr) && !typeis(dyn(specDest(s, WarnLevel)[k], *logwr).Writer, LWs)))
+//@   ensures [C02.silent] implies(!old(specAdmits(s.level, ErrorLevel)), ghost.trN == old(ghost.trN) && ghost.records == old(ghost.records) && ghost.warns == old(ghost.warns))
+//@   ensures [C02.appendonly] ghost.trN >= old(ghost.trN) && forall(k, 0, old(ghost.trN), ghost.trace[k] == old(ghost.trace[k]) && ghost.trTold[k] == old(ghost.trTold[k]))
+//@   ensures [C02.handler] implies(!isnil(old(s.handlerOpt)), ghost.trN == old(ghost.trN) && ghost.records == old(ghost.records) && ghost.warns == old(ghost.warns))
+//@   ensures [C13.algebra] implies(isnil(old(s.handlerOpt)) && old(specAdmits(s.level, ErrorLevel)), ghost.records - old(ghost.records) == 1 + ite(old(specAdmits(s.level, WarnLevel)), ghost.warns - old(ghost.warns), 0)) && ghost.warns >= old(ghost.warns) && ghost.warns <= old(ghost.warns) + 1
+//@   ensures [C13.nocascade] implies(ErrorLevel == WarnLevel, ghost.warns == old(ghost.warns))
+//@   ensures [C02.deliver] implies(isnil(old(s.handlerOpt)) && old(specAdmits(s.level, ErrorLevel)), ghost.trN >= old(ghost.trN) + old(len(specDest(s, ErrorLevel))))
+//@   ensures [C13.quiet] implies(isnil(old(s.handlerOpt)) && old(specAdmits(s.level, ErrorLevel)) && ghost.warns == old(ghost.warns), ghost.trN == old(ghost.trN) + old(len(specDest(s, ErrorLevel))))
+//@   ensures [C12.flags] flags == old(flags) && inTesting == old(inTesting)
 //@   ensures [C01.gate] implies(!old(specAdmits(s.level, ErrorLevel)), ghost.emits == old(ghost.emits))
 //@   ensures [C01.emit] implies(old(specAdmits(s.level, ErrorLevel)), ghost.emits > old(ghost.emits))
 //@   at call (*Entry).log1 assert [C01.sev] callee.lvl == ErrorLevel && callee.s == s
 //@
 //@ func (*Entry).Warn
-//@   props C01 C12
-//@   requires s != nil
+//@   props C01 C02 C12 C13
+//@   requires s != nil && specFmtInv(s)
 //@   assigns everything
+//@   keeps PrintCtx.off, PrintCtx.lvl
+//@   requires defaultWriter != nil && ghost.trN >= 0
+//@   requires [INV-dw] forall(k, 0, len(specDest(s, WarnLevel)), !isnil(specDest(s, WarnLevel)[k]) && !typeis(specDest(s, WarnLevel)[k], LWs) && implies(typeis(specDest(s, WarnLevel)[k], *logwr), dyn(specDest(s, WarnLevel)[k], *logwr) != nil && !typeis(dyn(specDest(s, WarnLevel)[k], *logwr).Writer, *logwr) && !typeis(dyn(specDest(s, WarnLevel)[k], *logwr).Writer, LWs)))
+//@   requires [INV-dw.warn] forall(k, 0, len(specDest(s, WarnLevel)), !isnil(specDest(s, WarnLevel)[k]) && !typeis(specDest(s, WarnLevel)[k], LWs) && implies(typeis(specDest(s, WarnLevel)[k], *logwr), dyn(specDest(s, WarnLevel)[k], *logwr) != nil && !typeis(dyn(specDest(s, WarnLevel)[k], *logwr).Writer, *logwr) && !typeis(dyn(specDest(s, WarnLevel)[k], *logwr).Writer, LWs)))
+//@   ensures [C02.silent] implies(!old(specAdmits(s.level, WarnLevel)), ghost.trN == old(ghost.trN) && ghost.records == old(ghost.records) && ghost.warns == old(ghost.warns))
+//@   ensures [C02.appendonly] ghost.trN >= old(ghost.trN) && forall(k, 0, old(ghost.trN), ghost.trace[k] == old(ghost.trace[k]) && ghost.trTold[k] == old(ghost.trTold[k]))
+//@   ensures [C02.handler] implies(!isnil(old(s.handlerOpt)), ghost.trN == old(ghost.trN) && ghost.records == old(ghost.records) && ghost.warns == old(ghost.warns))
+//@   ensures [C13.algebra] implies(isnil(old(s.handlerOpt)) && old(specAdmits(s.level, WarnLevel)), ghost.records - old(ghost.records) == 1 + ite(old(specAdmits(s.level, WarnLevel)), ghost.warns - old(ghost.warns), 0)) && ghost.warns >= old(ghost.warns) && ghost.warns <= old(ghost.warns) + 1
+//@   ensures [C13.nocascade] implies(WarnLevel == WarnLevel, ghost.warns == old(ghost.warns))
+//@   ensures [C02.deliver] implies(isnil(old(s.handlerOpt)) && old(specAdmits(s.level, WarnLevel)), ghost.trN >= old(ghost.trN) + old(len(specDest(s, WarnLevel))))
+//@   ensures [C13.quiet] implies(isnil(old(s.handlerOpt)) && old(specAdmits(s.level, WarnLevel)) && ghost.warns == old(ghost.warns), ghost.trN == old(ghost.trN) + old(len(specDest(s, WarnLevel))))
+//@   ensures [C12.flags] flags == old(flags) && inTesting == old(inTesting)
 //@   ensures [C01.gate] implies(!old(specAdmits(s.level, WarnLevel)), ghost.emits == old(ghost.emits))
 //@   ensures [C01.emit] implies(old(specAdmits(s.level, WarnLevel)), ghost.emits > old(ghost.emits))
 //@   at call (*Entry).log1 assert [C01.sev] callee.lvl == WarnLevel && callee.s == s
 //@
 //@ func (*Entry).Info
-//@   props C01 C12
-//@   requires s != nil
+//@   props C01 C02 C12 C13
+//@   requires s != nil && specFmtInv(s)
 //@   assigns everything
+//@   keeps PrintCtx.off, PrintCtx.lvl
+//@   requires defaultWriter != nil && ghost.trN >= 0
+//@   requires [INV-dw] forall(k, 0, len(specDest(s, InfoLevel)), !isnil(specDest(s, InfoLevel)[k]) && !typeis(specDest(s, InfoLevel)[k], LWs) && implies(typeis(specDest(s, InfoLevel)[k], *logwr), dyn(specDest(s, InfoLevel)[k], *logwr) != nil && !typeis(dyn(specDest(s, InfoLevel)[k], *logwr).Writer, *logwr) && !typeis(dyn(specDest(s, InfoLevel)[k], *logwr).Writer, LWs)))
+//@   requires [INV-dw.warn] forall(k, 0, len(specDest(s, WarnLevel)), !isnil(specDest(s, WarnLevel)[k]) && !typeis(specDest(s, WarnLevel)[k], LWs) && implies(typeis(specDest(s, WarnLevel)[k], *logwr), dyn(specDest(s, WarnLevel)[k], *logwr) != nil && !typeis(dyn(specDest(s, WarnLevel)[k], *logwr).Writer, *logwr) && !typeis(dyn(specDest(s, WarnLevel)[k], *logwr).Writer, LWs)))
+//@   ensures [C02.silent] implies(!old(specAdmits(s.level, InfoLevel)), ghost.trN == old(ghost.trN) && ghost.records == old(ghost.records) && ghost.warns == old(ghost.warns))
+//@   ensures [C02.appendonly] ghost.trN >= old(ghost.trN) && forall(k, 0, old(ghost.trN), ghost.trace[k] == old(ghost.trace[k]) && ghost.trTold[k] == old(ghost.trTold[k]))
+//@   ensures [C02.handler] implies(!isnil(old(s.handlerOpt)), ghost.trN == old(ghost.trN) && ghost.records == old(ghost.records) && ghost.warns == old(ghost.warns))
+//@   ensures [C13.algebra] implies(isnil(old(s.handlerOpt)) && old(specAdmits(s.level, InfoLevel)), ghost.records - old(ghost.records) == 1 + ite(old(specAdmits(s.level, WarnLevel)), ghost.warns - old(ghost.warns), 0)) && ghost.warns >= old(ghost.warns) && ghost.warns <= old(ghost.warns) + 1
+//@   ensures [C13.nocascade] implies(InfoLevel == WarnLevel, ghost.warns == old(ghost.warns))
+//@   ensures [C02.deliver] implies(isnil(old(s.handlerOpt)) && old(specAdmits(s.level, InfoLevel)), ghost.trN >= old(ghost.trN) + old(len(specDest(s, InfoLevel))))
+//@   ensures [C13.quiet] implies(isnil(old(s.handlerOpt)) && old(specAdmits(s.level, InfoLevel)) && ghost.warns == old(ghost.warns), ghost.trN == old(ghost.trN) + old(len(specDest(s, InfoLevel))))
+//@   ensures [C12.flags] flags == old(flags) && inTesting == old(inTesting)
 //@   ensures [C01.gate] implies(!old(specAdmits(s.level, InfoLevel)), ghost.emits == old(ghost.emits))
 //@   ensures [C01.emit] implies(old(specAdmits(s.level, InfoLevel)), ghost.emits > old(ghost.emits))
 //@   at call (*Entry).log1 assert [C01.sev] callee.lvl == InfoLevel && callee.s == s
 //@
 //@ func (*Entry).Debug
-//@   props C01 C12
-//@   requires s != nil
+//@   props C01 C02 C12 C13
+//@   requires s != nil && specFmtInv(s)
 //@   assigns everything
+//@   keeps PrintCtx.off, PrintCtx.lvl
+//@   requires defaultWriter != nil && ghost.trN >= 0
+//@   requires [INV-dw] forall(k, 0, len(specDest(s, DebugLevel)), !isnil(specDest(s, DebugLevel)[k]) && !typeis(specDest(s, DebugLevel)[k], LWs) && implies(typeis(specDest(s, DebugLevel)[k], *logwr), dyn(specDest(s, DebugLevel)[k], *logwr) != nil && !typeis(dyn(specDest(s, DebugLevel)[k], *logwr).Writer, *logwr) && !typeis(dyn(specDest(s, DebugLevel)[k], *logwr).Writer, LWs)))
+//@   requires [INV-dw.warn] forall(k, 0, len(specDest(s, WarnLevel)), !isnil(specDest(s, WarnLevel)[k]) && !typeis(specDest(s, WarnLevel)[k], LWs) && implies(typeis(specDest(s, WarnLevel)[k], *logwr), dyn(specDest(s, WarnLevel)[k], *logwr) != nil && !typeis(dyn(specDest(s, WarnLevel)[k], *logwr).Writer, *logwr) && !typeis(dyn(specDest(s, WarnLevel)[k], *logwr).Writer, LWs)))
+//@   ensures [C02.silent] implies(!old(specAdmits(s.level, DebugLevel)), ghost.trN == old(ghost.trN) && ghost.records == old(ghost.records) && ghost.warns == old(ghost.warns))
+//@   ensures [C02.appendonly] ghost.trN >= old(ghost.trN) && forall(k, 0, old(ghost.trN), ghost.trace[k] == old(ghost.trace[k]) && ghost.trTold[k] == old(ghost.trTold[k]))
+//@   ensures [C02.handler] implies(!isnil(old(s.handlerOpt)), ghost.trN == old(ghost.trN) && ghost.records == old(ghost.records) && ghost.warns == old(ghost.warns))
+//@   ensures [C13.algebra] implies(isnil(old(s.handlerOpt)) && old(specAdmits(s.level, DebugLevel)), ghost.records - old(ghost.records) == 1 + ite(old(specAdmits(s.level, WarnLevel)), ghost.warns - old(ghost.warns), 0)) && ghost.warns >= old(ghost.warns) && ghost.warns <= old(ghost.warns) + 1
+//@   ensures [C13.nocascade] implies(DebugLevel == WarnLevel, ghost.warns == old(ghost.warns))
+//@   ensures [C02.deliver] implies(isnil(old(s.handlerOpt)) && old(specAdmits(s.level, DebugLevel)), ghost.trN >= old(ghost.trN) + old(len(specDest(s, DebugLevel))))
+//@   ensures [C13.quiet] implies(isnil(old(s.handlerOpt)) && old(specAdmits(s.level, DebugLevel)) && ghost.warns == old(ghost.warns), ghost.trN == old(ghost.trN) + old(len(specDest(s, DebugLevel))))
+//@   ensures [C12.flags] flags == old(flags) && inTesting == old(inTesting)
 //@   ensures [C01.gate] implies(!old(specAdmits(s.level, DebugLevel)), ghost.emits == old(ghost.emits))
 //@   ensures [C01.emit] implies(old(specAdmits(s.level, DebugLevel)), ghost.emits > old(ghost.emits))
 //@   at call (*Entry).log1 assert [C01.sev] callee.lvl == DebugLevel && callee.s == s
 //@
 //@ func (*Entry).Trace
-//@   props C01 C12
-//@   requires s != nil
+//@   props C01 C02 C12 C13
+//@   requires s != nil && specFmtInv(s)
 //@   assigns everything
+//@   keeps PrintCtx.off, PrintCtx.lvl
+//@   requires defaultWriter != nil && ghost.trN >= 0
+//@   requires [INV-dw] forall(k, 0, len(specDest(s, TraceLevel)), !isnil(specDest(s, TraceLevel)[k]) && !typeis(specDest(s, TraceLevel)[k], LWs) && implies(typeis(specDest(s, TraceLevel)[k], *logwr), dyn(specDest(s, TraceLevel)[k], *logwr) != nil && !typeis(dyn(specDest(s, TraceLevel)[k], *logwr).Writer, *logwr) && !typeis(dyn(specDest(s, TraceLevel)[k], *logwr).Writer, LWs)))
+//@   requires [INV-dw.warn] forall(k, 0, len(specDest(s, WarnLevel)), !isnil(specDest(s, WarnLevel)[k]) && !typeis(specDest(s, WarnLevel)[k], LWs) && implies(typeis(specDest(s, WarnLevel)[k], *logwr), dyn(specDest(s, WarnLevel)[k], *logwr) != nil && !typeis(dyn(specDest(s, WarnLevel)[k], *logwr).Writer, *logwr) && !typeis(dyn(specDest(s, WarnLevel)[k], *logwr).Writer, LWs)))
+//@   ensures [C02.silent] implies(!old(specAdmits(s.level, TraceLevel)), ghost.trN == old(ghost.trN) && ghost.records == old(ghost.records) && ghost.warns == old(ghost.warns))
+//@   ensures [C02.appendonly] ghost.trN >= old(ghost.trN) && forall(k, 0, old(ghost.trN), ghost.trace[k] == old(ghost.trace[k]) && ghost.trTold[k] == old(ghost.trTold[k]))
+//@   ensures [C02.handler] implies(!isnil(old(s.handlerOpt)), ghost.trN == old(ghost.trN) && ghost.records == old(ghost.records) && ghost.warns == old(ghost.warns))
+//@   ensures [C13.algebra] implies(isnil(old(s.handlerOpt)) && old(specAdmits(s.level, TraceLevel)), ghost.records - old(ghost.records) == 1 + ite(old(specAdmits(s.level, WarnLevel)), ghost.warns - old(ghost.warns), 0)) && ghost.warns >= old(ghost.warns) && ghost.warns <= old(ghost.warns) + 1
+//@   ensures [C13.nocascade] implies(TraceLevel == WarnLevel, ghost.warns == old(ghost.warns))
+//@   ensures [C02.deliver] implies(isnil(old(s.handlerOpt)) && old(specAdmits(s.level, TraceLevel)), ghost.trN >= old(ghost.trN) + old(len(specDest(s, TraceLevel))))
+//@   ensures [C13.quiet] implies(isnil(old(s.handlerOpt)) && old(specAdmits(s.level, TraceLevel)) && ghost.warns == old(ghost.warns), ghost.trN == old(ghost.trN) + old(len(specDest(s, TraceLevel))))
+//@   ensures [C12.flags] flags == old(flags) && inTesting == old(inTesting)
 //@   ensures [C01.gate] implies(!old(specAdmits(s.level, TraceLevel)), ghost.emits == old(ghost.emits))
 //@   ensures [C01.emit] implies(old(specAdmits(s.level, TraceLevel)), ghost.emits > old(ghost.emits))
 //@   at call (*Entry).log1 assert [C01.sev] callee.lvl == TraceLevel && callee.s == s
 //@
 //@ func (*Entry).Print
-//@   props C01 C12
-//@   requires s != nil
+//@   props C01 C02 C12 C13
+//@   requires s != nil && specFmtInv(s)
 //@   assigns everything
+//@   keeps PrintCtx.off, PrintCtx.lvl
+//@   requires defaultWriter != nil && ghost.trN >= 0
+//@   requires [INV-dw] forall(k, 0, len(specDest(s, AlwaysLevel)), !isnil(specDest(s, AlwaysLevel)[k]) && !typeis(specDest(s, AlwaysLevel)[k], LWs) && implies(typeis(specDest(s, AlwaysLevel)[k], *logwr), dyn(specDest(s, AlwaysLevel)[k], *logwr) != nil && !typeis(dyn(specDest(s, AlwaysLevel)[k], *logwr).Writer, *logwr) && !typeis(dyn(specDest(s, AlwaysLevel)[k], *logwr).Writer, LWs)))
+//@   requires [INV-dw.warn] forall(k, 0, len(specDest(s, WarnLevel)), !isnil(specDest(s, WarnLevel)[k]) && !typeis(specDest(s, WarnLevel)[k], LWs) && implies(typeis(specDest(s, WarnLevel)[k], *logwr), dyn(specDest(s, WarnLevel)[k], *logwr) != nil && !typeis(dyn(specDest(s, WarnLevel)[k], *logwr).Writer, *logwr) && !typeis(dyn(specDest(s, WarnLevel)[k], *logwr).Writer, LWs)))
+//@   ensures [C02.silent] implies(!old(specAdmits(s.level, AlwaysLevel)), ghost.trN == old(ghost.trN) && ghost.records == old(ghost.records) && ghost.warns == old(ghost.warns))
+//@   ensures [C02.appendonly] ghost.trN >= old(ghost.trN) && forall(k, 0, old(ghost.trN), ghost.trace[k] == old(ghost.trace[k]) && ghost.trTold[k] == old(ghost.trTold[k]))
+//@   ensures [C02.handler] implies(!isnil(old(s.handlerOpt)), ghost.trN == old(ghost.trN) && ghost.records == old(ghost.records) && ghost.warns == old(ghost.warns))
+//@   ensures [C13.algebra] implies(isnil(old(s.handlerOpt)) && old(specAdmits(s.level, AlwaysLevel)), ghost.records - old(ghost.records) == 1 + ite(old(specAdmits(s.level, WarnLevel)), ghost.warns - old(ghost.warns), 0)) && ghost.warns >= old(ghost.warns) && ghost.warns <= old(ghost.warns) + 1
+//@   ensures [C13.nocascade] implies(AlwaysLevel == WarnLevel, ghost.warns == old(ghost.warns))
+//@   ensures [C02.deliver] implies(isnil(old(s.handlerOpt)) && old(specAdmits(s.level, AlwaysLevel)), ghost.trN >= old(ghost.trN) + old(len(specDest(s, AlwaysLevel))))
+//@   ensures [C13.quiet] implies(isnil(old(s.handlerOpt)) && old(specAdmits(s.level, AlwaysLevel)) && ghost.warns == old(ghost.warns), ghost.trN == old(ghost.trN) + old(len(specDest(s, AlwaysLevel))))
+//@   ensures [C12.flags] flags == old(flags) && inTesting == old(inTesting)
 //@   ensures [C01.gate] implies(!old(specAdmits(s.level, AlwaysLevel)), ghost.emits == old(ghost.emits))
 //@   ensures [C01.emit] implies(old(specAdmits(s.level, AlwaysLevel)), ghost.emits > old(ghost.emits))
 //@   at call (*Entry).log1 assert [C01.sev] callee.lvl == AlwaysLevel && callee.s == s
 //@
 //@ func (*Entry).OK
-//@   props C01 C12
-//@   requires s != nil
+//@   props C01 C02 C12 C13
+//@   requires s != nil && specFmtInv(s)
 //@   assigns everything
+//@   keeps PrintCtx.off, PrintCtx.lvl
+//@   requires defaultWriter != nil && ghost.trN >= 0
+//@   requires [INV-dw] forall(k, 0, len(specDest(s, OKLevel)), !isnil(specDest(s, OKLevel)[k]) && !typeis(specDest(s, OKLevel)[k], LWs) && implies(typeis(specDest(s, OKLevel)[k], *logwr), dyn(specDest(s, OKLevel)[k], *logwr) != nil && !typeis(dyn(specDest(s, OKLevel)[k], *logwr).Writer, *logwr) && !typeis(dyn(specDest(s, OKLevel)[k], *logwr).Writer, LWs)))
+//@   requires [INV-dw.warn] forall(k, 0, len(specDest(s, WarnLevel)), !isnil(specDest(s, WarnLevel)[k]) && !typeis(specDest(s, WarnLevel)[k], LWs) && implies(typeis(specDest(s, WarnLevel)[k], *logwr), dyn(specDest(s, WarnLevel)[k], *logwr) != nil && !typeis(dyn(specDest(s, WarnLevel)[k], *logwr).Writer, *logwr) && !typeis(dyn(specDest(s, WarnLevel)[k], *logwr).Writer, LWs)))
+//@   ensures [C02.silent] implies(!old(specAdmits(s.level, OKLevel)), ghost.trN == old(ghost.trN) && ghost.records == old(ghost.records) && ghost.warns == old(ghost.warns))
+//@   ensures [C02.appendonly] ghost.trN >= old(ghost.trN) && forall(k, 0, old(ghost.trN), ghost.trace[k] == old(ghost.trace[k]) && ghost.trTold[k] == old(ghost.trTold[k]))
+//@   ensures [C02.handler] implies(!isnil(old(s.handlerOpt)), ghost.trN == old(ghost.trN) && ghost.records == old(ghost.records) && ghost.warns == old(ghost.warns))
+//@   ensures [C13.algebra] implies(isnil(old(s.handlerOpt)) && old(specAdmits(s.level, OKLevel)), ghost.records - old(ghost.records) == 1 + ite(old(specAdmits(s.level, WarnLevel)), ghost.warns - old(ghost.warns), 0)) && ghost.warns >= old(ghost.warns) && ghost.warns <= old(ghost.warns) + 1
+//@   ensures [C13.nocascade] implies(OKLevel == WarnLevel, ghost.warns == old(ghost.warns))
+//@   ensures [C02.deliver] implies(isnil(old(s.handlerOpt)) && old(specAdmits(s.level, OKLevel)), ghost.trN >= old(ghost.trN) + old(len(specDest(s, OKLevel))))
+//@   ensures [C13.quiet] implies(isnil(old(s.handlerOpt)) && old(specAdmits(s.level, OKLevel)) && ghost.warns == old(ghost.warns), ghost.trN == old(ghost.trN) + old(len(specDest(s, OKLevel))))
+//@   ensures [C12.flags] flags == old(flags) && inTesting == old(inTesting)
 //@   ensures [C01.gate] implies(!old(specAdmits(s.level, OKLevel)), ghost.emits == old(ghost.emits))
 //@   ensures [C01.emit] implies(old(specAdmits(s.level, OKLevel)), ghost.emits > old(ghost.emits))
 //@   at call (*Entry).log1 assert [C01.sev] callee.lvl == OKLevel && callee.s == s
 //@
 //@ func (*Entry).Success
-//@   props C01 C12
-//@   requires s != nil
+//@   props C01 C02 C12 C13
+//@   requires s != nil && specFmtInv(s)
 //@   assigns everything
+//@   keeps PrintCtx.off, PrintCtx.lvl
+//@   requires defaultWriter != nil && ghost.trN >= 0
+//@   requires [INV-dw] forall(k, 0, len(specDest(s, SuccessLevel)), !isnil(specDest(s, SuccessLevel)[k]) && !typeis(specDest(s, SuccessLevel)[k], LWs) && implies(typeis(specDest(s, SuccessLevel)[k], *logwr), dyn(specDest(s, SuccessLevel)[k], *logwr) != nil && !typeis(dyn(specDest(s, SuccessLevel)[k], *logwr).Writer, *logwr) && !typeis(dyn(specDest(s, SuccessLevel)[k], *logwr).Writer, LWs)))
+//@   requires [INV-dw.warn] forall(k, 0, len(specDest(s, WarnLevel)), !isnil(specDest(s, WarnLevel)[k]) && !typeis(specDest(s, WarnLevel)[k], LWs) && implies(typeis(specDest(s, WarnLevel)[k], *logwr), dyn(specDest(s, WarnLevel)[k], *logwr) != nil && !typeis(dyn(specDest(s, WarnLevel)[k], *logwr).Writer, *logwr) && !typeis(dyn(specDest(s, WarnLevel)[k], *logwr).Writer, LWs)))
+//@   ensures [C02.silent] implies(!old(specAdmits(s.level, SuccessLevel)), ghost.trN == old(ghost.trN) && ghost.records == old(ghost.records) && ghost.warns == old(ghost.warns))
+//@   ensures [C02.appendonly] ghost.trN >= old(ghost.trN) && forall(k, 0, old(ghost.trN), ghost.trace[k] == old(ghost.trace[k]) && ghost.trTold[k] == old(ghost.trTold[k]))
+//@   ensures [C02.handler] implies(!isnil(old(s.handlerOpt)), ghost.trN == old(ghost.trN) && ghost.records == old(ghost.records) && ghost.warns == old(ghost.warns))
+//@   ensures [C13.algebra] implies(isnil(old(s.handlerOpt)) && old(specAdmits(s.level, SuccessLevel)), ghost.records - old(ghost.records) == 1 + ite(old(specAdmits(s.level, WarnLevel)), ghost.warns - old(ghost.warns), 0)) && ghost.warns >= old(ghost.warns) && ghost.warns <= old(ghost.warns) + 1
+//@   ensures [C13.nocascade] implies(SuccessLevel == WarnLevel, ghost.warns == old(ghost.warns))
+//@   ensures [C02.deliver] implies(isnil(old(s.handlerOpt)) && old(specAdmits(s.level, SuccessLevel)), ghost.trN >= old(ghost.trN) + old(len(specDest(s, SuccessLevel))))
+//@   ensures [C13.quiet] implies(isnil(old(s.handlerOpt)) && old(specAdmits(s.level, SuccessLevel)) && ghost.warns == old(ghost.warns), ghost.trN == old(ghost.trN) + old(len(specDest(s, SuccessLevel))))
+//@   ensures [C12.flags] flags == old(flags) && inTesting == old(inTesting)
 //@   ensures [C01.gate] implies(!old(specAdmits(s.level, SuccessLevel)), ghost.emits == old(ghost.emits))
 //@   ensures [C01.emit] implies(old(specAdmits(s.level, SuccessLevel)), ghost.emits > old(ghost.emits))
 //@   at call (*Entry).log1 assert [C01.sev] callee.lvl == SuccessLevel && callee.s == s
 //@
 //@ func (*Entry).Fail
-//@   props C01 C12
-//@   requires s != nil
+//@   props C01 C02 C12 C13
+//@   requires s != nil && specFmtInv(s)
 //@   assigns everything
+//@   keeps PrintCtx.off, PrintCtx.lvl
+//@   requires defaultWriter != nil && ghost.trN >= 0
+//@   requires [INV-dw] forall(k, 0, len(specDest(s, FailLevel)), !isnil(specDest(s, FailLevel)[k]) && !typeis(specDest(s, FailLevel)[k], LWs) && implies(typeis(specDest(s, FailLevel)[k], *logwr), dyn(specDest(s, FailLevel)[k], *logwr) != nil && !typeis(dyn(specDest(s, FailLevel)[k], *logwr).Writer, *logwr) && !typeis(dyn(specDest(s, FailLevel)[k], *logwr).Writer, LWs)))
+//@   requires [INV-dw.warn] forall(k, 0, len(specDest(s, WarnLevel)), !isnil(specDest(s, WarnLevel)[k]) && !typeis(specDest(s, WarnLevel)[k], LWs) && implies(typeis(specDest(s, WarnLevel)[k], *logwr), dyn(specDest(s, WarnLevel)[k], *logwr) != nil && !typeis(dyn(specDest(s, WarnLevel)[k], *logwr).Writer, *logwr) && !typeis(dyn(specDest(s, WarnLevel)[k], *logwr).Writer, LWs)))
+//@   ensures [C02.silent] implies(!old(specAdmits(s.level, FailLevel)), ghost.trN == old(ghost.trN) && ghost.records == old(ghost.records) && ghost.warns == old(ghost.warns))
+//@   ensures [C02.appendonly] ghost.trN >= old(ghost.trN) && forall(k, 0, old(ghost.trN), ghost.trace[k] == old(ghost.trace[k]) && ghost.trTold[k] == old(ghost.trTold[k]))
+//@   ensures [C02.handler] implies(!isnil(old(s.handlerOpt)), ghost.trN == old(ghost.trN) && ghost.records == old(ghost.records) && ghost.warns == old(ghost.warns))
+//@   ensures [C13.algebra] implies(isnil(old(s.handlerOpt)) && old(specAdmits(s.level, FailLevel)), ghost.records - old(ghost.records) == 1 + ite(old(specAdmits(s.level, WarnLevel)), ghost.warns - old(ghost.warns), 0)) && ghost.warns >= old(ghost.warns) && ghost.warns <= old(ghost.warns) + 1
+//@   ensures [C13.nocascade] implies(FailLevel == WarnLevel, ghost.warns == old(ghost.warns))
+//@   ensures [C02.deliver] implies(isnil(old(s.handlerOpt)) && old(specAdmits(s.level, FailLevel)), ghost.trN >= old(ghost.trN) + old(len(specDest(s, FailLevel))))
+//@   ensures [C13.quiet] implies(isnil(old(s.handlerOpt)) && old(specAdmits(s.level, FailLevel)) && ghost.warns == old(ghost.warns), ghost.trN == old(ghost.trN) + old(len(specDest(s, FailLevel))))
+//@   ensures [C12.flags] flags == old(flags) && inTesting == old(inTesting)
 //@   ensures [C01.gate] implies(!old(specAdmits(s.level, FailLevel)), ghost.emits == old(ghost.emits))
 //@   ensures [C01.emit] implies(old(specAdmits(s.level, FailLevel)), ghost.emits > old(ghost.emits))
 //@   at call (*Entry).log1 assert [C01.sev] callee.lvl == FailLevel && callee.s == s
 //@
 //@ func (*Entry).Println
-//@   props C01 C12
-//@   requires s != nil
+//@   props C01 C02 C12 C13
+//@   requires s != nil && specFmtInv(s)
 //@   assigns everything
+//@   keeps PrintCtx.off, PrintCtx.lvl
+//@   requires defaultWriter != nil && ghost.trN >= 0
+//@   requires [INV-dw] forall(k, 0, len(specDest(s, AlwaysLevel)), !isnil(specDest(s, AlwaysLevel)[k]) && !typeis(specDest(s, AlwaysLevel)[k], LWs) && implies(typeis(specDest(s, AlwaysLevel)[k], *logwr), dyn(specDest(s, AlwaysLevel)[k], *logwr) != nil && !typeis(dyn(specDest(s, AlwaysLevel)[k], *logwr).Writer, *logwr) && !typeis(dyn(specDest(s, AlwaysLevel)[k], *logwr).Writer, LWs)))
+//@   requires [INV-dw.warn] forall(k, 0, len(specDest(s, WarnLevel)), !isnil(specDest(s, WarnLevel)[k]) && !typeis(specDest(s, WarnLevel)[k], LWs) && implies(typeis(specDest(s, WarnLevel)[k], *logwr), dyn(specDest(s, WarnLevel)[k], *logwr) != nil && !typeis(dyn(specDest(s, WarnLevel)[k], *logwr).Writer, *logwr) && !typeis(dyn(specDest(s, WarnLevel)[k], *logwr).Writer, LWs)))
+//@   ensures [C02.silent] implies(!old(specAdmits(s.level, AlwaysLevel)), ghost.trN == old(ghost.trN) && ghost.records == old(ghost.records) && ghost.warns == old(ghost.warns))
+//@   ensures [C02.appendonly] ghost.trN >= old(ghost.trN) && forall(k, 0, old(ghost.trN), ghost.trace[k] == old(ghost.trace[k]) && ghost.trTold[k] == old(ghost.trTold[k]))
+//@   ensures [C02.handler] implies(!isnil(old(s.handlerOpt)), ghost.trN == old(ghost.trN) && ghost.records == old(ghost.records) && ghost.warns == old(ghost.warns))
+//@   ensures [C13.algebra] implies(isnil(old(s.handlerOpt)) && old(specAdmits(s.level, AlwaysLevel)), ghost.records - old(ghost.records) == 1 + ite(old(specAdmits(s.level, WarnLevel)), ghost.warns - old(ghost.warns), 0)) && ghost.warns >= old(ghost.warns) && ghost.warns <= old(ghost.warns) + 1
+//@   ensures [C13.nocascade] implies(AlwaysLevel == WarnLevel, ghost.warns == old(ghost.warns))
+//@   ensures [C02.deliver] implies(isnil(old(s.handlerOpt)) && old(specAdmits(s.level, AlwaysLevel)), ghost.trN >= old(ghost.trN) + old(len(specDest(s, AlwaysLevel))))
+//@   ensures [C13.quiet] implies(isnil(old(s.handlerOpt)) && old(specAdmits(s.level, AlwaysLevel)) && ghost.warns == old(ghost.warns), ghost.trN == old(ghost.trN) + old(len(specDest(s, AlwaysLevel))))
+//@   ensures [C12.flags] flags == old(flags) && inTesting == old(inTesting)
 //@   ensures [C01.gate] implies(!old(specAdmits(s.level, AlwaysLevel)), ghost.emits == old(ghost.emits))
 //@   ensures [C01.emit] implies(old(specAdmits(s.level, AlwaysLevel)), ghost.emits > old(ghost.emits))
 //@   at call (*Entry).log1 assert [C01.sev] callee.lvl == AlwaysLevel && callee.s == s
 //@
 //@ func (*Entry).PanicContext
-//@   props C01 C12
-//@   requires s != nil
+//@   props C01 C02 C12 C13
+//@   requires s != nil && specFmtInv(s)
 //@   assigns everything
+//@   keeps PrintCtx.off, PrintCtx.lvl
 //@   panics [C12.panic] when specAdmits(s.level, PanicLevel) && specInterrupts() && isnil(s.handlerOpt)
+//@   requires defaultWriter != nil && ghost.trN >= 0
+//@   requires [INV-dw] forall(k, 0, len(specDest(s, PanicLevel)), !isnil(specDest(s, PanicLevel)[k]) && !typeis(specDest(s, PanicLevel)[k], LWs) && implies(typeis(specDest(s, PanicLevel)[k], *logwr), dyn(specDest(s, PanicLevel)[k], *logwr) != nil && !typeis(dyn(specDest(s, PanicLevel)[k], *logwr).Writer, *logwr) && !typeis(dyn(specDest(s, PanicLevel)[k], *logwr).Writer, LWs)))
+//@   requires [INV-dw.warn] forall(k, 0, len(specDest(s, WarnLevel)), !isnil(specDest(s, WarnLevel)[k]) && !typeis(specDest(s, WarnLevel)[k], LWs) && implies(typeis(specDest(s, WarnLevel)[k], *logwr), dyn(specDest(s, WarnLevel)[k], *logwr) != nil && !typeis(dyn(specDest(s, WarnLevel)[k], *logwr).Writer, *logwr) && !typeis(dyn(specDest(s, WarnLevel)[k], *logwr).Writer, LWs)))
+//@   ensures [C02.silent] implies(!old(specAdmits(s.level, PanicLevel)), ghost.trN == old(ghost.trN) && ghost.records == old(ghost.records) && ghost.warns == old(ghost.warns))
+//@   ensures [C02.appendonly] ghost.trN >= old(ghost.trN) && forall(k, 0, old(ghost.trN), ghost.trace[k] == old(ghost.trace[k]) && ghost.trTold[k] == old(ghost.trTold[k]))
+//@   ensures [C02.handler] implies(!isnil(old(s.handlerOpt)), ghost.trN == old(ghost.trN) && ghost.records == old(ghost.records) && ghost.warns == old(ghost.warns))
+//@   ensures [C13.algebra] implies(isnil(old(s.handlerOpt)) && old(specAdmits(s.level, PanicLevel)), ghost.records - old(ghost.records) == 1 + ite(old(specAdmits(s.level, WarnLevel)), ghost.warns - old(ghost.warns), 0)) && ghost.warns >= old(ghost.warns) && ghost.warns <= old(ghost.warns) + 1
+//@   ensures [C13.nocascade] implies(PanicLevel == WarnLevel, ghost.warns == old(ghost.warns))
+//@   ensures [C02.deliver] implies(isnil(old(s.handlerOpt)) && old(specAdmits(s.level, PanicLevel)), ghost.trN >= old(ghost.trN) + old(len(specDest(s, PanicLevel))))
+//@   ensures [C13.quiet] implies(isnil(old(s.handlerOpt)) && old(specAdmits(s.level, PanicLevel)) && ghost.warns == old(ghost.warns), ghost.trN == old(ghost.trN) + old(len(specDest(s, PanicLevel))))
+//@   ensures [C12.flags] flags == old(flags) && inTesting == old(inTesting)
 //@   ensures [C01.gate] implies(!old(specAdmits(s.level, PanicLevel)), ghost.emits == old(ghost.emits))
 //@   ensures [C01.emit] implies(old(specAdmits(s.level, PanicLevel)), ghost.emits > old(ghost.emits))
 //@   at call (*Entry).logContext assert [C01.sev] callee.lvl == PanicLevel && callee.s == s
 //@
 //@ func (*Entry).FatalContext
-//@   props C01 C12
-//@   requires s != nil
+//@   props C01 C02 C12 C13
+//@   requires s != nil && specFmtInv(s)
 //@   assigns everything
+//@   keeps PrintCtx.off, PrintCtx.lvl
 //@   exits [C12.exit] when specAdmits(s.level, FatalLevel) && specInterrupts() && isnil(s.handlerOpt)
+//@   requires defaultWriter != nil && ghost.trN >= 0
+//@   requires [INV-dw] forall(k, 0, len(specDest(s, FatalLevel)), !isnil(specDest(s, FatalLevel)[k]) && !typeis(specDest(s, FatalLevel)[k], LWs) && implies(typeis(specDest(s, FatalLevel)[k], *logwr), dyn(specDest(s, FatalLevel)[k], *logwr) != nil && !typeis(dyn(specDest(s, FatalLevel)[k], *logwr).Writer, *logwr) && !typeis(dyn(specDest(s, FatalLevel)[k], *logwr).Writer, LWs)))
+//@   requires [INV-dw.warn] forall(k, 0, len(specDest(s, WarnLevel)), !isnil(specDest(s, WarnLevel)[k]) && !typeis(specDest(s, WarnLevel)[k], LWs) && implies(typeis(specDest(s, WarnLevel)[k], *logwr), dyn(specDest(s, WarnLevel)[k], *logwr) != nil && !typeis(dyn(specDest(s, WarnLevel)[k], *logwr).Writer, *logwr) && !typeis(dyn(specDest(s, WarnLevel)[k], *logwr).Writer, LWs)))
+//@   ensures [C02.silent] implies(!old(specAdmits(s.level, FatalLevel)), ghost.trN == old(ghost.trN) && ghost.records == old(ghost.records) && ghost.warns == old(ghost.warns))
+//@   ensures [C02.appendonly] ghost.trN >= old(ghost.trN) && forall(k, 0, old(ghost.trN), ghost.trace[k] == old(ghost.trace[k]) && ghost.trTold[k] == old(ghost.trTold[k]))
+//@   ensures [C02.handler] implies(!isnil(old(s.handlerOpt)), ghost.trN == old(ghost.trN) && ghost.records == old(ghost.records) && ghost.warns == old(ghost.warns))
+//@   ensures [C13.algebra] implies(isnil(old(s.handlerOpt)) && old(specAdmits(s.level, FatalLevel)), ghost.records - old(ghost.records) == 1 + ite(old(specAdmits(s.level, WarnLevel)), ghost.warns - old(ghost.warns), 0)) && ghost.warns >= old(ghost.warns) && ghost.warns <= old(ghost.warns) + 1
+//@   ensures [C13.nocascade] implies(FatalLevel == WarnLevel, ghost.warns == old(ghost.warns))
+//@   ensures [C02.deliver] implies(isnil(old(s.handlerOpt)) && old(specAdmits(s.level, FatalLevel)), ghost.trN >= old(ghost.trN) + old(len(specDest(s, FatalLevel))))
+//@   ensures [C13.quiet] implies(isnil(old(s.handlerOpt)) && old(specAdmits(s.level, FatalLevel)) && ghost.warns == old(ghost.warns), ghost.trN == old(ghost.trN) + old(len(specDest(s, FatalLevel))))
+//@   ensures [C12.flags] flags == old(flags) && inTesting == old(inTesting)
 //@   ensures [C01.gate] implies(!old(specAdmits(s.level, FatalLevel)), ghost.emits == old(ghost.emits))
 //@   ensures [C01.emit] implies(old(specAdmits(s.level, FatalLevel)), ghost.emits > old(ghost.emits))
 //@   at call (*Entry).logContext assert [C01.sev] callee.lvl == FatalLevel && callee.s == s
 //@
 //@ func (*Entry).ErrorContext
-//@   props C01 C12
-//@   requires s != nil
+//@   props C01 C02 C12 C13
+//@   requires s != nil && specFmtInv(s)
 //@   assigns everything
+//@   keeps PrintCtx.off, PrintCtx.lvl
+//@   requires defaultWriter != nil && ghost.trN >= 0
+//@   requires [INV-dw] forall(k, 0, len(specDest(s, ErrorLevel)), !isnil(specDest(s, ErrorLevel)[k]) && !typeis(specDest(s, ErrorLevel)[k], LWs) && implies(typeis(specDest(s, ErrorLevel)[k], *logwr), dyn(specDest(s, ErrorLevel)[k], *logwr) != nil && !typeis(dyn(specDest(s, ErrorLevel)[k], *logwr).Writer, *logwr) && !typeis(dyn(specDest(s, ErrorLevel)[k], *logwr).Writer, LWs)))
+//@   requires [INV-dw.warn] forall(k, 0, len(specDest(s, WarnLevel)), !isnil(specDest(s, WarnLevel)[k]) && !typeis(specDest(s, WarnLevel)[k], LWs) && implies(typeis(specDest(s, WarnLevel)[k], *logwr), dyn(specDest(s, WarnLevel)[k], *logwr) != nil && !typeis(dyn(specDest(s, WarnLevel)[k], *logwr).Writer, *logwr) && !typeis(dyn(specDest(s, WarnLevel)[k], *logwr).Writer, LWs)))
+//@   ensures [C02.silent] implies(!old(specAdmits(s.level, ErrorLevel)), ghost.trN == old(ghost.trN) && ghost.records == old(ghost.records) && ghost.warns == old(ghost.warns))
+//@   ensures [C02.appendonly] ghost.trN >= old(ghost.trN) && forall(k, 0, old(ghost.trN), ghost.trace[k] == old(ghost.trace[k]) && ghost.trTold[k] == old(ghost.trTold[k]))
+//@   ensures [C02.handler] implies(!isnil(old(s.handlerOpt)), ghost.trN == old(ghost.trN) && ghost.records == old(ghost.records) && ghost.warns == old(ghost.warns))
+//@   ensures [C13.algebra] implies(isnil(old(s.handlerOpt)) && old(specAdmits(s.level, ErrorLevel)), ghost.records - old(ghost.records) == 1 + ite(old(specAdmits(s.level, WarnLevel)), ghost.warns - old(ghost.warns), 0)) && ghost.warns >= old(ghost.warns) && ghost.warns <= old(ghost.warns) + 1
+//@   ensures [C13.nocascade] implies(ErrorLevel == WarnLevel, ghost.warns == old(ghost.warns))
+//@   ensures [C02.deliver] implies(isnil(old(s.handlerOpt)) && old(specAdmits(s.level, ErrorLevel)), ghost.trN >= old(ghost.trN) + old(len(specDest(s, ErrorLevel))))
+//@   ensures [C13.quiet] implies(isnil(old(s.handlerOpt)) && old(specAdmits(s.level, ErrorLevel)) && ghost.warns == old(ghost.warns), ghost.trN == old(ghost.trN) + old(len(specDest(s, ErrorLevel))))
+//@   ensures [C12.flags] flags == old(flags) && inTesting == old(inTesting)
 //@   ensures [C01.gate] implies(!old(specAdmits(s.level, ErrorLevel)), ghost.emits == old(ghost.emits))
 //@   ensures [C01.emit] implies(old(specAdmits(s.level, ErrorLevel)), ghost.emits > old(ghost.emits))
 //@   at call (*Entry).logContext assert [C01.sev] callee.lvl == ErrorLevel && callee.s == s
 //@
 //@ func (*Entry).WarnContext
-//@   props C01 C12
-//@   requires s != nil
+//@   props C01 C02 C12 C13
+//@   requires s != nil && specFmtInv(s)
 //@   assigns everything
+//@   keeps PrintCtx.off, PrintCtx.lvl
+//@   requires defaultWriter != nil && ghost.trN >= 0
+//@   requires [INV-dw] forall(k, 0, len(specDest(s, WarnLevel)), !isnil(specDest(s, WarnLevel)[k]) && !typeis(specDest(s, WarnLevel)[k], LWs) && implies(typeis(specDest(s, WarnLevel)[k], *logwr), dyn(specDest(s, WarnLevel)[k], *logwr) != nil && !typeis(dyn(specDest(s, WarnLevel)[k], *logwr).Writer, *logwr) && !typeis(dyn(specDest(s, WarnLevel)[k], *logwr).Writer, LWs)))
+//@   requires [INV-dw.warn] forall(k, 0, len(specDest(s, WarnLevel)), !isnil(specDest(s, WarnLevel)[k]) && !typeis(specDest(s, WarnLevel)[k], LWs) && implies(typeis(specDest(s, WarnLevel)[k], *logwr), dyn(specDest(s, WarnLevel)[k], *logwr) != nil && !typeis(dyn(specDest(s, WarnLevel)[k], *logwr).Writer, *logwr) && !typeis(dyn(specDest(s, WarnLevel)[k], *logwr).Writer, LWs)))
+//@   ensures [C02.silent] implies(!old(specAdmits(s.level, WarnLevel)), ghost.trN == old(ghost.trN) && ghost.records == old(ghost.records) && ghost.warns == old(ghost.warns))
+//@   ensures [C02.appendonly] ghost.trN >= old(ghost.trN) && forall(k, 0, old(ghost.trN), ghost.trace[k] == old(ghost.trace[k]) && ghost.trTold[k] == old(ghost.trTold[k]))
+//@   ensures [C02.handler] implies(!isnil(old(s.handlerOpt)), ghost.trN == old(ghost.trN) && ghost.records == old(ghost.records) && ghost.warns == old(ghost.warns))
+//@   ensures [C13.algebra] implies(isnil(old(s.handlerOpt)) && old(specAdmits(s.level, WarnLevel)), ghost.records - old(ghost.records) == 1 + ite(old(specAdmits(s.level, WarnLevel)), ghost.warns - old(ghost.warns), 0)) && ghost.warns >= old(ghost.warns) && ghost.warns <= old(ghost.warns) + 1
+//@   ensures [C13.nocascade] implies(WarnLevel == WarnLevel, ghost.warns == old(ghost.warns))
+//@   ensures [C02.deliver] implies(isnil(old(s.handlerOpt)) && old(specAdmits(s.level, WarnLevel)), ghost.trN >= old(ghost.trN) + old(len(specDest(s, WarnLevel))))
+//@   ensures [C13.quiet] implies(isnil(old(s.handlerOpt)) && old(specAdmits(s.level, WarnLevel)) && ghost.warns == old(ghost.warns), ghost.trN == old(ghost.trN) + old(len(specDest(s, WarnLevel))))
+//@   ensures [C12.flags] flags == old(flags) && inTesting == old(inTesting)
 //@   ensures [C01.gate] implies(!old(specAdmits(s.level, WarnLevel)), ghost.emits == old(ghost.emits))
 //@   ensures [C01.emit] implies(old(specAdmits(s.level, WarnLevel)), ghost.emits > old(ghost.emits))
 //@   at call (*Entry).logContext assert [C01.sev] callee.lvl == WarnLevel && callee.s == s
 //@
 //@ func (*Entry).InfoContext
-//@   props C01 C12
-//@   requires s != nil
+//@   props C01 C02 C12 C13
+//@   requires s != nil && specFmtInv(s)
 //@   assigns everything
+//@   keeps PrintCtx.off, PrintCtx.lvl
+//@   requires defaultWriter != nil && ghost.trN >= 0
+//@   requires [INV-dw] forall(k, 0, len(specDest(s, InfoLevel)), !isnil(specDest(s, InfoLevel)[k]) && !typeis(specDest(s, InfoLevel)[k], LWs) && implies(typeis(specDest(s, InfoLevel)[k], *logwr), dyn(specDest(s, InfoLevel)[k], *logwr) != nil && !typeis(dyn(specDest(s, InfoLevel)[k], *logwr).Writer, *logwr) && !typeis(dyn(specDest(s, InfoLevel)[k], *logwr).Writer, LWs)))
+//@   requires [INV-dw.warn] forall(k, 0, len(specDest(s, WarnLevel)), !isnil(specDest(s, WarnLevel)[k]) && !typeis(specDest(s, WarnLevel)[k], LWs) && implies(typeis(specDest(s, WarnLevel)[k], *logwr), dyn(specDest(s, WarnLevel)[k], *logwr) != nil && !typeis(dyn(specDest(s, WarnLevel)[k], *logwr).Writer, *logwr) && !typeis(dyn(specDest(s, WarnLevel)[k], *logwr).Writer, LWs)))
+//@   ensures [C02.silent] implies(!old(specAdmits(s.level, InfoLevel)), ghost.trN == old(ghost.trN) && ghost.records == old(ghost.records) && ghost.warns == old(ghost.warns))
+//@   ensures [C02.appendonly] ghost.trN >= old(ghost.trN) && forall(k, 0, old(ghost.trN), ghost.trace[k] == old(ghost.trace[k]) && ghost.trTold[k] == old(ghost.trTold[k]))
+//@   ensures [C02.handler] implies(!isnil(old(s.handlerOpt)), ghost.trN == old(ghost.trN) && ghost.records == old(ghost.records) && ghost.warns == old(ghost.warns))
+//@   ensures [C13.algebra] implies(isnil(old(s.handlerOpt)) && old(specAdmits(s.level, InfoLevel)), ghost.records - old(ghost.records) == 1 + ite(old(specAdmits(s.level, WarnLevel)), ghost.warns - old(ghost.warns), 0)) && ghost.warns >= old(ghost.warns) && ghost.warns <= old(ghost.warns) + 1
+//@   ensures [C13.nocascade] implies(InfoLevel == WarnLevel, ghost.warns == old(ghost.warns))
+//@   ensures [C02.deliver] implies(isnil(old(s.handlerOpt)) && old(specAdmits(s.level, InfoLevel)), ghost.trN >= old(ghost.trN) + old(len(specDest(s, InfoLevel))))
+//@   ensures [C13.quiet] implies(isnil(old(s.handlerOpt)) && old(specAdmits(s.level, InfoLevel)) && ghost.warns == old(ghost.warns), ghost.trN == old(ghost.trN) + old(len(specDest(s, InfoLevel))))
+//@   ensures [C12.flags] flags == old(flags) && inTesting == old(inTesting)
 //@   ensures [C01.gate] implies(!old(specAdmits(s.level, InfoLevel)), ghost.emits == old(ghost.emits))
 //@   ensures [C01.emit] implies(old(specAdmits(s.level, InfoLevel)), ghost.emits > old(ghost.emits))
 //@   at call (*Entry).logContext assert [C01.sev] callee.lvl == InfoLevel && callee.s == s
 //@
 //@ func (*Entry).DebugContext
-//@   props C01 C12
-//@   requires s != nil
+//@   props C01 C02 C12 C13
+//@   requires s != nil && specFmtInv(s)
 //@   assigns everything
+//@   keeps PrintCtx.off, PrintCtx.lvl
+//@   requires defaultWriter != nil && ghost.trN >= 0
+//@   requires [INV-dw] forall(k, 0, len(specDest(s, DebugLevel)), !isnil(specDest(s, DebugLevel)[k]) && !typeis(specDest(s, DebugLevel)[k], LWs) && implies(typeis(specDest(s, DebugLevel)[k], *logwr), dyn(specDest(s, DebugLevel)[k], *logwr) != nil && !typeis(dyn(specDest(s, DebugLevel)[k], *logwr).Writer, *logwr) && !typeis(dyn(specDest(s, DebugLevel)[k], *logwr).Writer, LWs)))
+//@   requires [INV-dw.warn] forall(k, 0, len(specDest(s, WarnLevel)), !isnil(specDest(s, WarnLevel)[k]) && !typeis(specDest(s, WarnLevel)[k], LWs) && implies(typeis(specDest(s, WarnLevel)[k], *logwr), dyn(specDest(s, WarnLevel)[k], *logwr) != nil && !typeis(dyn(specDest(s, WarnLevel)[k], *logwr).Writer, *logwr) && !typeis(dyn(specDest(s, WarnLevel)[k], *logwr).Writer, LWs)))
+//@   ensures [C02.silent] implies(!old(specAdmits(s.level, DebugLevel)), ghost.trN == old(ghost.trN) && ghost.records == old(ghost.records) && ghost.warns == old(ghost.warns))
+//@   ensures [C02.appendonly] ghost.trN >= old(ghost.trN) && forall(k, 0, old(ghost.trN), ghost.trace[k] == old(ghost.trace[k]) && ghost.trTold[k] == old(ghost.trTold[k]))
+//@   ensures [C02.handler] implies(!isnil(old(s.handlerOpt)), ghost.trN == old(ghost.trN) && ghost.records == old(ghost.records) && ghost.warns == old(ghost.warns))
+//@   ensures [C13.algebra] implies(isnil(old(s.handlerOpt)) && old(specAdmits(s.level, DebugLevel)), ghost.records - old(ghost.records) == 1 + ite(old(specAdmits(s.level, WarnLevel)), ghost.warns - old(ghost.warns), 0)) && ghost.warns >= old(ghost.warns) && ghost.warns <= old(ghost.warns) + 1
+//@   ensures [C13.nocascade] implies(DebugLevel == WarnLevel, ghost.warns == old(ghost.warns))
+//@   ensures [C02.deliver] implies(isnil(old(s.handlerOpt)) && old(specAdmits(s.level, DebugLevel)), ghost.trN >= old(ghost.trN) + old(len(specDest(s, DebugLevel))))
+//@   ensures [C13.quiet] implies(isnil(old(s.handlerOpt)) && old(specAdmits(s.level, DebugLevel)) && ghost.warns == old(ghost.warns), ghost.trN == old(ghost.trN) + old(len(specDest(s, DebugLevel))))
+//@   ensures [C12.flags] flags == old(flags) && inTesting == old(inTesting)
 //@   ensures [C01.gate] implies(!old(specAdmits(s.level, DebugLevel)), ghost.emits == old(ghost.emits))
 //@   ensures [C01.emit] implies(old(specAdmits(s.level, DebugLevel)), ghost.emits > old(ghost.emits))
 //@   at call (*Entry).logContext assert [C01.sev] callee.lvl == DebugLevel && callee.s == s
 //@
 //@ func (*Entry).TraceContext
-//@   props C01 C12
-//@   requires s != nil
+//@   props C01 C02 C12 C13
+//@   requires s != nil && specFmtInv(s)
 //@   assigns everything
+//@   keeps PrintCtx.off, PrintCtx.lvl
+//@   requires defaultWriter != nil && ghost.trN >= 0
+//@   requires [INV-dw] forall(k, 0, len(specDest(s, TraceLevel)), !isnil(specDest(s, TraceLevel)[k]) && !typeis(specDest(s, TraceLevel)[k], LWs) && implies(typeis(specDest(s, TraceLevel)[k], *logwr), dyn(specDest(s, TraceLevel)[k], *logwr) != nil && !typeis(dyn(specDest(s, TraceLevel)[k], *logwr).Writer, *logwr) && !typeis(dyn(specDest(s, TraceLevel)[k], *logwr).Writer, LWs)))
+//@   requires [INV-dw.warn] forall(k, 0, len(specDest(s, WarnLevel)), !isnil(specDest(s, WarnLevel)[k]) && !typeis(specDest(s, WarnLevel)[k], LWs) && implies(typeis(specDest(s, WarnLevel)[k], *logwr), dyn(specDest(s, WarnLevel)[k], *logwr) != nil && !typeis(dyn(specDest(s, WarnLevel)[k], *logwr).Writer, *logwr) && !typeis(dyn(specDest(s, WarnLevel)[k], *logwr).Writer, LWs)))
+//@   ensures [C02.silent] implies(!old(specAdmits(s.level, TraceLevel)), ghost.trN == old(ghost.trN) && ghost.records == old(ghost.records) && ghost.warns == old(ghost.warns))
+//@   ensures [C02.appendonly] ghost.trN >= old(ghost.trN) && forall(k, 0, old(ghost.trN), ghost.trace[k] == old(ghost.trace[k]) && ghost.trTold[k] == old(ghost.trTold[k]))
+//@   ensures [C02.handler] implies(!isnil(old(s.handlerOpt)), ghost.trN == old(ghost.trN) && ghost.records == old(ghost.records) && ghost.warns == old(ghost.warns))
+//@   ensures [C13.algebra] implies(isnil(old(s.handlerOpt)) && old(specAdmits(s.level, TraceLevel)), ghost.records - old(ghost.records) == 1 + ite(old(specAdmits(s.level, WarnLevel)), ghost.warns - old(ghost.warns), 0)) && ghost.warns >= old(ghost.warns) && ghost.warns <= old(ghost.warns) + 1
+//@   ensures [C13.nocascade] implies(TraceLevel == WarnLevel, ghost.warns == old(ghost.warns))
+//@   ensures [C02.deliver] implies(isnil(old(s.handlerOpt)) && old(specAdmits(s.level, TraceLevel)), ghost.trN >= old(ghost.trN) + old(len(specDest(s, TraceLevel))))
+//@   ensures [C13.quiet] implies(isnil(old(s.handlerOpt)) && old(specAdmits(s.level, TraceLevel)) && ghost.warns == old(ghost.warns), ghost.trN == old(ghost.trN) + old(len(specDest(s, TraceLevel))))
+//@   ensures [C12.flags] flags == old(flags) && inTesting == old(inTesting)
 //@   ensures [C01.gate] implies(!old(specAdmits(s.level, TraceLevel)), ghost.emits == old(ghost.emits))
 //@   ensures [C01.emit] implies(old(specAdmits(s.level, TraceLevel)), ghost.emits > old(ghost.emits))
 //@   at call (*Entry).logContext assert [C01.sev] callee.lvl == TraceLevel && callee.s == s
 //@
 //@ func (*Entry).PrintContext
-//@   props C01 C12
-//@   requires s != nil
+//@   props C01 C02 C12 C13
+//@   requires s != nil && specFmtInv(s)
 //@   assigns everything
+//@   keeps PrintCtx.off, PrintCtx.lvl
+//@   requires defaultWriter != nil && ghost.trN >= 0
+//@   requires [INV-dw] forall(k, 0, len(specDest(s, AlwaysLevel)), !isnil(specDest(s, AlwaysLevel)[k]) && !typeis(specDest(s, AlwaysLevel)[k], LWs) && implies(typeis(specDest(s, AlwaysLevel)[k], *logwr), dyn(specDest(s, AlwaysLevel)[k], *logwr) != nil && !typeis(dyn(specDest(s, AlwaysLevel)[k], *logwr).Writer, *logwr) && !typeis(dyn(specDest(s, AlwaysLevel)[k], *logwr).Writer, LWs)))
+//@   requires [INV-dw.warn] forall(k, 0, len(specDest(s, WarnLevel)), !isnil(specDest(s, WarnLevel)[k]) && !typeis(specDest(s, WarnLevel)[k], LWs) && implies(typeis(specDest(s, WarnLevel)[k], *logwr), dyn(specDest(s, WarnLevel)[k], *logwr) != nil && !typeis(dyn(specDest(s, WarnLevel)[k], *logwr).Writer, *logwr) && !typeis(dyn(specDest(s, WarnLevel)[k], *logwr).Writer, LWs)))
+//@   ensures [C02.silent] implies(!old(specAdmits(s.level, AlwaysLevel)), ghost.trN == old(ghost.trN) && ghost.records == old(ghost.records) && ghost.warns == old(ghost.warns))
+//@   ensures [C02.appendonly] ghost.trN >= old(ghost.trN) && forall(k, 0, old(ghost.trN), ghost.trace[k] == old(ghost.trace[k]) && ghost.trTold[k] == old(ghost.trTold[k]))
+//@   ensures [C02.handler] implies(!isnil(old(s.handlerOpt)), ghost.trN == old(ghost.trN) && ghost.records == old(ghost.records) && ghost.warns == old(ghost.warns))
+//@   ensures [C13.algebra] implies(isnil(old(s.handlerOpt)) && old(specAdmits(s.level, AlwaysLevel)), ghost.records - old(ghost.records) == 1 + ite(old(specAdmits(s.level, WarnLevel)), ghost.warns - old(ghost.warns), 0)) && ghost.warns >= old(ghost.warns) && ghost.warns <= old(ghost.warns) + 1
+//@   ensures [C13.nocascade] implies(AlwaysLevel == WarnLevel, ghost.warns == old(ghost.warns))
+//@   ensures [C02.deliver] implies(isnil(old(s.handlerOpt)) && old(specAdmits(s.level, AlwaysLevel)), ghost.trN >= old(ghost.trN) + old(len(specDest(s, AlwaysLevel))))
+//@   ensures [C13.quiet] implies(isnil(old(s.handlerOpt)) && old(specAdmits(s.level, AlwaysLevel)) && ghost.warns == old(ghost.warns), ghost.trN == old(ghost.trN) + old(len(specDest(s, AlwaysLevel))))
+//@   ensures [C12.flags] flags == old(flags) && inTesting == old(inTesting)
 //@   ensures [C01.gate] implies(!old(specAdmits(s.level, AlwaysLevel)), ghost.emits == old(ghost.emits))
 //@   ensures [C01.emit] implies(old(specAdmits(s.level, AlwaysLevel)), ghost.emits > old(ghost.emits))
 //@   at call (*Entry).logContext assert [C01.sev] callee.lvl == AlwaysLevel && callee.s == s
 //@
 //@ func (*Entry).OKContext
-//@   props C01 C12
-//@   requires s != nil
+//@   props C01 C02 C12 C13
+//@   requires s != nil && specFmtInv(s)
 //@   assigns everything
+//@   keeps PrintCtx.off, PrintCtx.lvl
+//@   requires defaultWriter != nil && ghost.trN >= 0
+//@   requires [INV-dw] forall(k, 0, len(specDest(s, OKLevel)), !isnil(specDest(s, OKLevel)[k]) && !typeis(specDest(s, OKLevel)[k], LWs) && implies(typeis(specDest(s, OKLevel)[k], *logwr), dyn(specDest(s, OKLevel)[k], *logwr) != nil && !typeis(dyn(specDest(s, OKLevel)[k], *logwr).Writer, *logwr) && !typeis(dyn(specDest(s, OKLevel)[k], *logwr).Writer, LWs)))
+//@   requires [INV-dw.warn] forall(k, 0, len(specDest(s, WarnLevel)), !isnil(specDest(s, WarnLevel)[k]) && !typeis(specDest(s, WarnLevel)[k], LWs) && implies(typeis(specDest(s, WarnLevel)[k], *logwr), dyn(specDest(s, WarnLevel)[k], *logwr) != nil && !typeis(dyn(specDest(s, WarnLevel)[k], *logwr).Writer, *logwr) && !typeis(dyn(specDest(s, WarnLevel)[k], *logwr).Writer, LWs)))
+//@   ensures [C02.silent] implies(!old(specAdmits(s.level, OKLevel)), ghost.trN == old(ghost.trN) && ghost.records == old(ghost.records) && ghost.warns == old(ghost.warns))
+//@   ensures [C02.appendonly] ghost.trN >= old(ghost.trN) && forall(k, 0, old(ghost.trN), ghost.trace[k] == old(ghost.trace[k]) && ghost.trTold[k] == old(ghost.trTold[k]))
+//@   ensures [C02.handler] implies(!isnil(old(s.handlerOpt)), ghost.trN == old(ghost.trN) && ghost.records == old(ghost.records) && ghost.warns == old(ghost.warns))
+//@   ensures [C13.algebra] implies(isnil(old(s.handlerOpt)) && old(specAdmits(s.level, OKLevel)), ghost.records - old(ghost.records) == 1 + ite(old(specAdmits(s.level, WarnLevel)), ghost.warns - old(ghost.warns), 0)) && ghost.warns >= old(ghost.warns) && ghost.warns <= old(ghost.warns) + 1
+//@   ensures [C13.nocascade] implies(OKLevel == WarnLevel, ghost.warns == old(ghost.warns))
+//@   ensures [C02.deliver] implies(isnil(old(s.handlerOpt)) && old(specAdmits(s.level, OKLevel)), ghost.trN >= old(ghost.trN) + old(len(specDest(s, OKLevel))))
+//@   ensures [C13.quiet] implies(isnil(old(s.handlerOpt)) && old(specAdmits(s.level, OKLevel)) && ghost.warns == old(ghost.warns), ghost.trN == old(ghost.trN) + old(len(specDest(s, OKLevel))))
+//@   ensures [C12.flags] flags == old(flags) && inTesting == old(inTesting)
 //@   ensures [C01.gate] implies(!old(specAdmits(s.level, OKLevel)), ghost.emits == old(ghost.emits))
 //@   ensures [C01.emit] implies(old(specAdmits(s.level, OKLevel)), ghost.emits > old(ghost.emits))
 //@   at call (*Entry).logContext assert [C01.sev] callee.lvl == OKLevel && callee.s == s
 //@
 //@ func (*Entry).SuccessContext
-//@   props C01 C12
-//@   requires s != nil
+//@   props C01 C02 C12 C13
+//@   requires s != nil && specFmtInv(s)
 //@   assigns everything
+//@   keeps PrintCtx.off, PrintCtx.lvl
+//@   requires defaultWriter != nil && ghost.trN >= 0
+//@   requires [INV-dw] forall(k, 0, len(specDest(s, SuccessLevel)), !isnil(specDest(s, SuccessLevel)[k]) && !typeis(specDest(s, SuccessLevel)[k], LWs) && implies(typeis(specDest(s, SuccessLevel)[k], *logwr), dyn(specDest(s, SuccessLevel)[k], *logwr) != nil && !typeis(dyn(specDest(s, SuccessLevel)[k], *logwr).Writer, *logwr) && !typeis(dyn(specDest(s, SuccessLevel)[k], *logwr).Writer, LWs)))
+//@   requires [INV-dw.warn] forall(k, 0, len(specDest(s, WarnLevel)), !isnil(specDest(s, WarnLevel)[k]) && !typeis(specDest(s, WarnLevel)[k], LWs) && implies(typeis(specDest(s, WarnLevel)[k], *logwr), dyn(specDest(s, WarnLevel)[k], *logwr) != nil && !typeis(dyn(specDest(s, WarnLevel)[k], *logwr).Writer, *logwr) && !typeis(dyn(specDest(s, WarnLevel)[k], *logwr).Writer, LWs)))
+//@   ensures [C02.silent] implies(!old(specAdmits(s.level, SuccessLevel)), ghost.trN == old(ghost.trN) && ghost.records == old(ghost.records) && ghost.warns == old(ghost.warns))
+//@   ensures [C02.appendonly] ghost.trN >= old(ghost.trN) && forall(k, 0, old(ghost.trN), ghost.trace[k] == old(ghost.trace[k]) && ghost.trTold[k] == old(ghost.trTold[k]))
+//@   ensures [C02.handler] implies(!isnil(old(s.handlerOpt)), ghost.trN == old(ghost.trN) && ghost.records == old(ghost.records) && ghost.warns == old(ghost.warns))
+//@   ensures [C13.algebra] implies(isnil(old(s.handlerOpt)) && old(specAdmits(s.level, SuccessLevel)), ghost.records - old(ghost.records) == 1 + ite(old(specAdmits(s.level, WarnLevel)), ghost.warns - old(ghost.warns), 0)) && ghost.warns >= old(ghost.warns) && ghost.warns <= old(ghost.warns) + 1
+//@   ensures [C13.nocascade] implies(SuccessLevel == WarnLevel, ghost.warns == old(ghost.warns))
+//@   ensures [C02.deliver] implies(isnil(old(s.handlerOpt)) && old(specAdmits(s.level, SuccessLevel)), ghost.trN >= old(ghost.trN) + old(len(specDest(s, SuccessLevel))))
+//@   ensures [C13.quiet] implies(isnil(old(s.handlerOpt)) && old(specAdmits(s.level, SuccessLevel)) && ghost.warns == old(ghost.warns), ghost.trN == old(ghost.trN) + old(len(specDest(s, SuccessLevel))))
+//@   ensures [C12.flags] flags == old(flags) && inTesting == old(inTesting)
 //@   ensures [C01.gate] implies(!old(specAdmits(s.level, SuccessLevel)), ghost.emits == old(ghost.emits))
 //@   ensures [C01.emit] implies(old(specAdmits(s.level, SuccessLevel)), ghost.emits > old(ghost.emits))
 //@   at call (*Entry).logContext assert [C01.sev] callee.lvl == SuccessLevel && callee.s == s
 //@
 //@ func (*Entry).FailContext
-//@   props C01 C12
-//@   requires s != nil
+//@   props C01 C02 C12 C13
+//@   requires s != nil && specFmtInv(s)
 //@   assigns everything
+//@   keeps PrintCtx.off, PrintCtx.lvl
+//@   requires defaultWriter != nil && ghost.trN >= 0
+//@   requires [INV-dw] forall(k, 0, len(specDest(s, FailLevel)), !isnil(specDest(s, FailLevel)[k]) && !typeis(specDest(s, FailLevel)[k], LWs) && implies(typeis(specDest(s, FailLevel)[k], *logwr), dyn(specDest(s, FailLevel)[k], *logwr) != nil && !typeis(dyn(specDest(s, FailLevel)[k], *logwr).Writer, *logwr) && !typeis(dyn(specDest(s, FailLevel)[k], *logwr).Writer, LWs)))
+//@   requires [INV-dw.warn] forall(k, 0, len(specDest(s, WarnLevel)), !isnil(specDest(s, WarnLevel)[k]) && !typeis(specDest(s, WarnLevel)[k], LWs) && implies(typeis(specDest(s, WarnLevel)[k], *logwr), dyn(specDest(s, WarnLevel)[k], *logwr) != nil && !typeis(dyn(specDest(s, WarnLevel)[k], *logwr).Writer, *logwr) && !typeis(dyn(specDest(s, WarnLevel)[k], *logwr).Writer, LWs)))
+//@   ensures [C02.silent] implies(!old(specAdmits(s.level, FailLevel)), ghost.trN == old(ghost.trN) && ghost.records == old(ghost.records) && ghost.warns == old(ghost.warns))
+//@   ensures [C02.appendonly] ghost.trN >= old(ghost.trN) && forall(k, 0, old(ghost.trN), ghost.trace[k] == old(ghost.trace[k]) && ghost.trTold[k] == old(ghost.trTold[k]))
+//@   ensures [C02.handler] implies(!isnil(old(s.handlerOpt)), ghost.trN == old(ghost.trN) && ghost.records == old(ghost.records) && ghost.warns == old(ghost.warns))
+//@   ensures [C13.algebra] implies(isnil(old(s.handlerOpt)) && old(specAdmits(s.level, FailLevel)), ghost.records - old(ghost.records) == 1 + ite(old(specAdmits(s.level, WarnLevel)), ghost.warns - old(ghost.warns), 0)) && ghost.warns >= old(ghost.warns) && ghost.warns <= old(ghost.warns) + 1
+//@   ensures [C13.nocascade] implies(FailLevel == WarnLevel, ghost.warns == old(ghost.warns))
+//@   ensures [C02.deliver] implies(isnil(old(s.handlerOpt)) && old(specAdmits(s.level, FailLevel)), ghost.trN >= old(ghost.trN) + old(len(specDest(s, FailLevel))))
+//@   ensures [C13.quiet] implies(isnil(old(s.handlerOpt)) && old(specAdmits(s.level, FailLevel)) && ghost.warns == old(ghost.warns), ghost.trN == old(ghost.trN) + old(len(specDest(s, FailLevel))))
+//@   ensures [C12.flags] flags == old(flags) && inTesting == old(inTesting)
 //@   ensures [C01.gate] implies(!old(specAdmits(s.level, FailLevel)), ghost.emits == old(ghost.emits))
 //@   ensures [C01.emit] implies(old(specAdmits(s.level, FailLevel)), ghost.emits > old(ghost.emits))
 //@   at call (*Entry).logContext assert [C01.sev] callee.lvl == FailLevel && callee.s == s
 //@
 //@ func (*Entry).PrintlnContext
-//@   props C01 C12
-//@   requires s != nil
+//@   props C01 C02 C12 C13
+//@   requires s != nil && specFmtInv(s)
 //@   assigns everything
+//@   keeps PrintCtx.off, PrintCtx.lvl
+//@   requires defaultWriter != nil && ghost.trN >= 0
+//@   requires [INV-dw] forall(k, 0, len(specDest(s, AlwaysLevel)), !isnil(specDest(s, AlwaysLevel)[k]) && !typeis(specDest(s, AlwaysLevel)[k], LWs) && implies(typeis(specDest(s, AlwaysLevel)[k], *logwr), dyn(specDest(s, AlwaysLevel)[k], *logwr) != nil && !typeis(dyn(specDest(s, AlwaysLevel)[k], *logwr).Writer, *logwr) && !typeis(dyn(specDest(s, AlwaysLevel)[k], *logwr).Writer, LWs)))
+//@   requires [INV-dw.warn] forall(k, 0, len(specDest(s, WarnLevel)), !isnil(specDest(s, WarnLevel)[k]) && !typeis(specDest(s, WarnLevel)[k], LWs) && implies(typeis(specDest(s, WarnLevel)[k], *logwr), dyn(specDest(s, WarnLevel)[k], *logwr) != nil && !typeis(dyn(specDest(s, WarnLevel)[k], *logwr).Writer, *logwr) && !typeis(dyn(specDest(s, WarnLevel)[k], *logwr).Writer, LWs)))
+//@   ensures [C02.silent] implies(!old(specAdmits(s.level, AlwaysLevel)), ghost.trN == old(ghost.trN) && ghost.records == old(ghost.records) && ghost.warns == old(ghost.warns))
+//@   ensures [C02.appendonly] ghost.trN >= old(ghost.trN) && forall(k, 0, old(ghost.trN), ghost.trace[k] == old(ghost.trace[k]) && ghost.trTold[k] == old(ghost.trTold[k]))
+//@   ensures [C02.handler] implies(!isnil(old(s.handlerOpt)), ghost.trN == old(ghost.trN) && ghost.records == old(ghost.records) && ghost.warns == old(ghost.warns))
+//@   ensures [C13.algebra] implies(isnil(old(s.handlerOpt)) && old(specAdmits(s.level, AlwaysLevel)), ghost.records - old(ghost.records) == 1 + ite(old(specAdmits(s.level, WarnLevel)), ghost.warns - old(ghost.warns), 0)) && ghost.warns >= old(ghost.warns) && ghost.warns <= old(ghost.warns) + 1
+//@   ensures [C13.nocascade] implies(AlwaysLevel == WarnLevel, ghost.warns == old(ghost.warns))
+//@   ensures [C02.deliver] implies(isnil(old(s.handlerOpt)) && old(specAdmits(s.level, AlwaysLevel)), ghost.trN >= old(ghost.trN) + old(len(specDest(s, AlwaysLevel))))
+//@   ensures [C13.quiet] implies(isnil(old(s.handlerOpt)) && old(specAdmits(s.level, AlwaysLevel)) && ghost.warns == old(ghost.warns), ghost.trN == old(ghost.trN) + old(len(specDest(s, AlwaysLevel))))
+//@   ensures [C12.flags] flags == old(flags) && inTesting == old(inTesting)
 //@   ensures [C01.gate] implies(!old(specAdmits(s.level, AlwaysLevel)), ghost.emits == old(ghost.emits))
 //@   ensures [C01.emit] implies(old(specAdmits(s.level, AlwaysLevel)), ghost.emits > old(ghost.emits))
 //@   at call (*Entry).logContext assert [C01.sev] callee.lvl == AlwaysLevel && callee.s == s
 //@
 //@ func (*Entry).LogAttrs
-//@   props C01 C12
-//@   requires s != nil
+//@   props C01 C02 C12 C13
+//@   requires s != nil && specFmtInv(s)
 //@   assigns everything
+//@   keeps PrintCtx.off, PrintCtx.lvl
 //@   panics [C12.panic] when level == PanicLevel && specAdmits(s.level, level) && specInterrupts() && isnil(s.handlerOpt)
 //@   exits [C12.exit] when level == FatalLevel && specAdmits(s.level, level) && specInterrupts() && isnil(s.handlerOpt)
+//@   requires defaultWriter != nil && ghost.trN >= 0
+//@   requires [INV-dw] forall(k, 0, len(specDest(s, level)), !isnil(specDest(s, level)[k]) && !typeis(specDest(s, level)[k], LWs) && implies(typeis(specDest(s, level)[k], *logwr), dyn(specDest(s, level)[k], *logwr) != nil && !typeis(dyn(specDest(s, level)[k], *logwr).Writer, *logwr) && !typeis(dyn(specDest(s, level)[k], *logwr).Writer, LWs)))
+//@   requires [INV-dw.warn] forall(k, 0, len(specDest(s, WarnLevel)), !isnil(specDest(s, WarnLevel)[k]) && !typeis(specDest(s, WarnLevel)[k], LWs) && implies(typeis(specDest(s, WarnLevel)[k], *logwr), dyn(specDest(s, WarnLevel)[k], *logwr) != nil && !typeis(dyn(specDest(s, WarnLevel)[k], *logwr).Writer, *logwr) && !typeis(dyn(specDest(s, WarnLevel)[k], *logwr).Writer, LWs)))
+//@   ensures [C02.silent] implies(!old(specAdmits(s.level, level)), ghost.trN == old(ghost.trN) && ghost.records == old(ghost.records) && ghost.warns == old(ghost.warns))
+//@   ensures [C02.appendonly] ghost.trN >= old(ghost.trN) && forall(k, 0, old(ghost.trN), ghost.trace[k] == old(ghost.trace[k]) && ghost.trTold[k] == old(ghost.trTold[k]))
+//@   ensures [C02.handler] implies(!isnil(old(s.handlerOpt)), ghost.trN == old(ghost.trN) && ghost.records == old(ghost.records) && ghost.warns == old(ghost.warns))
+//@   ensures [C13.algebra] implies(isnil(old(s.handlerOpt)) && old(specAdmits(s.level, level)), ghost.records - old(ghost.records) == 1 + ite(old(specAdmits(s.level, WarnLevel)), ghost.warns - old(ghost.warns), 0)) && ghost.warns >= old(ghost.warns) && ghost.warns <= old(ghost.warns) + 1
+//@   ensures [C13.nocascade] implies(level == WarnLevel, ghost.warns == old(ghost.warns))
+//@   ensures [C02.deliver] implies(isnil(old(s.handlerOpt)) && old(specAdmits(s.level, level)), ghost.trN >= old(ghost.trN) + old(len(specDest(s, level))))
+//@   ensures [C13.quiet] implies(isnil(old(s.handlerOpt)) && old(specAdmits(s.level, level)) && ghost.warns == old(ghost.warns), ghost.trN == old(ghost.trN) + old(len(specDest(s, level))))
+//@   ensures [C12.flags] flags == old(flags) && inTesting == old(inTesting)
 //@   ensures [C01.gate] implies(!old(specAdmits(s.level, level)), ghost.emits == old(ghost.emits))
 //@   ensures [C01.emit] implies(old(specAdmits(s.level, level)), ghost.emits > old(ghost.emits))
 //@   at call (*Entry).logContext assert [C01.sev] callee.lvl == level && callee.s == s
 //@
 //@ func (*Entry).Logit
-//@   props C01 C12
-//@   requires s != nil
+//@   props C01 C02 C12 C13
+//@   requires s != nil && specFmtInv(s)
 //@   assigns everything
+//@   keeps PrintCtx.off, PrintCtx.lvl
 //@   panics [C12.panic] when level == PanicLevel && specAdmits(s.level, level) && specInterrupts() && isnil(s.handlerOpt)
 //@   exits [C12.exit] when level == FatalLevel && specAdmits(s.level, level) && specInterrupts() && isnil(s.handlerOpt)
+//@   requires defaultWriter != nil && ghost.trN >= 0
+//@   requires [INV-dw] forall(k, 0, len(specDest(s, level)), !isnil(specDest(s, level)[k]) && !typeis(specDest(s, level)[k], LWs) && implies(typeis(specDest(s, level)[k], *logwr), dyn(specDest(s, level)[k], *logwr) != nil && !typeis(dyn(specDest(s, level)[k], *logwr).Writer, *logwr) && !typeis(dyn(specDest(s, level)[k], *logwr).Writer, LWs)))
+//@   requires [INV-dw.warn] forall(k, 0, len(specDest(s, WarnLevel)), !isnil(specDest(s, WarnLevel)[k]) && !typeis(specDest(s, WarnLevel)[k], LWs) && implies(typeis(specDest(s, WarnLevel)[k], *logwr), dyn(specDest(s, WarnLevel)[k], *logwr) != nil && !typeis(dyn(specDest(s, WarnLevel)[k], *logwr).Writer, *logwr) && !typeis(dyn(specDest(s, WarnLevel)[k], *logwr).Writer, LWs)))
+//@   ensures [C02.silent] implies(!old(specAdmits(s.level, level)), ghost.trN == old(ghost.trN) && ghost.records == old(ghost.records) && ghost.warns == old(ghost.warns))
+//@   ensures [C02.appendonly] ghost.trN >= old(ghost.trN) && forall(k, 0, old(ghost.trN), ghost.trace[k] == old(ghost.trace[k]) && ghost.trTold[k] == old(ghost.trTold[k]))
+//@   ensures [C02.handler] implies(!isnil(old(s.handlerOpt)), ghost.trN == old(ghost.trN) && ghost.records == old(ghost.records) && ghost.warns == old(ghost.warns))
+//@   ensures [C13.algebra] implies(isnil(old(s.handlerOpt)) && old(specAdmits(s.level, level)), ghost.records - old(ghost.records) == 1 + ite(old(specAdmits(s.level, WarnLevel)), ghost.warns - old(ghost.warns), 0)) && ghost.warns >= old(ghost.warns) && ghost.warns <= old(ghost.warns) + 1
+//@   ensures [C13.nocascade] implies(level == WarnLevel, ghost.warns == old(ghost.warns))
+//@   ensures [C02.deliver] implies(isnil(old(s.handlerOpt)) && old(specAdmits(s.level, level)), ghost.trN >= old(ghost.trN) + old(len(specDest(s, level))))
+//@   ensures [C13.quiet] implies(isnil(old(s.handlerOpt)) && old(specAdmits(s.level, level)) && ghost.warns == old(ghost.warns), ghost.trN == old(ghost.trN) + old(len(specDest(s, level))))
+//@   ensures [C12.flags] flags == old(flags) && inTesting == old(inTesting)
 //@   ensures [C01.gate] implies(!old(specAdmits(s.level, level)), ghost.emits == old(ghost.emits))
 //@   ensures [C01.emit] implies(old(specAdmits(s.level, level)), ghost.emits > old(ghost.emits))
 //@   at call (*Entry).logContext assert [C01.sev] callee.lvl == level && callee.s == s
 //@
 //@ func (*Entry).Log
-//@   props C01 C12
-//@   requires s != nil
+//@   props C01 C02 C12 C13
+//@   requires s != nil && specFmtInv(s)
 //@   assigns everything
+//@   keeps PrintCtx.off, PrintCtx.lvl
 //@   panics [C12.panic] when logsloglevel2Level(level) == PanicLevel && specAdmits(s.level, logsloglevel2Level(level)) && specInterrupts() && isnil(s.handlerOpt)
 //@   exits [C12.exit] when logsloglevel2Level(level) == FatalLevel && specAdmits(s.level, logsloglevel2Level(level)) && specInterrupts() && isnil(s.handlerOpt)
+//@   requires defaultWriter != nil && ghost.trN >= 0
+//@   requires [INV-dw] forall(k, 0, len(specDest(s, logsloglevel2Level(level))), !isnil(specDest(s, logsloglevel2Level(level))[k]) && !typeis(specDest(s, logsloglevel2Level(level))[k], LWs) && implies(typeis(specDest(s, logsloglevel2Level(level))[k], *logwr), dyn(specDest(s, logsloglevel2Level(level))[k], *logwr) != nil && !typeis(dyn(specDest(s, logsloglevel2Level(level))[k], *logwr).Writer, *logwr) && !typeis(dyn(specDest(s, logsloglevel2Level(level))[k], *logwr).Writer, LWs)))
+//@   requires [INV-dw.warn] forall(k, 0, len(specDest(s, WarnLevel)), !isnil(specDest(s, WarnLevel)[k]) && !typeis(specDest(s, WarnLevel)[k], LWs) && implies(typeis(specDest(s, WarnLevel)[k], *logwr), dyn(specDest(s, WarnLevel)[k], *logwr) != nil && !typeis(dyn(specDest(s, WarnLevel)[k], *logwr).Writer, *logwr) && !typeis(dyn(specDest(s, WarnLevel)[k], *logwr).Writer, LWs)))
+//@   ensures [C02.silent] implies(!old(specAdmits(s.level, logsloglevel2Level(level))), ghost.trN == old(ghost.trN) && ghost.records == old(ghost.records) && ghost.warns == old(ghost.warns))
+//@   ensures [C02.appendonly] ghost.trN >= old(ghost.trN) && forall(k, 0, old(ghost.trN), ghost.trace[k] == old(ghost.trace[k]) && ghost.trTold[k] == old(ghost.trTold[k]))
+//@   ensures [C02.handler] implies(!isnil(old(s.handlerOpt)), ghost.trN == old(ghost.trN) && ghost.records == old(ghost.records) && ghost.warns == old(ghost.warns))
+//@   ensures [C13.algebra] implies(isnil(old(s.handlerOpt)) && old(specAdmits(s.level, logsloglevel2Level(level))), ghost.records - old(ghost.records) == 1 + ite(old(specAdmits(s.level, WarnLevel)), ghost.warns - old(ghost.warns), 0)) && ghost.warns >= old(ghost.warns) && ghost.warns <= old(ghost.warns) + 1
+//@   ensures [C13.nocascade] implies(logsloglevel2Level(level) == WarnLevel, ghost.warns == old(ghost.warns))
+//@   ensures [C02.deliver] implies(isnil(old(s.handlerOpt)) && old(specAdmits(s.level, logsloglevel2Level(level))), ghost.trN >= old(ghost.trN) + old(len(specDest(s, logsloglevel2Level(level)))))
+//@   ensures [C13.quiet] implies(isnil(old(s.handlerOpt)) && old(specAdmits(s.level, logsloglevel2Level(level))) && ghost.warns == old(ghost.warns), ghost.trN == old(ghost.trN) + old(len(specDest(s, logsloglevel2Level(level)))))
+//@   ensures [C12.flags] flags == old(flags) && inTesting == old(inTesting)
 //@   ensures [C01.gate] implies(!old(specAdmits(s.level, logsloglevel2Level(level))), ghost.emits == old(ghost.emits))
 //@   ensures [C01.emit] implies(old(specAdmits(s.level, logsloglevel2Level(level))), ghost.emits > old(ghost.emits))
 //@   at call (*Entry).logContext assert [C01.sev] callee.lvl == logsloglevel2Level(level) && callee.s == s
 //@
 //@ func (*Entry).Infof
-//@   props C01 C12
-//@   requires s != nil
+//@   props C01 C02 C12 C13
+//@   requires s != nil && specFmtInv(s)
 //@   assigns everything
+//@   keeps PrintCtx.off, PrintCtx.lvl
+//@   requires defaultWriter != nil && ghost.trN >= 0
+//@   requires [INV-dw] forall(k, 0, len(specDest(s, InfoLevel)), !isnil(specDest(s, InfoLevel)[k]) && !typeis(specDest(s, InfoLevel)[k], LWs) && implies(typeis(specDest(s, InfoLevel)[k], *logwr), dyn(specDest(s, InfoLevel)[k], *logwr) != nil && !typeis(dyn(specDest(s, InfoLevel)[k], *logwr).Writer, *logwr) && !typeis(dyn(specDest(s, InfoLevel)[k], *logwr).Writer, LWs)))
+//@   requires [INV-dw.warn] forall(k, 0, len(specDest(s, WarnLevel)), !isnil(specDest(s, WarnLevel)[k]) && !typeis(specDest(s, WarnLevel)[k], LWs) && implies(typeis(specDest(s, WarnLevel)[k], *logwr), dyn(specDest(s, WarnLevel)[k], *logwr) != nil && !typeis(dyn(specDest(s, WarnLevel)[k], *logwr).Writer, *logwr) && !typeis(dyn(specDest(s, WarnLevel)[k], *logwr).Writer, LWs)))
+//@   ensures [C02.silent] implies(!old(specAdmits(s.level, InfoLevel)), ghost.trN == old(ghost.trN) && ghost.records == old(ghost.records) && ghost.warns == old(ghost.warns))
+//@   ensures [C02.appendonly] ghost.trN >= old(ghost.trN) && forall(k, 0, old(ghost.trN), ghost.trace[k] == old(ghost.trace[k]) && ghost.trTold[k] == old(ghost.trTold[k]))
+//@   ensures [C02.handler] implies(!isnil(old(s.handlerOpt)), ghost.trN == old(ghost.trN) && ghost.records == old(ghost.records) && ghost.warns == old(ghost.warns))
+//@   ensures [C13.algebra] implies(isnil(old(s.handlerOpt)) && old(specAdmits(s.level, InfoLevel)), ghost.records - old(ghost.records) == 1 + ite(old(specAdmits(s.level, WarnLevel)), ghost.warns - old(ghost.warns), 0)) && ghost.warns >= old(ghost.warns) && ghost.warns <= old(ghost.warns) + 1
+//@   ensures [C13.nocascade] implies(InfoLevel == WarnLevel, ghost.warns == old(ghost.warns))
+//@   ensures [C02.deliver] implies(isnil(old(s.handlerOpt)) && old(specAdmits(s.level, InfoLevel)), ghost.trN >= old(ghost.trN) + old(len(specDest(s, InfoLevel))))
+//@   ensures [C13.quiet] implies(isnil(old(s.handlerOpt)) && old(specAdmits(s.level, InfoLevel)) && ghost.warns == old(ghost.warns), ghost.trN == old(ghost.trN) + old(len(specDest(s, InfoLevel))))
+//@   ensures [C12.flags] flags == old(flags) && inTesting == old(inTesting)
 //@   ensures [C01.gate] implies(!old(specAdmits(s.level, InfoLevel)), ghost.emits == old(ghost.emits))
 //@   ensures [C01.emit] implies(old(specAdmits(s.level, InfoLevel)), ghost.emits > old(ghost.emits))
 //@   at call (*Entry).logContext assert [C01.sev] callee.lvl == InfoLevel && callee.s == s
 //@
 //@ func (*Entry).Warnf
-//@   props C01 C12
-//@   requires s != nil
+//@   props C01 C02 C12 C13
+//@   requires s != nil && specFmtInv(s)
 //@   assigns everything
+//@   keeps PrintCtx.off, PrintCtx.lvl
+//@   requires defaultWriter != nil && ghost.trN >= 0
+//@   requires [INV-dw] forall(k, 0, len(specDest(s, WarnLevel)), !isnil(specDest(s, WarnLevel)[k]) && !typeis(specDest(s, WarnLevel)[k], LWs) && implies(typeis(specDest(s, WarnLevel)[k], *logwr), dyn(specDest(s, WarnLevel)[k], *logwr) != nil && !typeis(dyn(specDest(s, WarnLevel)[k], *logwr).Writer, *logwr) && !typeis(dyn(specDest(s, WarnLevel)[k], *logwr).Writer, LWs)))
+//@   requires [INV-dw.warn] forall(k, 0, len(specDest(s, WarnLevel)), !isnil(specDest(s, WarnLevel)[k]) && !typeis(specDest(s, WarnLevel)[k], LWs) && implies(typeis(specDest(s, WarnLevel)[k], *logwr), dyn(specDest(s, WarnLevel)[k], *logwr) != nil && !typeis(dyn(specDest(s, WarnLevel)[k], *logwr).Writer, *logwr) && !typeis(dyn(specDest(s, WarnLevel)[k], *logwr).Writer, LWs)))
+//@   ensures [C02.silent] implies(!old(specAdmits(s.level, WarnLevel)), ghost.trN == old(ghost.trN) && ghost.records == old(ghost.records) && ghost.warns == old(ghost.warns))
+//@   ensures [C02.appendonly] ghost.trN >= old(ghost.trN) && forall(k, 0, old(ghost.trN), ghost.trace[k] == old(ghost.trace[k]) && ghost.trTold[k] == old(ghost.trTold[k]))
+//@   ensures [C02.handler] implies(!isnil(old(s.handlerOpt)), ghost.trN == old(ghost.trN) && ghost.records == old(ghost.records) && ghost.warns == old(ghost.warns))
+//@   ensures [C13.algebra] implies(isnil(old(s.handlerOpt)) && old(specAdmits(s.level, WarnLevel)), ghost.records - old(ghost.records) == 1 + ite(old(specAdmits(s.level, WarnLevel)), ghost.warns - old(ghost.warns), 0)) && ghost.warns >= old(ghost.warns) && ghost.warns <= old(ghost.warns) + 1
+//@   ensures [C13.nocascade] implies(WarnLevel == WarnLevel, ghost.warns == old(ghost.warns))
+//@   ensures [C02.deliver] implies(isnil(old(s.handlerOpt)) && old(specAdmits(s.level, WarnLevel)), ghost.trN >= old(ghost.trN) + old(len(specDest(s, WarnLevel))))
+//@   ensures [C13.quiet] implies(isnil(old(s.handlerOpt)) && old(specAdmits(s.level, WarnLevel)) && ghost.warns == old(ghost.warns), ghost.trN == old(ghost.trN) + old(len(specDest(s, WarnLevel))))
+//@   ensures [C12.flags] flags == old(flags) && inTesting == old(inTesting)
 //@   ensures [C01.gate] implies(!old(specAdmits(s.level, WarnLevel)), ghost.emits == old(ghost.emits))
 //@   ensures [C01.emit] implies(old(specAdmits(s.level, WarnLevel)), ghost.emits > old(ghost.emits))
 //@   at call (*Entry).logContext assert [C01.sev] callee.lvl == WarnLevel && callee.s == s
 //@
 //@ func (*Entry).Errorf
-//@   props C01 C12
-//@   requires s != nil
+//@   props C01 C02 C12 C13
+//@   requires s != nil && specFmtInv(s)
 //@   assigns everything
+//@   keeps PrintCtx.off, PrintCtx.lvl
+//@   requires defaultWriter != nil && ghost.trN >= 0
+//@   requires [INV-dw] forall(k, 0, len(specDest(s, ErrorLevel)), !isnil(specDest(s, ErrorLevel)[k]) && !typeis(specDest(s, ErrorLevel)[k], LWs) && implies(typeis(specDest(s, ErrorLevel)[k], *logwr), dyn(specDest(s, ErrorLevel)[k], *logwr) != nil && !typeis(dyn(specDest(s, ErrorLevel)[k], *logwr).Writer, *logwr) && !typeis(dyn(specDest(s, ErrorLevel)[k], *logwr).Writer, LWs)))
+//@   requires [INV-dw.warn] forall(k, 0, len(specDest(s, WarnLevel)), !isnil(specDest(s, WarnLevel)[k]) && !typeis(specDest(s, WarnLevel)[k], LWs) && implies(typeis(specDest(s, WarnLevel)[k], *logwr), dyn(specDest(s, WarnLevel)[k], *logwr) != nil && !typeis(dyn(specDest(s, WarnLevel)[k], *logwr).Writer, *logwr) && !typeis(dyn(specDest(s, WarnLevel)[k], *logwr).Writer, LWs)))
+//@   ensures [C02.silent] implies(!old(specAdmits(s.level, ErrorLevel)), ghost.trN == old(ghost.trN) && ghost.records == old(ghost.records) && ghost.warns == old(ghost.warns))
+//@   ensures [C02.appendonly] ghost.trN >= old(ghost.trN) && forall(k, 0, old(ghost.trN), ghost.trace[k] == old(ghost.trace[k]) && ghost.trTold[k] == old(ghost.trTold[k]))
+//@   ensures [C02.handler] implies(!isnil(old(s.handlerOpt)), ghost.trN == old(ghost.trN) && ghost.records == old(ghost.records) && ghost.warns == old(ghost.warns))
+//@   ensures [C13.algebra] implies(isnil(old(s.handlerOpt)) && old(specAdmits(s.level, ErrorLevel)), ghost.records - old(ghost.records) == 1 + ite(old(specAdmits(s.level, WarnLevel)), ghost.warns - old(ghost.warns), 0)) && ghost.warns >= old(ghost.warns) && ghost.warns <= old(ghost.warns) + 1
+//@   ensures [C13.nocascade] implies(ErrorLevel == WarnLevel, ghost.warns == old(ghost.warns))
+//@   ensures [C02.deliver] implies(isnil(old(s.handlerOpt)) && old(specAdmits(s.level, ErrorLevel)), ghost.trN >= old(ghost.trN) + old(len(specDest(s, ErrorLevel))))
+//@   ensures [C13.quiet] implies(isnil(old(s.handlerOpt)) && old(specAdmits(s.level, ErrorLevel)) && ghost.warns == old(ghost.warns), ghost.trN == old(ghost.trN) + old(len(specDest(s, ErrorLevel))))
+//@   ensures [C12.flags] flags == old(flags) && inTesting == old(inTesting)
 //@   ensures [C01.gate] implies(!old(specAdmits(s.level, ErrorLevel)), ghost.emits == old(ghost.emits))
 //@   ensures [C01.emit] implies(old(specAdmits(s.level, ErrorLevel)), ghost.emits > old(ghost.emits))
 //@   at call (*Entry).logContext assert [C01.sev] callee.lvl == ErrorLevel && callee.s == s
 //@
 //@ func (*Entry).log1
-//@   props C01 C12
-//@   requires s != nil
+//@   props C01 C02 C12 C13
+//@   requires s != nil && specFmtInv(s)
 //@   assigns everything
+//@   keeps PrintCtx.off, PrintCtx.lvl
 //@   panics [C12.panic] when lvl == PanicLevel && specAdmits(s.level, lvl) && specInterrupts() && isnil(s.handlerOpt)
 //@   exits [C12.exit] when lvl == FatalLevel && specAdmits(s.level, lvl) && specInterrupts() && isnil(s.handlerOpt)
+//@   requires defaultWriter != nil && ghost.trN >= 0
+//@   requires [INV-dw] forall(k, 0, len(specDest(s, lvl)), !isnil(specDest(s, lvl)[k]) && !typeis(specDest(s, lvl)[k], LWs) && implies(typeis(specDest(s, lvl)[k], *logwr), dyn(specDest(s, lvl)[k], *logwr) != nil && !typeis(dyn(specDest(s, lvl)[k], *logwr).Writer, *logwr) && !typeis(dyn(specDest(s, lvl)[k], *logwr).Writer, LWs)))
+//@   requires [INV-dw.warn] forall(k, 0, len(specDest(s, WarnLevel)), !isnil(specDest(s, WarnLevel)[k]) && !typeis(specDest(s, WarnLevel)[k], LWs) && implies(typeis(specDest(s, WarnLevel)[k], *logwr), dyn(specDest(s, WarnLevel)[k], *logwr) != nil && !typeis(dyn(specDest(s, WarnLevel)[k], *logwr).Writer, *logwr) && !typeis(dyn(specDest(s, WarnLevel)[k], *logwr).Writer, LWs)))
+//@   ensures [C02.silent] implies(!old(specAdmits(s.level, lvl)), ghost.trN == old(ghost.trN) && ghost.records == old(ghost.records) && ghost.warns == old(ghost.warns))
+//@   ensures [C02.appendonly] ghost.trN >= old(ghost.trN) && forall(k, 0, old(ghost.trN), ghost.trace[k] == old(ghost.trace[k]) && ghost.trTold[k] == old(ghost.trTold[k]))
+//@   ensures [C02.handler] implies(!isnil(old(s.handlerOpt)), ghost.trN == old(ghost.trN) && ghost.records == old(ghost.records) && ghost.warns == old(ghost.warns))
+//@   ensures [C13.algebra] implies(isnil(old(s.handlerOpt)) && old(specAdmits(s.level, lvl)), ghost.records - old(ghost.records) == 1 + ite(old(specAdmits(s.level, WarnLevel)), ghost.warns - old(ghost.warns), 0)) && ghost.warns >= old(ghost.warns) && ghost.warns <= old(ghost.warns) + 1
+//@   ensures [C13.nocascade] implies(lvl == WarnLevel, ghost.warns == old(ghost.warns))
+//@   ensures [C02.deliver] implies(isnil(old(s.handlerOpt)) && old(specAdmits(s.level, lvl)), ghost.trN >= old(ghost.trN) + old(len(specDest(s, lvl))))
+//@   ensures [C13.quiet] implies(isnil(old(s.handlerOpt)) && old(specAdmits(s.level, lvl)) && ghost.warns == old(ghost.warns), ghost.trN == old(ghost.trN) + old(len(specDest(s, lvl))))
+//@   ensures [C12.flags] flags == old(flags) && inTesting == old(inTesting)
 //@   ensures [C01.gate] implies(!old(specAdmits(s.level, lvl)), ghost.emits == old(ghost.emits))
 //@   ensures [C01.emit] implies(old(specAdmits(s.level, lvl)), ghost.emits > old(ghost.emits))
 //@   at call (*Entry).logContext assert [C01.sev] callee.lvl == lvl && callee.s == s
 //@
 //@ func Panic
-//@   props C01 C12
-//@   requires specDefaultEntry() != nil
+//@   props C01 C02 C12 C13
+//@   requires specDefaultEntry() != nil && specFmtInv(specDefaultEntry())
 //@   assigns everything
+//@   keeps PrintCtx.off, PrintCtx.lvl
 //@   panics [C12.panic] when specAdmits(specDefaultEntry().level, PanicLevel) && specInterrupts() && isnil(specDefaultEntry().handlerOpt)
+//@   requires defaultWriter != nil && ghost.trN >= 0
+//@   requires [INV-dw] forall(k, 0, len(specDest(specDefaultEntry(), PanicLevel)), !isnil(specDest(specDefaultEntry(), PanicLevel)[k]) && !typeis(specDest(specDefaultEntry(), PanicLevel)[k], LWs) && implies(typeis(specDest(specDefaultEntry(), PanicLevel)[k], *logwr), dyn(specDest(specDefaultEntry(), PanicLevel)[k], *logwr) != nil && !typeis(dyn(specDest(specDefaultEntry(), PanicLevel)[k], *logwr).Writer, *logwr) && !typeis(dyn(specDest(specDefaultEntry(), PanicLevel)[k], *logwr).Writer, LWs)))
+//@   requires [INV-dw.warn] forall(k, 0, len(specDest(specDefaultEntry(), WarnLevel)), !isnil(specDest(specDefaultEntry(), WarnLevel)[k]) && !typeis(specDest(specDefaultEntry(), WarnLevel)[k], LWs) && implies(typeis(specDest(specDefaultEntry(), WarnLevel)[k], *logwr), dyn(specDest(specDefaultEntry(), WarnLevel)[k], *logwr) != nil && !typeis(dyn(specDest(specDefaultEntry(), WarnLevel)[k], *logwr).Writer, *logwr) && !typeis(dyn(specDest(specDefaultEntry(), WarnLevel)[k], *logwr).Writer, LWs)))
+//@   ensures [C02.silent] implies(!old(specAdmits(specDefaultEntry().level, PanicLevel)), ghost.trN == old(ghost.trN) && ghost.records == old(ghost.records) && ghost.warns == old(ghost.warns))
+//@   ensures [C02.appendonly] ghost.trN >= old(ghost.trN) && forall(k, 0, old(ghost.trN), ghost.trace[k] == old(ghost.trace[k]) && ghost.trTold[k] == old(ghost.trTold[k]))
+//@   ensures [C02.handler] implies(!isnil(old(specDefaultEntry().handlerOpt)), ghost.trN == old(ghost.trN) && ghost.records == old(ghost.records) && ghost.warns == old(ghost.warns))
+//@   ensures [C13.algebra] implies(isnil(old(specDefaultEntry().handlerOpt)) && old(specAdmits(specDefaultEntry().level, PanicLevel)), ghost.records - old(ghost.records) == 1 + ite(old(specAdmits(specDefaultEntry().level, WarnLevel)), ghost.warns - old(ghost.warns), 0)) && ghost.warns >= old(ghost.warns) && ghost.warns <= old(ghost.warns) + 1
+//@   ensures [C13.nocascade] implies(PanicLevel == WarnLevel, ghost.warns == old(ghost.warns))
+//@   ensures [C02.deliver] implies(isnil(old(specDefaultEntry().handlerOpt)) && old(specAdmits(specDefaultEntry().level, PanicLevel)), ghost.trN >= old(ghost.trN) + old(len(specDest(specDefaultEntry(), PanicLevel))))
+//@   ensures [C13.quiet] implies(isnil(old(specDefaultEntry().handlerOpt)) && old(specAdmits(specDefaultEntry().level, PanicLevel)) && ghost.warns == old(ghost.warns), ghost.trN == old(ghost.trN) + old(len(specDest(specDefaultEntry(), PanicLevel))))
+//@   ensures [C12.flags] flags == old(flags) && inTesting == old(inTesting)
 //@   ensures [C01.gate] implies(!old(specAdmits(specDefaultEntry().level, PanicLevel)), ghost.emits == old(ghost.emits))
 //@   ensures [C01.emit] implies(old(specAdmits(specDefaultEntry().level, PanicLevel)), ghost.emits > old(ghost.emits))
 //@   at call logctx assert [C01.sev] callee.lvl == PanicLevel
 //@
 //@ func Fatal
-//@   props C01 C12
-//@   requires specDefaultEntry() != nil
+//@   props C01 C02 C12 C13
+//@   requires specDefaultEntry() != nil && specFmtInv(specDefaultEntry())
 //@   assigns everything
+//@   keeps PrintCtx.off, PrintCtx.lvl
 //@   exits [C12.exit] when specAdmits(specDefaultEntry().level, FatalLevel) && specInterrupts() && isnil(specDefaultEntry().handlerOpt)
+//@   requires defaultWriter != nil && ghost.trN >= 0
+//@   requires [INV-dw] forall(k, 0, len(specDest(specDefaultEntry(), FatalLevel)), !isnil(specDest(specDefaultEntry(), FatalLevel)[k]) && !typeis(specDest(specDefaultEntry(), FatalLevel)[k], LWs) && implies(typeis(specDest(specDefaultEntry(), FatalLevel)[k], *logwr), dyn(specDest(specDefaultEntry(), FatalLevel)[k], *logwr) != nil && !typeis(dyn(specDest(specDefaultEntry(), FatalLevel)[k], *logwr).Writer, *logwr) && !typeis(dyn(specDest(specDefaultEntry(), FatalLevel)[k], *logwr).Writer, LWs)))
+//@   requires [INV-dw.warn] forall(k, 0, len(specDest(specDefaultEntry(), WarnLevel)), !isnil(specDest(specDefaultEntry(), WarnLevel)[k]) && !typeis(specDest(specDefaultEntry(), WarnLevel)[k], LWs) && implies(typeis(specDest(specDefaultEntry(), WarnLevel)[k], *logwr), dyn(specDest(specDefaultEntry(), WarnLevel)[k], *logwr) != nil && !typeis(dyn(specDest(specDefaultEntry(), WarnLevel)[k], *logwr).Writer, *logwr) && !typeis(dyn(specDest(specDefaultEntry(), WarnLevel)[k], *logwr).Writer, LWs)))
+//@   ensures [C02.silent] implies(!old(specAdmits(specDefaultEntry().level, FatalLevel)), ghost.trN == old(ghost.trN) && ghost.records == old(ghost.records) && ghost.warns == old(ghost.warns))
+//@   ensures [C02.appendonly] ghost.trN >= old(ghost.trN) && forall(k, 0, old(ghost.trN), ghost.trace[k] == old(ghost.trace[k]) && ghost.trTold[k] == old(ghost.trTold[k]))
+//@   ensures [C02.handler] implies(!isnil(old(specDefaultEntry().handlerOpt)), ghost.trN == old(ghost.trN) && ghost.records == old(ghost.records) && ghost.warns == old(ghost.warns))
+//@   ensures [C13.algebra] implies(isnil(old(specDefaultEntry().handlerOpt)) && old(specAdmits(specDefaultEntry().level, FatalLevel)), ghost.records - old(ghost.records) == 1 + ite(old(specAdmits(specDefaultEntry().level, WarnLevel)), ghost.warns - old(ghost.warns), 0)) && ghost.warns >= old(ghost.warns) && ghost.warns <= old(ghost.warns) + 1
+//@   ensures [C13.nocascade] implies(FatalLevel == WarnLevel, ghost.warns == old(ghost.warns))
+//@   ensures [C02.deliver] implies(isnil(old(specDefaultEntry().handlerOpt)) && old(specAdmits(specDefaultEntry().level, FatalLevel)), ghost.trN >= old(ghost.trN) + old(len(specDest(specDefaultEntry(), FatalLevel))))
+//@   ensures [C13.quiet] implies(isnil(old(specDefaultEntry().handlerOpt)) && old(specAdmits(specDefaultEntry().level, FatalLevel)) && ghost.warns == old(ghost.warns), ghost.trN == old(ghost.trN) + old(len(specDest(specDefaultEntry(), FatalLevel))))
+//@   ensures [C12.flags] flags == old(flags) && inTesting == old(inTesting)
 //@   ensures [C01.gate] implies(!old(specAdmits(specDefaultEntry().level, FatalLevel)), ghost.emits == old(ghost.emits))
 //@   ensures [C01.emit] implies(old(specAdmits(specDefaultEntry().level, FatalLevel)), ghost.emits > old(ghost.emits))
 //@   at call logctx assert [C01.sev] callee.lvl == FatalLevel
 //@
 //@ func Error
-//@   props C01 C12
-//@   requires specDefaultEntry() != nil
+//@   props C01 C02 C12 C13
+//@   requires specDefaultEntry() != nil && specFmtInv(specDefaultEntry())
 //@   assigns everything
+//@   keeps PrintCtx.off, PrintCtx.lvl
+//@   requires defaultWriter != nil && ghost.trN >= 0
+//@   requires [INV-dw] forall(k, 0, len(specDest(specDefaultEntry(), ErrorLevel)), !isnil(specDest(specDefaultEntry(), ErrorLevel)[k]) && !typeis(specDest(specDefaultEntry(), ErrorLevel)[k], LWs) && implies(typeis(specDest(specDefaultEntry(), ErrorLevel)[k], *logwr), dyn(specDest(specDefaultEntry(), ErrorLevel)[k], *logwr) != nil && !typeis(dyn(specDest(specDefaultEntry(), ErrorLevel)[k], *logwr).Writer, *logwr) && !typeis(dyn(specDest(specDefaultEntry(), ErrorLevel)[k], *logwr).Writer, LWs)))
+//@   requires [INV-dw.warn] forall(k, 0, len(specDest(specDefaultEntry(), WarnLevel)), !isnil(specDest(specDefaultEntry(), WarnLevel)[k]) && !typeis(specDest(specDefaultEntry(), WarnLevel)[k], LWs) && implies(typeis(specDest(specDefaultEntry(), WarnLevel)[k], *logwr), dyn(specDest(specDefaultEntry(), WarnLevel)[k], *logwr) != nil && !typeis(dyn(specDest(specDefaultEntry(), WarnLevel)[k], *logwr).Writer, *logwr) && !typeis(dyn(specDest(specDefaultEntry(), WarnLevel)[k], *logwr).Writer, LWs)))
+//@   ensures [C02.silent] implies(!old(specAdmits(specDefaultEntry().level, ErrorLevel)), ghost.trN == old(ghost.trN) && ghost.records == old(ghost.records) && ghost.warns == old(ghost.warns))
+//@   ensures [C02.appendonly] ghost.trN >= old(ghost.trN) && forall(k, 0, old(ghost.trN), ghost.trace[k] == old(ghost.trace[k]) && ghost.trTold[k] == old(ghost.trTold[k]))
+//@   ensures [C02.handler] implies(!isnil(old(specDefaultEntry().handlerOpt)), ghost.trN == old(ghost.trN) && ghost.records == old(ghost.records) && ghost.warns == old(ghost.warns))
+//@   ensures [C13.algebra] implies(isnil(old(specDefaultEntry().handlerOpt)) && old(specAdmits(specDefaultEntry().level, ErrorLevel)), ghost.records - old(ghost.records) == 1 + ite(old(specAdmits(specDefaultEntry().level, WarnLevel)), ghost.warns - old(ghost.warns), 0)) && ghost.warns >= old(ghost.warns) && ghost.warns <= old(ghost.warns) + 1
+//@   ensures [C13.nocascade] implies(ErrorLevel == WarnLevel, ghost.warns == old(ghost.warns))
+//@   ensures [C02.deliver] implies(isnil(old(specDefaultEntry().handlerOpt)) && old(specAdmits(specDefaultEntry().level, ErrorLevel)), ghost.trN >= old(ghost.trN) + old(len(specDest(specDefaultEntry(), ErrorLevel))))
+//@   ensures [C13.quiet] implies(isnil(old(specDefaultEntry().handlerOpt)) && old(specAdmits(specDefaultEntry().level, ErrorLevel)) && ghost.warns == old(ghost.warns), ghost.trN == old(ghost.trN) + old(len(specDest(specDefaultEntry(), ErrorLevel))))
+//@   ensures [C12.flags] flags == old(flags) && inTesting == old(inTesting)
 //@   ensures [C01.gate] implies(!old(specAdmits(specDefaultEntry().level, ErrorLevel)), ghost.emits == old(ghost.emits))
 //@   ensures [C01.emit] implies(old(specAdmits(specDefaultEntry().level, ErrorLevel)), ghost.emits > old(ghost.emits))
 //@   at call logctx assert [C01.sev] callee.lvl == ErrorLevel
 //@
 //@ func Warn
-//@   props C01 C12
-//@   requires specDefaultEntry() != nil
+//@   props C01 C02 C12 C13
+//@   requires specDefaultEntry() != nil && specFmtInv(specDefaultEntry())
 //@   assigns everything
+//@   keeps PrintCtx.off, PrintCtx.lvl
+//@   requires defaultWriter != nil && ghost.trN >= 0
+//@   requires [INV-dw] forall(k, 0, len(specDest(specDefaultEntry(), WarnLevel)), !isnil(specDest(specDefaultEntry(), WarnLevel)[k]) && !typeis(specDest(specDefaultEntry(), WarnLevel)[k], LWs) && implies(typeis(specDest(specDefaultEntry(), WarnLevel)[k], *logwr), dyn(specDest(specDefaultEntry(), WarnLevel)[k], *logwr) != nil && !typeis(dyn(specDest(specDefaultEntry(), WarnLevel)[k], *logwr).Writer, *logwr) && !typeis(dyn(specDest(specDefaultEntry(), WarnLevel)[k], *logwr).Writer, LWs)))
+//@   requires [INV-dw.warn] forall(k, 0, len(specDest(specDefaultEntry(), WarnLevel)), !isnil(specDest(specDefaultEntry(), WarnLevel)[k]) && !typeis(specDest(specDefaultEntry(), WarnLevel)[k], LWs) && implies(typeis(specDest(specDefaultEntry(), WarnLevel)[k], *logwr), dyn(specDest(specDefaultEntry(), WarnLevel)[k], *logwr) != nil && !typeis(dyn(specDest(specDefaultEntry(), WarnLevel)[k], *logwr).Writer, *logwr) && !typeis(dyn(specDest(specDefaultEntry(), WarnLevel)[k], *logwr).Writer, LWs)))
+//@   ensures [C02.silent] implies(!old(specAdmits(specDefaultEntry().level, WarnLevel)), ghost.trN == old(ghost.trN) && ghost.records == old(ghost.records) && ghost.warns == old(ghost.warns))
+//@   ensures [C02.appendonly] ghost.trN >= old(ghost.trN) && forall(k, 0, old(ghost.trN), ghost.trace[k] == old(ghost.trace[k]) && ghost.trTold[k] == old(ghost.trTold[k]))
+//@   ensures [C02.handler] implies(!isnil(old(specDefaultEntry().handlerOpt)), ghost.trN == old(ghost.trN) && ghost.records == old(ghost.records) && ghost.warns == old(ghost.warns))
+//@   ensures [C13.algebra] implies(isnil(old(specDefaultEntry().handlerOpt)) && old(specAdmits(specDefaultEntry().level, WarnLevel)), ghost.records - old(ghost.records) == 1 + ite(old(specAdmits(specDefaultEntry().level, WarnLevel)), ghost.warns - old(ghost.warns), 0)) && ghost.warns >= old(ghost.warns) && ghost.warns <= old(ghost.warns) + 1
+//@   ensures [C13.nocascade] implies(WarnLevel == WarnLevel, ghost.warns == old(ghost.warns))
+//@   ensures [C02.deliver] implies(isnil(old(specDefaultEntry().handlerOpt)) && old(specAdmits(specDefaultEntry().level, WarnLevel)), ghost.trN >= old(ghost.trN) + old(len(specDest(specDefaultEntry(), WarnLevel))))
+//@   ensures [C13.quiet] implies(isnil(old(specDefaultEntry().handlerOpt)) && old(specAdmits(specDefaultEntry().level, WarnLevel)) && ghost.warns == old(ghost.warns), ghost.trN == old(ghost.trN) + old(len(specDest(specDefaultEntry(), WarnLevel))))
+//@   ensures [C12.flags] flags == old(flags) && inTesting == old(inTesting)
 //@   ensures [C01.gate] implies(!old(specAdmits(specDefaultEntry().level, WarnLevel)), ghost.emits == old(ghost.emits))
 //@   ensures [C01.emit] implies(old(specAdmits(specDefaultEntry().level, WarnLevel)), ghost.emits > old(ghost.emits))
 //@   at call logctx assert [C01.sev] callee.lvl == WarnLevel
 //@
 //@ func Info
-//@   props C01 C12
-//@   requires specDefaultEntry() != nil
+//@   props C01 C02 C12 C13
+//@   requires specDefaultEntry() != nil && specFmtInv(specDefaultEntry())
 //@   assigns everything
+//@   keeps PrintCtx.off, PrintCtx.lvl
+//@   requires defaultWriter != nil && ghost.trN >= 0
+//@   requires [INV-dw] forall(k, 0, len(specDest(specDefaultEntry(), InfoLevel)), !isnil(specDest(specDefaultEntry(), InfoLevel)[k]) && !typeis(specDest(specDefaultEntry(), InfoLevel)[k], LWs) && implies(typeis(specDest(specDefaultEntry(), InfoLevel)[k], *logwr), dyn(specDest(specDefaultEntry(), InfoLevel)[k], *logwr) != nil && !typeis(dyn(specDest(specDefaultEntry(), InfoLevel)[k], *logwr).Writer, *logwr) && !typeis(dyn(specDest(specDefaultEntry(), InfoLevel)[k], *logwr).Writer, LWs)))
+//@   requires [INV-dw.warn] forall(k, 0, len(specDest(specDefaultEntry(), WarnLevel)), !isnil(specDest(specDefaultEntry(), WarnLevel)[k]) && !typeis(specDest(specDefaultEntry(), WarnLevel)[k], LWs) && implies(typeis(specDest(specDefaultEntry(), WarnLevel)[k], *logwr), dyn(specDest(specDefaultEntry(), WarnLevel)[k], *logwr) != nil && !typeis(dyn(specDest(specDefaultEntry(), WarnLevel)[k], *logwr).Writer, *logwr) && !typeis(dyn(specDest(specDefaultEntry(), WarnLevel)[k], *logwr).Writer, LWs)))
+//@   ensures [C02.silent] implies(!old(specAdmits(specDefaultEntry().level, InfoLevel)), ghost.trN == old(ghost.trN) && ghost.records == old(ghost.records) && ghost.warns == old(ghost.warns))
+//@   ensures [C02.appendonly] ghost.trN >= old(ghost.trN) && forall(k, 0, old(ghost.trN), ghost.trace[k] == old(ghost.trace[k]) && ghost.trTold[k] == old(ghost.trTold[k]))
+//@   ensures [C02.handler] implies(!isnil(old(specDefaultEntry().handlerOpt)), ghost.trN == old(ghost.trN) && ghost.records == old(ghost.records) && ghost.warns == old(ghost.warns))
+//@   ensures [C13.algebra] implies(isnil(old(specDefaultEntry().handlerOpt)) && old(specAdmits(specDefaultEntry().level, InfoLevel)), ghost.records - old(ghost.records) == 1 + ite(old(specAdmits(specDefaultEntry().level, WarnLevel)), ghost.warns - old(ghost.warns), 0)) && ghost.warns >= old(ghost.warns) && ghost.warns <= old(ghost.warns) + 1
+//@   ensures [C13.nocascade] implies(InfoLevel == WarnLevel, ghost.warns == old(ghost.warns))
+//@   ensures [C02.deliver] implies(isnil(old(specDefaultEntry().handlerOpt)) && old(specAdmits(specDefaultEntry().level, InfoLevel)), ghost.trN >= old(ghost.trN) + old(len(specDest(specDefaultEntry(), InfoLevel))))
+//@   ensures [C13.quiet] implies(isnil(old(specDefaultEntry().handlerOpt)) && old(specAdmits(specDefaultEntry().level, InfoLevel)) && ghost.warns == old(ghost.warns), ghost.trN == old(ghost.trN) + old(len(specDest(specDefaultEntry(), InfoLevel))))
+//@   ensures [C12.flags] flags == old(flags) && inTesting == old(inTesting)
 //@   ensures [C01.gate] implies(!old(specAdmits(specDefaultEntry().level, InfoLevel)), ghost.emits == old(ghost.emits))
 //@   ensures [C01.emit] implies(old(specAdmits(specDefaultEntry().level, InfoLevel)), ghost.emits > old(ghost.emits))
 //@   at call logctx assert [C01.sev] callee.lvl == InfoLevel
 //@
 //@ func Debug
-//@   props C01 C12
-//@   requires specDefaultEntry() != nil
+//@   props C01 C02 C12 C13
+//@   requires specDefaultEntry() != nil && specFmtInv(specDefaultEntry())
 //@   assigns everything
+//@   keeps PrintCtx.off, PrintCtx.lvl
+//@   requires defaultWriter != nil && ghost.trN >= 0
+//@   requires [INV-dw] forall(k, 0, len(specDest(specDefaultEntry(), DebugLevel)), !isnil(specDest(specDefaultEntry(), DebugLevel)[k]) && !typeis(specDest(specDefaultEntry(), DebugLevel)[k], LWs) && implies(typeis(specDest(specDefaultEntry(), DebugLevel)[k], *logwr), dyn(specDest(specDefaultEntry(), DebugLevel)[k], *logwr) != nil && !typeis(dyn(specDest(specDefaultEntry(), DebugLevel)[k], *logwr).Writer, *logwr) && !typeis(dyn(specDest(specDefaultEntry(), DebugLevel)[k], *logwr).Writer, LWs)))
+//@   requires [INV-dw.warn] forall(k, 0, len(specDest(specDefaultEntry(), WarnLevel)), !isnil(specDest(specDefaultEntry(), WarnLevel)[k]) && !typeis(specDest(specDefaultEntry(), WarnLevel)[k], LWs) && implies(typeis(specDest(specDefaultEntry(), WarnLevel)[k], *logwr), dyn(specDest(specDefaultEntry(), WarnLevel)[k], *logwr) != nil && !typeis(dyn(specDest(specDefaultEntry(), WarnLevel)[k], *logwr).Writer, *logwr) && !typeis(dyn(specDest(specDefaultEntry(), WarnLevel)[k], *logwr).Writer, LWs)))
+//@   ensures [C02.silent] implies(!old(specAdmits(specDefaultEntry().level, DebugLevel)), ghost.trN == old(ghost.trN) && ghost.records == old(ghost.records) && ghost.warns == old(ghost.warns))
+//@   ensures [C02.appendonly] ghost.trN >= old(ghost.trN) && forall(k, 0, old(ghost.trN), ghost.trace[k] == old(ghost.trace[k]) && ghost.trTold[k] == old(ghost.trTold[k]))
+//@   ensures [C02.handler] implies(!isnil(old(specDefaultEntry().handlerOpt)), ghost.trN == old(ghost.trN) && ghost.records == old(ghost.records) && ghost.warns == old(ghost.warns))
+//@   ensures [C13.algebra] implies(isnil(old(specDefaultEntry().handlerOpt)) && old(specAdmits(specDefaultEntry().level, DebugLevel)), ghost.records - old(ghost.records) == 1 + ite(old(specAdmits(specDefaultEntry().level, WarnLevel)), ghost.warns - old(ghost.warns), 0)) && ghost.warns >= old(ghost.warns) && ghost.warns <= old(ghost.warns) + 1
+//@   ensures [C13.nocascade] implies(DebugLevel == WarnLevel, ghost.warns == old(ghost.warns))
+//@   ensures [C02.deliver] implies(isnil(old(specDefaultEntry().handlerOpt)) && old(specAdmits(specDefaultEntry().level, DebugLevel)), ghost.trN >= old(ghost.trN) + old(len(specDest(specDefaultEntry(), DebugLevel))))
+//@   ensures [C13.quiet] implies(isnil(old(specDefaultEntry().handlerOpt)) && old(specAdmits(specDefaultEntry().level, DebugLevel)) && ghost.warns == old(ghost.warns), ghost.trN == old(ghost.trN) + old(len(specDest(specDefaultEntry(), DebugLevel))))
+//@   ensures [C12.flags] flags == old(flags) && inTesting == old(inTesting)
 //@   ensures [C01.gate] implies(!old(specAdmits(specDefaultEntry().level, DebugLevel)), ghost.emits == old(ghost.emits))
 //@   ensures [C01.emit] implies(old(specAdmits(specDefaultEntry().level, DebugLevel)), ghost.emits > old(ghost.emits))
 //@   at call logctx assert [C01.sev] callee.lvl == DebugLevel
 //@
 //@ func Trace
-//@   props C01 C12
-//@   requires specDefaultEntry() != nil
+//@   props C01 C02 C12 C13
+//@   requires specDefaultEntry() != nil && specFmtInv(specDefaultEntry())
 //@   assigns everything
+//@   keeps PrintCtx.off, PrintCtx.lvl
+//@   requires defaultWriter != nil && ghost.trN >= 0
+//@   requires [INV-dw] forall(k, 0, len(specDest(specDefaultEntry(), TraceLevel)), !isnil(specDest(specDefaultEntry(), TraceLevel)[k]) && !typeis(specDest(specDefaultEntry(), TraceLevel)[k], LWs) && implies(typeis(specDest(specDefaultEntry(), TraceLevel)[k], *logwr), dyn(specDest(specDefaultEntry(), TraceLevel)[k], *logwr) != nil && !typeis(dyn(specDest(specDefaultEntry(), TraceLevel)[k], *logwr).Writer, *logwr) && !typeis(dyn(specDest(specDefaultEntry(), TraceLevel)[k], *logwr).Writer, LWs)))
+//@   requires [INV-dw.warn] forall(k, 0, len(specDest(specDefaultEntry(), WarnLevel)), !isnil(specDest(specDefaultEntry(), WarnLevel)[k]) && !typeis(specDest(specDefaultEntry(), WarnLevel)[k], LWs) && implies(typeis(specDest(specDefaultEntry(), WarnLevel)[k], *logwr), dyn(specDest(specDefaultEntry(), WarnLevel)[k], *logwr) != nil && !typeis(dyn(specDest(specDefaultEntry(), WarnLevel)[k], *logwr).Writer, *logwr) && !typeis(dyn(specDest(specDefaultEntry(), WarnLevel)[k], *logwr).Writer, LWs)))
+//@   ensures [C02.silent] implies(!old(specAdmits(specDefaultEntry().level, TraceLevel)), ghost.trN == old(ghost.trN) && ghost.records == old(ghost.records) && ghost.warns == old(ghost.warns))
+//@   ensures [C02.appendonly] ghost.trN >= old(ghost.trN) && forall(k, 0, old(ghost.trN), ghost.trace[k] == old(ghost.trace[k]) && ghost.trTold[k] == old(ghost.trTold[k]))
+//@   ensures [C02.handler] implies(!isnil(old(specDefaultEntry().handlerOpt)), ghost.trN == old(ghost.trN) && ghost.records == old(ghost.records) && ghost.warns == old(ghost.warns))
+//@   ensures [C13.algebra] implies(isnil(old(specDefaultEntry().handlerOpt)) && old(specAdmits(specDefaultEntry().level, TraceLevel)), ghost.records - old(ghost.records) == 1 + ite(old(specAdmits(specDefaultEntry().level, WarnLevel)), ghost.warns - old(ghost.warns), 0)) && ghost.warns >= old(ghost.warns) && ghost.warns <= old(ghost.warns) + 1
+//@   ensures [C13.nocascade] implies(TraceLevel == WarnLevel, ghost.warns == old(ghost.warns))
+//@   ensures [C02.deliver] implies(isnil(old(specDefaultEntry().handlerOpt)) && old(specAdmits(specDefaultEntry().level, TraceLevel)), ghost.trN >= old(ghost.trN) + old(len(specDest(specDefaultEntry(), TraceLevel))))
+//@   ensures [C13.quiet] implies(isnil(old(specDefaultEntry().handlerOpt)) && old(specAdmits(specDefaultEntry().level, TraceLevel)) && ghost.warns == old(ghost.warns), ghost.trN == old(ghost.trN) + old(len(specDest(specDefaultEntry(), TraceLevel))))
+//@   ensures [C12.flags] flags == old(flags) && inTesting == old(inTesting)
 //@   ensures [C01.gate] implies(!old(specAdmits(specDefaultEntry().level, TraceLevel)), ghost.emits == old(ghost.emits))
 //@   ensures [C01.emit] implies(old(specAdmits(specDefaultEntry().level, TraceLevel)), ghost.emits > old(ghost.emits))
 //@   at call logctx assert [C01.sev] callee.lvl == TraceLevel
 //@
 //@ func Print
-//@   props C01 C12
-//@   requires specDefaultEntry() != nil
+//@   props C01 C02 C12 C13
+//@   requires specDefaultEntry() != nil && specFmtInv(specDefaultEntry())
 //@   assigns everything
+//@   keeps PrintCtx.off, PrintCtx.lvl
+//@   requires defaultWriter != nil && ghost.trN >= 0
+//@   requires [INV-dw] forall(k, 0, len(specDest(specDefaultEntry(), AlwaysLevel)), !isnil(specDest(specDefaultEntry(), AlwaysLevel)[k]) && !typeis(specDest(specDefaultEntry(), AlwaysLevel)[k], LWs) && implies(typeis(specDest(specDefaultEntry(), AlwaysLevel)[k], *logwr), dyn(specDest(specDefaultEntry(), AlwaysLevel)[k], *logwr) != nil && !typeis(dyn(specDest(specDefaultEntry(), AlwaysLevel)[k], *logwr).Writer, *logwr) && !typeis(dyn(specDest(specDefaultEntry(), AlwaysLevel)[k], *logwr).Writer, LWs)))
+//@   requires [INV-dw.warn] forall(k, 0, len(specDest(specDefaultEntry(), WarnLevel)), !isnil(specDest(specDefaultEntry(), WarnLevel)[k]) && !typeis(specDest(specDefaultEntry(), WarnLevel)[k], LWs) && implies(typeis(specDest(specDefaultEntry(), WarnLevel)[k], *logwr), dyn(specDest(specDefaultEntry(), WarnLevel)[k], *logwr) != nil && !typeis(dyn(specDest(specDefaultEntry(), WarnLevel)[k], *logwr).Writer, *logwr) && !typeis(dyn(specDest(specDefaultEntry(), WarnLevel)[k], *logwr).Writer, LWs)))
+//@   ensures [C02.silent] implies(!old(specAdmits(specDefaultEntry().level, AlwaysLevel)), ghost.trN == old(ghost.trN) && ghost.records == old(ghost.records) && ghost.warns == old(ghost.warns))
+//@   ensures [C02.appendonly] ghost.trN >= old(ghost.trN) && forall(k, 0, old(ghost.trN), ghost.trace[k] == old(ghost.trace[k]) && ghost.trTold[k] == old(ghost.trTold[k]))
+//@   ensures [C02.handler] implies(!isnil(old(specDefaultEntry().handlerOpt)), ghost.trN == old(ghost.trN) && ghost.records == old(ghost.records) && ghost.warns == old(ghost.warns))
+//@   ensures [C13.algebra] implies(isnil(old(specDefaultEntry().handlerOpt)) && old(specAdmits(specDefaultEntry().level, AlwaysLevel)), ghost.records - old(ghost.records) == 1 + ite(old(specAdmits(specDefaultEntry().level, WarnLevel)), ghost.warns - old(ghost.warns), 0)) && ghost.warns >= old(ghost.warns) && ghost.warns <= old(ghost.warns) + 1
+//@   ensures [C13.nocascade] implies(AlwaysLevel == WarnLevel, ghost.warns == old(ghost.warns))
+//@   ensures [C02.deliver] implies(isnil(old(specDefaultEntry().handlerOpt)) && old(specAdmits(specDefaultEntry().level, AlwaysLevel)), ghost.trN >= old(ghost.trN) + old(len(specDest(specDefaultEntry(), AlwaysLevel))))
+//@   ensures [C13.quiet] implies(isnil(old(specDefaultEntry().handlerOpt)) && old(specAdmits(specDefaultEntry().level, AlwaysLevel)) && ghost.warns == old(ghost.warns), ghost.trN == old(ghost.trN) + old(len(specDest(specDefaultEntry(), AlwaysLevel))))
+//@   ensures [C12.flags] flags == old(flags) && inTesting == old(inTesting)
 //@   ensures [C01.gate] implies(!old(specAdmits(specDefaultEntry().level, AlwaysLevel)), ghost.emits == old(ghost.emits))
 //@   ensures [C01.emit] implies(old(specAdmits(specDefaultEntry().level, AlwaysLevel)), ghost.emits > old(ghost.emits))
 //@   at call logctx assert [C01.sev] callee.lvl == AlwaysLevel
 //@
 //@ func OK
-//@   props C01 C12
-//@   requires specDefaultEntry() != nil
+//@   props C01 C02 C12 C13
+//@   requires specDefaultEntry() != nil && specFmtInv(specDefaultEntry())
 //@   assigns everything
+//@   keeps PrintCtx.off, PrintCtx.lvl
+//@   requires defaultWriter != nil && ghost.trN >= 0
+//@   requires [INV-dw] forall(k, 0, len(specDest(specDefaultEntry(), OKLevel)), !isnil(specDest(specDefaultEntry(), OKLevel)[k]) && !typeis(specDest(specDefaultEntry(), OKLevel)[k], LWs) && implies(typeis(specDest(specDefaultEntry(), OKLevel)[k], *logwr), dyn(specDest(specDefaultEntry(), OKLevel)[k], *logwr) != nil && !typeis(dyn(specDest(specDefaultEntry(), OKLevel)[k], *logwr).Writer, *logwr) && !typeis(dyn(specDest(specDefaultEntry(), OKLevel)[k], *logwr).Writer, LWs)))
+//@   requires [INV-dw.warn] forall(k, 0, len(specDest(specDefaultEntry(), WarnLevel)), !isnil(specDest(specDefaultEntry(), WarnLevel)[k]) && !typeis(specDest(specDefaultEntry(), WarnLevel)[k], LWs) && implies(typeis(specDest(specDefaultEntry(), WarnLevel)[k], *logwr), dyn(specDest(specDefaultEntry(), WarnLevel)[k], *logwr) != nil && !typeis(dyn(specDest(specDefaultEntry(), WarnLevel)[k], *logwr).Writer, *logwr) && !typeis(dyn(specDest(specDefaultEntry(), WarnLevel)[k], *logwr).Writer, LWs)))
+//@   ensures [C02.silent] implies(!old(specAdmits(specDefaultEntry().level, OKLevel)), ghost.trN == old(ghost.trN) && ghost.records == old(ghost.records) && ghost.warns == old(ghost.warns))
+//@   ensures [C02.appendonly] ghost.trN >= old(ghost.trN) && forall(k, 0, old(ghost.trN), ghost.trace[k] == old(ghost.trace[k]) && ghost.trTold[k] == old(ghost.trTold[k]))
+//@   ensures [C02.handler] implies(!isnil(old(specDefaultEntry().handlerOpt)), ghost.trN == old(ghost.trN) && ghost.records == old(ghost.records) && ghost.warns == old(ghost.warns))
+//@   ensures [C13.algebra] implies(isnil(old(specDefaultEntry().handlerOpt)) && old(specAdmits(specDefaultEntry().level, OKLevel)), ghost.records - old(ghost.records) == 1 + ite(old(specAdmits(specDefaultEntry().level, WarnLevel)), ghost.warns - old(ghost.warns), 0)) && ghost.warns >= old(ghost.warns) && ghost.warns <= old(ghost.warns) + 1
+//@   ensures [C13.nocascade] implies(OKLevel == WarnLevel, ghost.warns == old(ghost.warns))
+//@   ensures [C02.deliver] implies(isnil(old(specDefaultEntry().handlerOpt)) && old(specAdmits(specDefaultEntry().level, OKLevel)), ghost.trN >= old(ghost.trN) + old(len(specDest(specDefaultEntry(), OKLevel))))
+//@   ensures [C13.quiet] implies(isnil(old(specDefaultEntry().handlerOpt)) && old(specAdmits(specDefaultEntry().level, OKLevel)) && ghost.warns == old(ghost.warns), ghost.trN == old(ghost.trN) + old(len(specDest(specDefaultEntry(), OKLevel))))
+//@   ensures [C12.flags] flags == old(flags) && inTesting == old(inTesting)
 //@   ensures [C01.gate] implies(!old(specAdmits(specDefaultEntry().level, OKLevel)), ghost.emits == old(ghost.emits))
 //@   ensures [C01.emit] implies(old(specAdmits(specDefaultEntry().level, OKLevel)), ghost.emits > old(ghost.emits))
 //@   at call logctx assert [C01.sev] callee.lvl == OKLevel
 //@
 //@ func Success
-//@   props C01 C12
-//@   requires specDefaultEntry() != nil
+//@   props C01 C02 C12 C13
+//@   requires specDefaultEntry() != nil && specFmtInv(specDefaultEntry())
 //@   assigns everything
+//@   keeps PrintCtx.off, PrintCtx.lvl
+//@   requires defaultWriter != nil && ghost.trN >= 0
+//@   requires [INV-dw] forall(k, 0, len(specDest(specDefaultEntry(), SuccessLevel)), !isnil(specDest(specDefaultEntry(), SuccessLevel)[k]) && !typeis(specDest(specDefaultEntry(), SuccessLevel)[k], LWs) && implies(typeis(specDest(specDefaultEntry(), SuccessLevel)[k], *logwr), dyn(specDest(specDefaultEntry(), SuccessLevel)[k], *logwr) != nil && !typeis(dyn(specDest(specDefaultEntry(), SuccessLevel)[k], *logwr).Writer, *logwr) && !typeis(dyn(specDest(specDefaultEntry(), SuccessLevel)[k], *logwr).Writer, LWs)))
+//@   requires [INV-dw.warn] forall(k, 0, len(specDest(specDefaultEntry(), WarnLevel)), !isnil(specDest(specDefaultEntry(), WarnLevel)[k]) && !typeis(specDest(specDefaultEntry(), WarnLevel)[k], LWs) && implies(typeis(specDest(specDefaultEntry(), WarnLevel)[k], *logwr), dyn(specDest(specDefaultEntry(), WarnLevel)[k], *logwr) != nil && !typeis(dyn(specDest(specDefaultEntry(), WarnLevel)[k], *logwr).Writer, *logwr) && !typeis(dyn(specDest(specDefaultEntry(), WarnLevel)[k], *logwr).Writer, LWs)))
+//@   ensures [C02.silent] implies(!old(specAdmits(specDefaultEntry().level, SuccessLevel)), ghost.trN == old(ghost.trN) && ghost.records == old(ghost.records) && ghost.warns == old(ghost.warns))
+//@   ensures [C02.appendonly] ghost.trN >= old(ghost.trN) && forall(k, 0, old(ghost.trN), ghost.trace[k] == old(ghost.trace[k]) && ghost.trTold[k] == old(ghost.trTold[k]))
+//@   ensures [C02.handler] implies(!isnil(old(specDefaultEntry().handlerOpt)), ghost.trN == old(ghost.trN) && ghost.records == old(ghost.records) && ghost.warns == old(ghost.warns))
+//@   ensures [C13.algebra] implies(isnil(old(specDefaultEntry().handlerOpt)) && old(specAdmits(specDefaultEntry().level, SuccessLevel)), ghost.records - old(ghost.records) == 1 + ite(old(specAdmits(specDefaultEntry().level, WarnLevel)), ghost.warns - old(ghost.warns), 0)) && ghost.warns >= old(ghost.warns) && ghost.warns <= old(ghost.warns) + 1
+//@   ensures [C13.nocascade] implies(SuccessLevel == WarnLevel, ghost.warns == old(ghost.warns))
+//@   ensures [C02.deliver] implies(isnil(old(specDefaultEntry().handlerOpt)) && old(specAdmits(specDefaultEntry().level, SuccessLevel)), ghost.trN >= old(ghost.trN) + old(len(specDest(specDefaultEntry(), SuccessLevel))))
+//@   ensures [C13.quiet] implies(isnil(old(specDefaultEntry().handlerOpt)) && old(specAdmits(specDefaultEntry().level, SuccessLevel)) && ghost.warns == old(ghost.warns), ghost.trN == old(ghost.trN) + old(len(specDest(specDefaultEntry(), SuccessLevel))))
+//@   ensures [C12.flags] flags == old(flags) && inTesting == old(inTesting)
 //@   ensures [C01.gate] implies(!old(specAdmits(specDefaultEntry().level, SuccessLevel)), ghost.emits == old(ghost.emits))
 //@   ensures [C01.emit] implies(old(specAdmits(specDefaultEntry().level, SuccessLevel)), ghost.emits > old(ghost.emits))
 //@   at call logctx assert [C01.sev] callee.lvl == SuccessLevel
 //@
 //@ func Fail
-//@   props C01 C12
-//@   requires specDefaultEntry() != nil
+//@   props C01 C02 C12 C13
+//@   requires specDefaultEntry() != nil && specFmtInv(specDefaultEntry())
 //@   assigns everything
+//@   keeps PrintCtx.off, PrintCtx.lvl
+//@   requires defaultWriter != nil && ghost.trN >= 0
+//@   requires [INV-dw] forall(k, 0, len(specDest(specDefaultEntry(), FailLevel)), !isnil(specDest(specDefaultEntry(), FailLevel)[k]) && !typeis(specDest(specDefaultEntry(), FailLevel)[k], LWs) && implies(typeis(specDest(specDefaultEntry(), FailLevel)[k], *logwr), dyn(specDest(specDefaultEntry(), FailLevel)[k], *logwr) != nil && !typeis(dyn(specDest(specDefaultEntry(), FailLevel)[k], *logwr).Writer, *logwr) && !typeis(dyn(specDest(specDefaultEntry(), FailLevel)[k], *logwr).Writer, LWs)))
+//@   requires [INV-dw.warn] forall(k, 0, len(specDest(specDefaultEntry(), WarnLevel)), !isnil(specDest(specDefaultEntry(), WarnLevel)[k]) && !typeis(specDest(specDefaultEntry(), WarnLevel)[k], LWs) && implies(typeis(specDest(specDefaultEntry(), WarnLevel)[k], *logwr), dyn(specDest(specDefaultEntry(), WarnLevel)[k], *logwr) != nil && !typeis(dyn(specDest(specDefaultEntry(), WarnLevel)[k], *logwr).Writer, *logwr) && !typeis(dyn(specDest(specDefaultEntry(), WarnLevel)[k], *logwr).Writer, LWs)))
+//@   ensures [C02.silent] implies(!old(specAdmits(specDefaultEntry().level, FailLevel)), ghost.trN == old(ghost.trN) && ghost.records == old(ghost.records) && ghost.warns == old(ghost.warns))
+//@   ensures [C02.appendonly] ghost.trN >= old(ghost.trN) && forall(k, 0, old(ghost.trN), ghost.trace[k] == old(ghost.trace[k]) && ghost.trTold[k] == old(ghost.trTold[k]))
+//@   ensures [C02.handler] implies(!isnil(old(specDefaultEntry().handlerOpt)), ghost.trN == old(ghost.trN) && ghost.records == old(ghost.records) && ghost.warns == old(ghost.warns))
+//@   ensures [C13.algebra] implies(isnil(old(specDefaultEntry().handlerOpt)) && old(specAdmits(specDefaultEntry().level, FailLevel)), ghost.records - old(ghost.records) == 1 + ite(old(specAdmits(specDefaultEntry().level, WarnLevel)), ghost.warns - old(ghost.warns), 0)) && ghost.warns >= old(ghost.warns) && ghost.warns <= old(ghost.warns) + 1
+//@   ensures [C13.nocascade] implies(FailLevel == WarnLevel, ghost.warns == old(ghost.warns))
+//@   ensures [C02.deliver] implies(isnil(old(specDefaultEntry().handlerOpt)) && old(specAdmits(specDefaultEntry().level, FailLevel)), ghost.trN >= old(ghost.trN) + old(len(specDest(specDefaultEntry(), FailLevel))))
+//@   ensures [C13.quiet] implies(isnil(old(specDefaultEntry().handlerOpt)) && old(specAdmits(specDefaultEntry().level, FailLevel)) && ghost.warns == old(ghost.warns), ghost.trN == old(ghost.trN) + old(len(specDest(specDefaultEntry(), FailLevel))))
+//@   ensures [C12.flags] flags == old(flags) && inTesting == old(inTesting)
 //@   ensures [C01.gate] implies(!old(specAdmits(specDefaultEntry().level, FailLevel)), ghost.emits == old(ghost.emits))
 //@   ensures [C01.emit] implies(old(specAdmits(specDefaultEntry().level, FailLevel)), ghost.emits > old(ghost.emits))
 //@   at call logctx assert [C01.sev] callee.lvl == FailLevel
 //@
 //@ func Println
-//@   props C01 C12
-//@   requires specDefaultEntry() != nil
+//@   props C01 C02 C12 C13
+//@   requires specDefaultEntry() != nil && specFmtInv(specDefaultEntry())
 //@   assigns everything
+//@   keeps PrintCtx.off, PrintCtx.lvl
+//@   requires defaultWriter != nil && ghost.trN >= 0
+//@   requires [INV-dw] forall(k, 0, len(specDest(specDefaultEntry(), AlwaysLevel)), !isnil(specDest(specDefaultEntry(), AlwaysLevel)[k]) && !typeis(specDest(specDefaultEntry(), AlwaysLevel)[k], LWs) && implies(typeis(specDest(specDefaultEntry(), AlwaysLevel)[k], *logwr), dyn(specDest(specDefaultEntry(), AlwaysLevel)[k], *logwr) != nil && !typeis(dyn(specDest(specDefaultEntry(), AlwaysLevel)[k], *logwr).Writer, *logwr) && !typeis(dyn(specDest(specDefaultEntry(), AlwaysLevel)[k], *logwr).Writer, LWs)))
+//@   requires [INV-dw.warn] forall(k, 0, len(specDest(specDefaultEntry(), WarnLevel)), !isnil(specDest(specDefaultEntry(), WarnLevel)[k]) && !typeis(specDest(specDefaultEntry(), WarnLevel)[k], LWs) && implies(typeis(specDest(specDefaultEntry(), WarnLevel)[k], *logwr), dyn(specDest(specDefaultEntry(), WarnLevel)[k], *logwr) != nil && !typeis(dyn(specDest(specDefaultEntry(), WarnLevel)[k], *logwr).Writer, *logwr) && !typeis(dyn(specDest(specDefaultEntry(), WarnLevel)[k], *logwr).Writer, LWs)))
+//@   ensures [C02.silent] implies(!old(specAdmits(specDefaultEntry().level, AlwaysLevel)), ghost.trN == old(ghost.trN) && ghost.records == old(ghost.records) && ghost.warns == old(ghost.warns))
+//@   ensures [C02.appendonly] ghost.trN >= old(ghost.trN) && forall(k, 0, old(ghost.trN), ghost.trace[k] == old(ghost.trace[k]) && ghost.trTold[k] == old(ghost.trTold[k]))
+//@   ensures [C02.handler] implies(!isnil(old(specDefaultEntry().handlerOpt)), ghost.trN == old(ghost.trN) && ghost.records == old(ghost.records) && ghost.warns == old(ghost.warns))
+//@   ensures [C13.algebra] implies(isnil(old(specDefaultEntry().handlerOpt)) && old(specAdmits(specDefaultEntry().level, AlwaysLevel)), ghost.records - old(ghost.records) == 1 + ite(old(specAdmits(specDefaultEntry().level, WarnLevel)), ghost.warns - old(ghost.warns), 0)) && ghost.warns >= old(ghost.warns) && ghost.warns <= old(ghost.warns) + 1
+//@   ensures [C13.nocascade] implies(AlwaysLevel == WarnLevel, ghost.warns == old(ghost.warns))
+//@   ensures [C02.deliver] implies(isnil(old(specDefaultEntry().handlerOpt)) && old(specAdmits(specDefaultEntry().level, AlwaysLevel)), ghost.trN >= old(ghost.trN) + old(len(specDest(specDefaultEntry(), AlwaysLevel))))
+//@   ensures [C13.quiet] implies(isnil(old(specDefaultEntry().handlerOpt)) && old(specAdmits(specDefaultEntry().level, AlwaysLevel)) && ghost.warns == old(ghost.warns), ghost.trN == old(ghost.trN) + old(len(specDest(specDefaultEntry(), AlwaysLevel))))
+//@   ensures [C12.flags] flags == old(flags) && inTesting == old(inTesting)
 //@   ensures [C01.gate] implies(!old(specAdmits(specDefaultEntry().level, AlwaysLevel)), ghost.emits == old(ghost.emits))
 //@   ensures [C01.emit] implies(old(specAdmits(specDefaultEntry().level, AlwaysLevel)), ghost.emits > old(ghost.emits))
 //@   at call logctx assert [C01.sev] callee.lvl == AlwaysLevel
 //@
 //@ func PanicContext
-//@   props C01 C12
-//@   requires specDefaultEntry() != nil
+//@   props C01 C02 C12 C13
+//@   requires specDefaultEntry() != nil && specFmtInv(specDefaultEntry())
 //@   assigns everything
+//@   keeps PrintCtx.off, PrintCtx.lvl
 //@   panics [C12.panic] when specAdmits(specDefaultEntry().level, PanicLevel) && specInterrupts() && isnil(specDefaultEntry().handlerOpt)
+//@   requires defaultWriter != nil && ghost.trN >= 0
+//@   requires [INV-dw] forall(k, 0, len(specDest(specDefaultEntry(), PanicLevel)), !isnil(specDest(specDefaultEntry(), PanicLevel)[k]) && !typeis(specDest(specDefaultEntry(), PanicLevel)[k], LWs) && implies(typeis(specDest(specDefaultEntry(), PanicLevel)[k], *logwr), dyn(specDest(specDefaultEntry(), PanicLevel)[k], *logwr) != nil && !typeis(dyn(specDest(specDefaultEntry(), PanicLevel)[k], *logwr).Writer, *logwr) && !typeis(dyn(specDest(specDefaultEntry(), PanicLevel)[k], *logwr).Writer, LWs)))
+//@   requires [INV-dw.warn] forall(k, 0, len(specDest(specDefaultEntry(), WarnLevel)), !isnil(specDest(specDefaultEntry(), WarnLevel)[k]) && !typeis(specDest(specDefaultEntry(), WarnLevel)[k], LWs) && implies(typeis(specDest(specDefaultEntry(), WarnLevel)[k], *logwr), dyn(specDest(specDefaultEntry(), WarnLevel)[k], *logwr) != nil && !typeis(dyn(specDest(specDefaultEntry(), WarnLevel)[k], *logwr).Writer, *logwr) && !typeis(dyn(specDest(specDefaultEntry(), WarnLevel)[k], *logwr).Writer, LWs)))
+//@   ensures [C02.silent] implies(!old(specAdmits(specDefaultEntry().level, PanicLevel)), ghost.trN == old(ghost.trN) && ghost.records == old(ghost.records) && ghost.warns == old(ghost.warns))
+//@   ensures [C02.appendonly] ghost.trN >= old(ghost.trN) && forall(k, 0, old(ghost.trN), ghost.trace[k] == old(ghost.trace[k]) && ghost.trTold[k] == old(ghost.trTold[k]))
+//@   ensures [C02.handler] implies(!isnil(old(specDefaultEntry().handlerOpt)), ghost.trN == old(ghost.trN) && ghost.records == old(ghost.records) && ghost.warns == old(ghost.warns))
+//@   ensures [C13.algebra] implies(isnil(old(specDefaultEntry().handlerOpt)) && old(specAdmits(specDefaultEntry().level, PanicLevel)), ghost.records - old(ghost.records) == 1 + ite(old(specAdmits(specDefaultEntry().level, WarnLevel)), ghost.warns - old(ghost.warns), 0)) && ghost.warns >= old(ghost.warns) && ghost.warns <= old(ghost.warns) + 1
+//@   ensures [C13.nocascade] implies(PanicLevel == WarnLevel, ghost.warns == old(ghost.warns))
+//@   ensures [C02.deliver] implies(isnil(old(specDefaultEntry().handlerOpt)) && old(specAdmits(specDefaultEntry().level, PanicLevel)), ghost.trN >= old(ghost.trN) + old(len(specDest(specDefaultEntry(), PanicLevel))))
+//@   ensures [C13.quiet] implies(isnil(old(specDefaultEntry().handlerOpt)) && old(specAdmits(specDefaultEntry().level, PanicLevel)) && ghost.warns == old(ghost.warns), ghost.trN == old(ghost.trN) + old(len(specDest(specDefaultEntry(), PanicLevel))))
+//@   ensures [C12.flags] flags == old(flags) && inTesting == old(inTesting)
 //@   ensures [C01.gate] implies(!old(specAdmits(specDefaultEntry().level, PanicLevel)), ghost.emits == old(ghost.emits))
 //@   ensures [C01.emit] implies(old(specAdmits(specDefaultEntry().level, PanicLevel)), ghost.emits > old(ghost.emits))
 //@   at call logctxctx assert [C01.sev] callee.lvl == PanicLevel
 //@
 //@ func FatalContext
-//@   props C01 C12
-//@   requires specDefaultEntry() != nil
+//@   props C01 C02 C12 C13
+//@   requires specDefaultEntry() != nil && specFmtInv(specDefaultEntry())
 //@   assigns everything
+//@   keeps PrintCtx.off, PrintCtx.lvl
 //@   exits [C12.exit] when specAdmits(specDefaultEntry().level, FatalLevel) && specInterrupts() && isnil(specDefaultEntry().handlerOpt)
+//@   requires defaultWriter != nil && ghost.trN >= 0
+//@   requires [INV-dw] forall(k, 0, len(specDest(specDefaultEntry(), FatalLevel)), !isnil(specDest(specDefaultEntry(), FatalLevel)[k]) && !typeis(specDest(specDefaultEntry(), FatalLevel)[k], LWs) && implies(typeis(specDest(specDefaultEntry(), FatalLevel)[k], *logwr), dyn(specDest(specDefaultEntry(), FatalLevel)[k], *logwr) != nil && !typeis(dyn(specDest(specDefaultEntry(), FatalLevel)[k], *logwr).Writer, *logwr) && !typeis(dyn(specDest(specDefaultEntry(), FatalLevel)[k], *logwr).Writer, LWs)))
+//@   requires [INV-dw.warn] forall(k, 0, len(specDest(specDefaultEntry(), WarnLevel)), !isnil(specDest(specDefaultEntry(), WarnLevel)[k]) && !typeis(specDest(specDefaultEntry(), WarnLevel)[k], LWs) && implies(typeis(specDest(specDefaultEntry(), WarnLevel)[k], *logwr), dyn(specDest(specDefaultEntry(), WarnLevel)[k], *logwr) != nil && !typeis(dyn(specDest(specDefaultEntry(), WarnLevel)[k], *logwr).Writer, *logwr) && !typeis(dyn(specDest(specDefaultEntry(), WarnLevel)[k], *logwr).Writer, LWs)))
+//@   ensures [C02.silent] implies(!old(specAdmits(specDefaultEntry().level, FatalLevel)), ghost.trN == old(ghost.trN) && ghost.records == old(ghost.records) && ghost.warns == old(ghost.warns))
+//@   ensures [C02.appendonly] ghost.trN >= old(ghost.trN) && forall(k, 0, old(ghost.trN), ghost.trace[k] == old(ghost.trace[k]) && ghost.trTold[k] == old(ghost.trTold[k]))
+//@   ensures [C02.handler] implies(!isnil(old(specDefaultEntry().handlerOpt)), ghost.trN == old(ghost.trN) && ghost.records == old(ghost.records) && ghost.warns == old(ghost.warns))
+//@   ensures [C13.algebra] implies(isnil(old(specDefaultEntry().handlerOpt)) && old(specAdmits(specDefaultEntry().level, FatalLevel)), ghost.records - old(ghost.records) == 1 + ite(old(specAdmits(specDefaultEntry().level, WarnLevel)), ghost.warns - old(ghost.warns), 0)) && ghost.warns >= old(ghost.warns) && ghost.warns <= old(ghost.warns) + 1
+//@   ensures [C13.nocascade] implies(FatalLevel == WarnLevel, ghost.warns == old(ghost.warns))
+//@   ensures [C02.deliver] implies(isnil(old(specDefaultEntry().handlerOpt)) && old(specAdmits(specDefaultEntry().level, FatalLevel)), ghost.trN >= old(ghost.trN) + old(len(specDest(specDefaultEntry(), FatalLevel))))
+//@   ensures [C13.quiet] implies(isnil(old(specDefaultEntry().handlerOpt)) && old(specAdmits(specDefaultEntry().level, FatalLevel)) && ghost.warns == old(ghost.warns), ghost.trN == old(ghost.trN) + old(len(specDest(specDefaultEntry(), FatalLevel))))
+//@   ensures [C12.flags] flags == old(flags) && inTesting == old(inTesting)
 //@   ensures [C01.gate] implies(!old(specAdmits(specDefaultEntry().level, FatalLevel)), ghost.emits == old(ghost.emits))
 //@   ensures [C01.emit] implies(old(specAdmits(specDefaultEntry().level, FatalLevel)), ghost.emits > old(ghost.emits))
 //@   at call logctxctx assert [C01.sev] callee.lvl == FatalLevel
 //@
 //@ func ErrorContext
-//@   props C01 C12
-//@   requires specDefaultEntry() != nil
+//@   props C01 C02 C12 C13
+//@   requires specDefaultEntry() != nil && specFmtInv(specDefaultEntry())
 //@   assigns everything
+//@   keeps PrintCtx.off, PrintCtx.lvl
+//@   requires defaultWriter != nil && ghost.trN >= 0
+//@   requires [INV-dw] forall(k, 0, len(specDest(specDefaultEntry(), ErrorLevel)), !isnil(specDest(specDefaultEntry(), ErrorLevel)[k]) && !typeis(specDest(specDefaultEntry(), ErrorLevel)[k], LWs) && implies(typeis(specDest(specDefaultEntry(), ErrorLevel)[k], *logwr), dyn(specDest(specDefaultEntry(), ErrorLevel)[k], *logwr) != nil && !typeis(dyn(specDest(specDefaultEntry(), ErrorLevel)[k], *logwr).Writer, *logwr) && !typeis(dyn(specDest(specDefaultEntry(), ErrorLevel)[k], *logwr).Writer, LWs)))
+//@   requires [INV-dw.warn] forall(k, 0, len(specDest(specDefaultEntry(), WarnLevel)), !isnil(specDest(specDefaultEntry(), WarnLevel)[k]) && !typeis(specDest(specDefaultEntry(), WarnLevel)[k], LWs) && implies(typeis(specDest(specDefaultEntry(), WarnLevel)[k], *logwr), dyn(specDest(specDefaultEntry(), WarnLevel)[k], *logwr) != nil && !typeis(dyn(specDest(specDefaultEntry(), WarnLevel)[k], *logwr).Writer, *logwr) && !typeis(dyn(specDest(specDefaultEntry(), WarnLevel)[k], *logwr).Writer, LWs)))
+//@   ensures [C02.silent] implies(!old(specAdmits(specDefaultEntry().level, ErrorLevel)), ghost.trN == old(ghost.trN) && ghost.records == old(ghost.records) && ghost.warns == old(ghost.warns))
+//@   ensures [C02.appendonly] ghost.trN >= old(ghost.trN) && forall(k, 0, old(ghost.trN), ghost.trace[k] == old(ghost.trace[k]) && ghost.trTold[k] == old(ghost.trTold[k]))
+//@   ensures [C02.handler] implies(!isnil(old(specDefaultEntry().handlerOpt)), ghost.trN == old(ghost.trN) && ghost.records == old(ghost.records) && ghost.warns == old(ghost.warns))
+//@   ensures [C13.algebra] implies(isnil(old(specDefaultEntry().handlerOpt)) && old(specAdmits(specDefaultEntry().level, ErrorLevel)), ghost.records - old(ghost.records) == 1 + ite(old(specAdmits(specDefaultEntry().level, WarnLevel)), ghost.warns - old(ghost.warns), 0)) && ghost.warns >= old(ghost.warns) && ghost.warns <= old(ghost.warns) + 1
+//@   ensures [C13.nocascade] implies(ErrorLevel == WarnLevel, ghost.warns == old(ghost.warns))
+//@   ensures [C02.deliver] implies(isnil(old(specDefaultEntry().handlerOpt)) && old(specAdmits(specDefaultEntry().level, ErrorLevel)), ghost.trN >= old(ghost.trN) + old(len(specDest(specDefaultEntry(), ErrorLevel))))
+//@   ensures [C13.quiet] implies(isnil(old(specDefaultEntry().handlerOpt)) && old(specAdmits(specDefaultEntry().level, ErrorLevel)) && ghost.warns == old(ghost.warns), ghost.trN == old(ghost.trN) + old(len(specDest(specDefaultEntry(), ErrorLevel))))
+//@   ensures [C12.flags] flags == old(flags) && inTesting == old(inTesting)
 //@   ensures [C01.gate] implies(!old(specAdmits(specDefaultEntry().level, ErrorLevel)), ghost.emits == old(ghost.emits))
 //@   ensures [C01.emit] implies(old(specAdmits(specDefaultEntry().level, ErrorLevel)), ghost.emits > old(ghost.emits))
 //@   at call logctxctx assert [C01.sev] callee.lvl == ErrorLevel
 //@
 //@ func WarnContext
-//@   props C01 C12
-//@   requires specDefaultEntry() != nil
+//@   props C01 C02 C12 C13
+//@   requires specDefaultEntry() != nil && specFmtInv(specDefaultEntry())
 //@   assigns everything
+//@   keeps PrintCtx.off, PrintCtx.lvl
+//@   requires defaultWriter != nil && ghost.trN >= 0
+//@   requires [INV-dw] forall(k, 0, len(specDest(specDefaultEntry(), WarnLevel)), !isnil(specDest(specDefaultEntry(), WarnLevel)[k]) && !typeis(specDest(specDefaultEntry(), WarnLevel)[k], LWs) && implies(typeis(specDest(specDefaultEntry(), WarnLevel)[k], *logwr), dyn(specDest(specDefaultEntry(), WarnLevel)[k], *logwr) != nil && !typeis(dyn(specDest(specDefaultEntry(), WarnLevel)[k], *logwr).Writer, *logwr) && !typeis(dyn(specDest(specDefaultEntry(), WarnLevel)[k], *logwr).Writer, LWs)))
+//@   requires [INV-dw.warn] forall(k, 0, len(specDest(specDefaultEntry(), WarnLevel)), !isnil(specDest(specDefaultEntry(), WarnLevel)[k]) && !typeis(specDest(specDefaultEntry(), WarnLevel)[k], LWs) && implies(typeis(specDest(specDefaultEntry(), WarnLevel)[k], *logwr), dyn(specDest(specDefaultEntry(), WarnLevel)[k], *logwr) != nil && !typeis(dyn(specDest(specDefaultEntry(), WarnLevel)[k], *logwr).Writer, *logwr) && !typeis(dyn(specDest(specDefaultEntry(), WarnLevel)[k], *logwr).Writer, LWs)))
+//@   ensures [C02.silent] implies(!old(specAdmits(specDefaultEntry().level, WarnLevel)), ghost.trN == old(ghost.trN) && ghost.records == old(ghost.records) && ghost.warns == old(ghost.warns))
+//@   ensures [C02.appendonly] ghost.trN >= old(ghost.trN) && forall(k, 0, old(ghost.trN), ghost.trace[k] == old(ghost.trace[k]) && ghost.trTold[k] == old(ghost.trTold[k]))
+//@   ensures [C02.handler] implies(!isnil(old(specDefaultEntry().handlerOpt)), ghost.trN == old(ghost.trN) && ghost.records == old(ghost.records) && ghost.warns == old(ghost.warns))
+//@   ensures [C13.algebra] implies(isnil(old(specDefaultEntry().handlerOpt)) && old(specAdmits(specDefaultEntry().level, WarnLevel)), ghost.records - old(ghost.records) == 1 + ite(old(specAdmits(specDefaultEntry().level, WarnLevel)), ghost.warns - old(ghost.warns), 0)) && ghost.warns >= old(ghost.warns) && ghost.warns <= old(ghost.warns) + 1
+//@   ensures [C13.nocascade] implies(WarnLevel == WarnLevel, ghost.warns == old(ghost.warns))
+//@   ensures [C02.deliver] implies(isnil(old(specDefaultEntry().handlerOpt)) && old(specAdmits(specDefaultEntry().level, WarnLevel)), ghost.trN >= old(ghost.trN) + old(len(specDest(specDefaultEntry(), WarnLevel))))
+//@   ensures [C13.quiet] implies(isnil(old(specDefaultEntry().handlerOpt)) && old(specAdmits(specDefaultEntry().level, WarnLevel)) && ghost.warns == old(ghost.warns), ghost.trN == old(ghost.trN) + old(len(specDest(specDefaultEntry(), WarnLevel))))
+//@   ensures [C12.flags] flags == old(flags) && inTesting == old(inTesting)
 //@   ensures [C01.gate] implies(!old(specAdmits(specDefaultEntry().level, WarnLevel)), ghost.emits == old(ghost.emits))
 //@   ensures [C01.emit] implies(old(specAdmits(specDefaultEntry().level, WarnLevel)), ghost.emits > old(ghost.emits))
 //@   at call logctxctx assert [C01.sev] callee.lvl == WarnLevel
 //@
 //@ func InfoContext
-//@   props C01 C12
-//@   requires specDefaultEntry() != nil
+//@   props C01 C02 C12 C13
+//@   requires specDefaultEntry() != nil && specFmtInv(specDefaultEntry())
 //@   assigns everything
+//@   keeps PrintCtx.off, PrintCtx.lvl
+//@   requires defaultWriter != nil && ghost.trN >= 0
+//@   requires [INV-dw] forall(k, 0, len(specDest(specDefaultEntry(), InfoLevel)), !isnil(specDest(specDefaultEntry(), InfoLevel)[k]) && !typeis(specDest(specDefaultEntry(), InfoLevel)[k], LWs) && implies(typeis(specDest(specDefaultEntry(), InfoLevel)[k], *logwr), dyn(specDest(specDefaultEntry(), InfoLevel)[k], *logwr) != nil && !typeis(dyn(specDest(specDefaultEntry(), InfoLevel)[k], *logwr).Writer, *logwr) && !typeis(dyn(specDest(specDefaultEntry(), InfoLevel)[k], *logwr).Writer, LWs)))
+//@   requires [INV-dw.warn] forall(k, 0, len(specDest(specDefaultEntry(), WarnLevel)), !isnil(specDest(specDefaultEntry(), WarnLevel)[k]) && !typeis(specDest(specDefaultEntry(), WarnLevel)[k], LWs) && implies(typeis(specDest(specDefaultEntry(), WarnLevel)[k], *logwr), dyn(specDest(specDefaultEntry(), WarnLevel)[k], *logwr) != nil && !typeis(dyn(specDest(specDefaultEntry(), WarnLevel)[k], *logwr).Writer, *logwr) && !typeis(dyn(specDest(specDefaultEntry(), WarnLevel)[k], *logwr).Writer, LWs)))
+//@   ensures [C02.silent] implies(!old(specAdmits(specDefaultEntry().level, InfoLevel)), ghost.trN == old(ghost.trN) && ghost.records == old(ghost.records) && ghost.warns == old(ghost.warns))
+//@   ensures [C02.appendonly] ghost.trN >= old(ghost.trN) && forall(k, 0, old(ghost.trN), ghost.trace[k] == old(ghost.trace[k]) && ghost.trTold[k] == old(ghost.trTold[k]))
+//@   ensures [C02.handler] implies(!isnil(old(specDefaultEntry().handlerOpt)), ghost.trN == old(ghost.trN) && ghost.records == old(ghost.records) && ghost.warns == old(ghost.warns))
+//@   ensures [C13.algebra] implies(isnil(old(specDefaultEntry().handlerOpt)) && old(specAdmits(specDefaultEntry().level, InfoLevel)), ghost.records - old(ghost.records) == 1 + ite(old(specAdmits(specDefaultEntry().level, WarnLevel)), ghost.warns - old(ghost.warns), 0)) && ghost.warns >= old(ghost.warns) && ghost.warns <= old(ghost.warns) + 1
+//@   ensures [C13.nocascade] implies(InfoLevel == WarnLevel, ghost.warns == old(ghost.warns))
+//@   ensures [C02.deliver] implies(isnil(old(specDefaultEntry().handlerOpt)) && old(specAdmits(specDefaultEntry().level, InfoLevel)), ghost.trN >= old(ghost.trN) + old(len(specDest(specDefaultEntry(), InfoLevel))))
+//@   ensures [C13.quiet] implies(isnil(old(specDefaultEntry().handlerOpt)) && old(specAdmits(specDefaultEntry().level, InfoLevel)) && ghost.warns == old(ghost.warns), ghost.trN == old(ghost.trN) + old(len(specDest(specDefaultEntry(), InfoLevel))))
+//@   ensures [C12.flags] flags == old(flags) && inTesting == old(inTesting)
 //@   ensures [C01.gate] implies(!old(specAdmits(specDefaultEntry().level, InfoLevel)), ghost.emits == old(ghost.emits))
 //@   ensures [C01.emit] implies(old(specAdmits(specDefaultEntry().level, InfoLevel)), ghost.emits > old(ghost.emits))
 //@   at call logctxctx assert [C01.sev] callee.lvl == InfoLevel
 //@
 //@ func DebugContext
-//@   props C01 C12
-//@   requires specDefaultEntry() != nil
+//@   props C01 C02 C12 C13
+//@   requires specDefaultEntry() != nil && specFmtInv(specDefaultEntry())
 //@   assigns everything
+//@   keeps PrintCtx.off, PrintCtx.lvl
+//@   requires defaultWriter != nil && ghost.trN >= 0
+//@   requires [INV-dw] forall(k, 0, len(specDest(specDefaultEntry(), DebugLevel)), !isnil(specDest(specDefaultEntry(), DebugLevel)[k]) && !typeis(specDest(specDefaultEntry(), DebugLevel)[k], LWs) && implies(typeis(specDest(specDefaultEntry(), DebugLevel)[k], *logwr), dyn(specDest(specDefaultEntry(), DebugLevel)[k], *logwr) != nil && !typeis(dyn(specDest(specDefaultEntry(), DebugLevel)[k], *logwr).Writer, *logwr) && !typeis(dyn(specDest(specDefaultEntry(), DebugLevel)[k], *logwr).Writer, LWs)))
+//@   requires [INV-dw.warn] forall(k, 0, len(specDest(specDefaultEntry(), WarnLevel)), !isnil(specDest(specDefaultEntry(), WarnLevel)[k]) && !typeis(specDest(specDefaultEntry(), WarnLevel)[k], LWs) && implies(typeis(specDest(specDefaultEntry(), WarnLevel)[k], *logwr), dyn(specDest(specDefaultEntry(), WarnLevel)[k], *logwr) != nil && !typeis(dyn(specDest(specDefaultEntry(), WarnLevel)[k], *logwr).Writer, *logwr) && !typeis(dyn(specDest(specDefaultEntry(), WarnLevel)[k], *logwr).Writer, LWs)))
+//@   ensures [C02.silent] implies(!old(specAdmits(specDefaultEntry().level, DebugLevel)), ghost.trN == old(ghost.trN) && ghost.records == old(ghost.records) && ghost.warns == old(ghost.warns))
+//@   ensures [C02.appendonly] ghost.trN >= old(ghost.trN) && forall(k, 0, old(ghost.trN), ghost.trace[k] == old(ghost.trace[k]) && ghost.trTold[k] == old(ghost.trTold[k]))
+//@   ensures [C02.handler] implies(!isnil(old(specDefaultEntry().handlerOpt)), ghost.trN == old(ghost.trN) && ghost.records == old(ghost.records) && ghost.warns == old(ghost.warns))
+//@   ensures [C13.algebra] implies(isnil(old(specDefaultEntry().handlerOpt)) && old(specAdmits(specDefaultEntry().level, DebugLevel)), ghost.records - old(ghost.records) == 1 + ite(old(specAdmits(specDefaultEntry().level, WarnLevel)), ghost.warns - old(ghost.warns), 0)) && ghost.warns >= old(ghost.warns) && ghost.warns <= old(ghost.warns) + 1
+//@   ensures [C13.nocascade] implies(DebugLevel == WarnLevel, ghost.warns == old(ghost.warns))
+//@   ensures [C02.deliver] implies(isnil(old(specDefaultEntry().handlerOpt)) && old(specAdmits(specDefaultEntry().level, DebugLevel)), ghost.trN >= old(ghost.trN) + old(len(specDest(specDefaultEntry(), DebugLevel))))
+//@   ensures [C13.quiet] implies(isnil(old(specDefaultEntry().handlerOpt)) && old(specAdmits(specDefaultEntry().level, DebugLevel)) && ghost.warns == old(ghost.warns), ghost.trN == old(ghost.trN) + old(len(specDest(specDefaultEntry(), DebugLevel))))
+//@   ensures [C12.flags] flags == old(flags) && inTesting == old(inTesting)
 //@   ensures [C01.gate] implies(!old(specAdmits(specDefaultEntry().level, DebugLevel)), ghost.emits == old(ghost.emits))
 //@   ensures [C01.emit] implies(old(specAdmits(specDefaultEntry().level, DebugLevel)), ghost.emits > old(ghost.emits))
 //@   at call logctxctx assert [C01.sev] callee.lvl == DebugLevel
 //@
 //@ func TraceContext
-//@   props C01 C12
-//@   requires specDefaultEntry() != nil
+//@   props C01 C02 C12 C13
+//@   requires specDefaultEntry() != nil && specFmtInv(specDefaultEntry())
 //@   assigns everything
+//@   keeps PrintCtx.off, PrintCtx.lvl
+//@   requires defaultWriter != nil && ghost.trN >= 0
+//@   requires [INV-dw] forall(k, 0, len(specDest(specDefaultEntry(), TraceLevel)), !isnil(specDest(specDefaultEntry(), TraceLevel)[k]) && !typeis(specDest(specDefaultEntry(), TraceLevel)[k], LWs) && implies(typeis(specDest(specDefaultEntry(), TraceLevel)[k], *logwr), dyn(specDest(specDefaultEntry(), TraceLevel)[k], *logwr) != nil && !typeis(dyn(specDest(specDefaultEntry(), TraceLevel)[k], *logwr).Writer, *logwr) && !typeis(dyn(specDest(specDefaultEntry(), TraceLevel)[k], *logwr).Writer, LWs)))
+//@   requires [INV-dw.warn] forall(k, 0, len(specDest(specDefaultEntry(), WarnLevel)), !isnil(specDest(specDefaultEntry(), WarnLevel)[k]) && !typeis(specDest(specDefaultEntry(), WarnLevel)[k], LWs) && implies(typeis(specDest(specDefaultEntry(), WarnLevel)[k], *logwr), dyn(specDest(specDefaultEntry(), WarnLevel)[k], *logwr) != nil && !typeis(dyn(specDest(specDefaultEntry(), WarnLevel)[k], *logwr).Writer, *logwr) && !typeis(dyn(specDest(specDefaultEntry(), WarnLevel)[k], *logwr).Writer, LWs)))
+//@   ensures [C02.silent] implies(!old(specAdmits(specDefaultEntry().level, TraceLevel)), ghost.trN == old(ghost.trN) && ghost.records == old(ghost.records) && ghost.warns == old(ghost.warns))
+//@   ensures [C02.appendonly] ghost.trN >= old(ghost.trN) && forall(k, 0, old(ghost.trN), ghost.trace[k] == old(ghost.trace[k]) && ghost.trTold[k] == old(ghost.trTold[k]))
+//@   ensures [C02.handler] implies(!isnil(old(specDefaultEntry().handlerOpt)), ghost.trN == old(ghost.trN) && ghost.records == old(ghost.records) && ghost.warns == old(ghost.warns))
+//@   ensures [C13.algebra] implies(isnil(old(specDefaultEntry().handlerOpt)) && old(specAdmits(specDefaultEntry().level, TraceLevel)), ghost.records - old(ghost.records) == 1 + ite(old(specAdmits(specDefaultEntry().level, WarnLevel)), ghost.warns - old(ghost.warns), 0)) && ghost.warns >= old(ghost.warns) && ghost.warns <= old(ghost.warns) + 1
+//@   ensures [C13.nocascade] implies(TraceLevel == WarnLevel, ghost.warns == old(ghost.warns))
+//@   ensures [C02.deliver] implies(isnil(old(specDefaultEntry().handlerOpt)) && old(specAdmits(specDefaultEntry().level, TraceLevel)), ghost.trN >= old(ghost.trN) + old(len(specDest(specDefaultEntry(), TraceLevel))))
+//@   ensures [C13.quiet] implies(isnil(old(specDefaultEntry().handlerOpt)) && old(specAdmits(specDefaultEntry().level, TraceLevel)) && ghost.warns == old(ghost.warns), ghost.trN == old(ghost.trN) + old(len(specDest(specDefaultEntry(), TraceLevel))))
+//@   ensures [C12.flags] flags == old(flags) && inTesting == old(inTesting)
 //@   ensures [C01.gate] implies(!old(specAdmits(specDefaultEntry().level, TraceLevel)), ghost.emits == old(ghost.emits))
 //@   ensures [C01.emit] implies(old(specAdmits(specDefaultEntry().level, TraceLevel)), ghost.emits > old(ghost.emits))
 //@   at call logctxctx assert [C01.sev] callee.lvl == TraceLevel
 //@
 //@ func PrintContext
-//@   props C01 C12
-//@   requires specDefaultEntry() != nil
+//@   props C01 C02 C12 C13
+//@   requires specDefaultEntry() != nil && specFmtInv(specDefaultEntry())
 //@   assigns everything
+//@   keeps PrintCtx.off, PrintCtx.lvl
+//@   requires defaultWriter != nil && ghost.trN >= 0
+//@   requires [INV-dw] forall(k, 0, len(specDest(specDefaultEntry(), AlwaysLevel)), !isnil(specDest(specDefaultEntry(), AlwaysLevel)[k]) && !typeis(specDest(specDefaultEntry(), AlwaysLevel)[k], LWs) && implies(typeis(specDest(specDefaultEntry(), AlwaysLevel)[k], *logwr), dyn(specDest(specDefaultEntry(), AlwaysLevel)[k], *logwr) != nil && !typeis(dyn(specDest(specDefaultEntry(), AlwaysLevel)[k], *logwr).Writer, *logwr) && !typeis(dyn(specDest(specDefaultEntry(), AlwaysLevel)[k], *logwr).Writer, LWs)))
+//@   requires [INV-dw.warn] forall(k, 0, len(specDest(specDefaultEntry(), WarnLevel)), !isnil(specDest(specDefaultEntry(), WarnLevel)[k]) && !typeis(specDest(specDefaultEntry(), WarnLevel)[k], LWs) && implies(typeis(specDest(specDefaultEntry(), WarnLevel)[k], *logwr), dyn(specDest(specDefaultEntry(), WarnLevel)[k], *logwr) != nil && !typeis(dyn(specDest(specDefaultEntry(), WarnLevel)[k], *logwr).Writer, *logwr) && !typeis(dyn(specDest(specDefaultEntry(), WarnLevel)[k], *logwr).Writer, LWs)))
+//@   ensures [C02.silent] implies(!old(specAdmits(specDefaultEntry().level, AlwaysLevel)), ghost.trN == old(ghost.trN) && ghost.records == old(ghost.records) && ghost.warns == old(ghost.warns))
+//@   ensures [C02.appendonly] ghost.trN >= old(ghost.trN) && forall(k, 0, old(ghost.trN), ghost.trace[k] == old(ghost.trace[k]) && ghost.trTold[k] == old(ghost.trTold[k]))
+//@   ensures [C02.handler] implies(!isnil(old(specDefaultEntry().handlerOpt)), ghost.trN == old(ghost.trN) && ghost.records == old(ghost.records) && ghost.warns == old(ghost.warns))
+//@   ensures [C13.algebra] implies(isnil(old(specDefaultEntry().handlerOpt)) && old(specAdmits(specDefaultEntry().level, AlwaysLevel)), ghost.records - old(ghost.records) == 1 + ite(old(specAdmits(specDefaultEntry().level, WarnLevel)), ghost.warns - old(ghost.warns), 0)) && ghost.warns >= old(ghost.warns) && ghost.warns <= old(ghost.warns) + 1
+//@   ensures [C13.nocascade] implies(AlwaysLevel == WarnLevel, ghost.warns == old(ghost.warns))
+//@   ensures [C02.deliver] implies(isnil(old(specDefaultEntry().handlerOpt)) && old(specAdmits(specDefaultEntry().level, AlwaysLevel)), ghost.trN >= old(ghost.trN) + old(len(specDest(specDefaultEntry(), AlwaysLevel))))
+//@   ensures [C13.quiet] implies(isnil(old(specDefaultEntry().handlerOpt)) && old(specAdmits(specDefaultEntry().level, AlwaysLevel)) && ghost.warns == old(ghost.warns), ghost.trN == old(ghost.trN) + old(len(specDest(specDefaultEntry(), AlwaysLevel))))
+//@   ensures [C12.flags] flags == old(flags) && inTesting == old(inTesting)
 //@   ensures [C01.gate] implies(!old(specAdmits(specDefaultEntry().level, AlwaysLevel)), ghost.emits == old(ghost.emits))
 //@   ensures [C01.emit] implies(old(specAdmits(specDefaultEntry().level, AlwaysLevel)), ghost.emits > old(ghost.emits))
 //@   at call logctxctx assert [C01.sev] callee.lvl == AlwaysLevel
 //@
 //@ func OKContext
-//@   props C01 C12
-//@   requires specDefaultEntry() != nil
+//@   props C01 C02 C12 C13
+//@   requires specDefaultEntry() != nil && specFmtInv(specDefaultEntry())
 //@   assigns everything
+//@   keeps PrintCtx.off, PrintCtx.lvl
+//@   requires defaultWriter != nil && ghost.trN >= 0
+//@   requires [INV-dw] forall(k, 0, len(specDest(specDefaultEntry(), OKLevel)), !isnil(specDest(specDefaultEntry(), OKLevel)[k]) && !typeis(specDest(specDefaultEntry(), OKLevel)[k], LWs) && implies(typeis(specDest(specDefaultEntry(), OKLevel)[k], *logwr), dyn(specDest(specDefaultEntry(), OKLevel)[k], *logwr) != nil && !typeis(dyn(specDest(specDefaultEntry(), OKLevel)[k], *logwr).Writer, *logwr) && !typeis(dyn(specDest(specDefaultEntry(), OKLevel)[k], *logwr).Writer, LWs)))
+//@   requires [INV-dw.warn] forall(k, 0, len(specDest(specDefaultEntry(), WarnLevel)), !isnil(specDest(specDefaultEntry(), WarnLevel)[k]) && !typeis(specDest(specDefaultEntry(), WarnLevel)[k], LWs) && implies(typeis(specDest(specDefaultEntry(), WarnLevel)[k], *logwr), dyn(specDest(specDefaultEntry(), WarnLevel)[k], *logwr) != nil && !typeis(dyn(specDest(specDefaultEntry(), WarnLevel)[k], *logwr).Writer, *logwr) && !typeis(dyn(specDest(specDefaultEntry(), WarnLevel)[k], *logwr).Writer, LWs)))
+//@   ensures [C02.silent] implies(!old(specAdmits(specDefaultEntry().level, OKLevel)), ghost.trN == old(ghost.trN) && ghost.records == old(ghost.records) && ghost.warns == old(ghost.warns))
+//@   ensures [C02.appendonly] ghost.trN >= old(ghost.trN) && forall(k, 0, old(ghost.trN), ghost.trace[k] == old(ghost.trace[k]) && ghost.trTold[k] == old(ghost.trTold[k]))
+//@   ensures [C02.handler] implies(!isnil(old(specDefaultEntry().handlerOpt)), ghost.trN == old(ghost.trN) && ghost.records == old(ghost.records) && ghost.warns == old(ghost.warns))
+//@   ensures [C13.algebra] implies(isnil(old(specDefaultEntry().handlerOpt)) && old(specAdmits(specDefaultEntry().level, OKLevel)), ghost.records - old(ghost.records) == 1 + ite(old(specAdmits(specDefaultEntry().level, WarnLevel)), ghost.warns - old(ghost.warns), 0)) && ghost.warns >= old(ghost.warns) && ghost.warns <= old(ghost.warns) + 1
+//@   ensures [C13.nocascade] implies(OKLevel == WarnLevel, ghost.warns == old(ghost.warns))
+//@   ensures [C02.deliver] implies(isnil(old(specDefaultEntry().handlerOpt)) && old(specAdmits(specDefaultEntry().level, OKLevel)), ghost.trN >= old(ghost.trN) + old(len(specDest(specDefaultEntry(), OKLevel))))
+//@   ensures [C13.quiet] implies(isnil(old(specDefaultEntry().handlerOpt)) && old(specAdmits(specDefaultEntry().level, OKLevel)) && ghost.warns == old(ghost.warns), ghost.trN == old(ghost.trN) + old(len(specDest(specDefaultEntry(), OKLevel))))
+//@   ensures [C12.flags] flags == old(flags) && inTesting == old(inTesting)
 //@   ensures [C01.gate] implies(!old(specAdmits(specDefaultEntry().level, OKLevel)), ghost.emits == old(ghost.emits))
 //@   ensures [C01.emit] implies(old(specAdmits(specDefaultEntry().level, OKLevel)), ghost.emits > old(ghost.emits))
 //@   at call logctxctx assert [C01.sev] callee.lvl == OKLevel
 //@
 //@ func SuccessContext
-//@   props C01 C12
-//@   requires specDefaultEntry() != nil
+//@   props C01 C02 C12 C13
+//@   requires specDefaultEntry() != nil && specFmtInv(specDefaultEntry())
 //@   assigns everything
+//@   keeps PrintCtx.off, PrintCtx.lvl
+//@   requires defaultWriter != nil && ghost.trN >= 0
+//@   requires [INV-dw] forall(k, 0, len(specDest(specDefaultEntry(), SuccessLevel)), !isnil(specDest(specDefaultEntry(), SuccessLevel)[k]) && !typeis(specDest(specDefaultEntry(), SuccessLevel)[k], LWs) && implies(typeis(specDest(specDefaultEntry(), SuccessLevel)[k], *logwr), dyn(specDest(specDefaultEntry(), SuccessLevel)[k], *logwr) != nil && !typeis(dyn(specDest(specDefaultEntry(), SuccessLevel)[k], *logwr).Writer, *logwr) && !typeis(dyn(specDest(specDefaultEntry(), SuccessLevel)[k], *logwr).Writer, LWs)))
+//@   requires [INV-dw.warn] forall(k, 0, len(specDest(specDefaultEntry(), WarnLevel)), !isnil(specDest(specDefaultEntry(), WarnLevel)[k]) && !typeis(specDest(specDefaultEntry(), WarnLevel)[k], LWs) && implies(typeis(specDest(specDefaultEntry(), WarnLevel)[k], *logwr), dyn(specDest(specDefaultEntry(), WarnLevel)[k], *logwr) != nil && !typeis(dyn(specDest(specDefaultEntry(), WarnLevel)[k], *logwr).Writer, *logwr) && !typeis(dyn(specDest(specDefaultEntry(), WarnLevel)[k], *logwr).Writer, LWs)))
+//@   ensures [C02.silent] implies(!old(specAdmits(specDefaultEntry().level, SuccessLevel)), ghost.trN == old(ghost.trN) && ghost.records == old(ghost.records) && ghost.warns == old(ghost.warns))
+//@   ensures [C02.appendonly] ghost.trN >= old(ghost.trN) && forall(k, 0, old(ghost.trN), ghost.trace[k] == old(ghost.trace[k]) && ghost.trTold[k] == old(ghost.trTold[k]))
+//@   ensures [C02.handler] implies(!isnil(old(specDefaultEntry().handlerOpt)), ghost.trN == old(ghost.trN) && ghost.records == old(ghost.records) && ghost.warns == old(ghost.warns))
+//@   ensures [C13.algebra] implies(isnil(old(specDefaultEntry().handlerOpt)) && old(specAdmits(specDefaultEntry().level, SuccessLevel)), ghost.records - old(ghost.records) == 1 + ite(old(specAdmits(specDefaultEntry().level, WarnLevel)), ghost.warns - old(ghost.warns), 0)) && ghost.warns >= old(ghost.warns) && ghost.warns <= old(ghost.warns) + 1
+//@   ensures [C13.nocascade] implies(SuccessLevel == WarnLevel, ghost.warns == old(ghost.warns))
+//@   ensures [C02.deliver] implies(isnil(old(specDefaultEntry().handlerOpt)) && old(specAdmits(specDefaultEntry().level, SuccessLevel)), ghost.trN >= old(ghost.trN) + old(len(specDest(specDefaultEntry(), SuccessLevel))))
+//@   ensures [C13.quiet] implies(isnil(old(specDefaultEntry().handlerOpt)) && old(specAdmits(specDefaultEntry().level, SuccessLevel)) && ghost.warns == old(ghost.warns), ghost.trN == old(ghost.trN) + old(len(specDest(specDefaultEntry(), SuccessLevel))))
+//@   ensures [C12.flags] flags == old(flags) && inTesting == old(inTesting)
 //@   ensures [C01.gate] implies(!old(specAdmits(specDefaultEntry().level, SuccessLevel)), ghost.emits == old(ghost.emits))
 //@   ensures [C01.emit] implies(old(specAdmits(specDefaultEntry().level, SuccessLevel)), ghost.emits > old(ghost.emits))
 //@   at call logctxctx assert [C01.sev] callee.lvl == SuccessLevel
 //@
 //@ func FailContext
-//@   props C01 C12
-//@   requires specDefaultEntry() != nil
+//@   props C01 C02 C12 C13
+//@   requires specDefaultEntry() != nil && specFmtInv(specDefaultEntry())
 //@   assigns everything
+//@   keeps PrintCtx.off, PrintCtx.lvl
+//@   requires defaultWriter != nil && ghost.trN >= 0
+//@   requires [INV-dw] forall(k, 0, len(specDest(specDefaultEntry(), FailLevel)), !isnil(specDest(specDefaultEntry(), FailLevel)[k]) && !typeis(specDest(specDefaultEntry(), FailLevel)[k], LWs) && implies(typeis(specDest(specDefaultEntry(), FailLevel)[k], *logwr), dyn(specDest(specDefaultEntry(), FailLevel)[k], *logwr) != nil && !typeis(dyn(specDest(specDefaultEntry(), FailLevel)[k], *logwr).Writer, *logwr) && !typeis(dyn(specDest(specDefaultEntry(), FailLevel)[k], *logwr).Writer, LWs)))
+//@   requires [INV-dw.warn] forall(k, 0, len(specDest(specDefaultEntry(), WarnLevel)), !isnil(specDest(specDefaultEntry(), WarnLevel)[k]) && !typeis(specDest(specDefaultEntry(), WarnLevel)[k], LWs) && implies(typeis(specDest(specDefaultEntry(), WarnLevel)[k], *logwr), dyn(specDest(specDefaultEntry(), WarnLevel)[k], *logwr) != nil && !typeis(dyn(specDest(specDefaultEntry(), WarnLevel)[k], *logwr).Writer, *logwr) && !typeis(dyn(specDest(specDefaultEntry(), WarnLevel)[k], *logwr).Writer, LWs)))
+//@   ensures [C02.silent] implies(!old(specAdmits(specDefaultEntry().level, FailLevel)), ghost.trN == old(ghost.trN) && ghost.records == old(ghost.records) && ghost.warns == old(ghost.warns))
+//@   ensures [C02.appendonly] ghost.trN >= old(ghost.trN) && forall(k, 0, old(ghost.trN), ghost.trace[k] == old(ghost.trace[k]) && ghost.trTold[k] == old(ghost.trTold[k]))
+//@   ensures [C02.handler] implies(!isnil(old(specDefaultEntry().handlerOpt)), ghost.trN == old(ghost.trN) && ghost.records == old(ghost.records) && ghost.warns == old(ghost.warns))
+//@   ensures [C13.algebra] implies(isnil(old(specDefaultEntry().handlerOpt)) && old(specAdmits(specDefaultEntry().level, FailLevel)), ghost.records - old(ghost.records) == 1 + ite(old(specAdmits(specDefaultEntry().level, WarnLevel)), ghost.warns - old(ghost.warns), 0)) && ghost.warns >= old(ghost.warns) && ghost.warns <= old(ghost.warns) + 1
+//@   ensures [C13.nocascade] implies(FailLevel == WarnLevel, ghost.warns == old(ghost.warns))
+//@   ensures [C02.deliver] implies(isnil(old(specDefaultEntry().handlerOpt)) && old(specAdmits(specDefaultEntry().level, FailLevel)), ghost.trN >= old(ghost.trN) + old(len(specDest(specDefaultEntry(), FailLevel))))
+//@   ensures [C13.quiet] implies(isnil(old(specDefaultEntry().handlerOpt)) && old(specAdmits(specDefaultEntry().level, FailLevel)) && ghost.warns == old(ghost.warns), ghost.trN == old(ghost.trN) + old(len(specDest(specDefaultEntry(), FailLevel))))
+//@   ensures [C12.flags] flags == old(flags) && inTesting == old(inTesting)
 //@   ensures [C01.gate] implies(!old(specAdmits(specDefaultEntry().level, FailLevel)), ghost.emits == old(ghost.emits))
 //@   ensures [C01.emit] implies(old(specAdmits(specDefaultEntry().level, FailLevel)), ghost.emits > old(ghost.emits))
 //@   at call logctxctx assert [C01.sev] callee.lvl == FailLevel
 //@
 //@ func PrintlnContext
-//@   props C01 C12
-//@   requires specDefaultEntry() != nil
+//@   props C01 C02 C12 C13
+//@   requires specDefaultEntry() != nil && specFmtInv(specDefaultEntry())
 //@   assigns everything
+//@   keeps PrintCtx.off, PrintCtx.lvl
+//@   requires defaultWriter != nil && ghost.trN >= 0
+//@   requires [INV-dw] forall(k, 0, len(specDest(specDefaultEntry(), AlwaysLevel)), !isnil(specDest(specDefaultEntry(), AlwaysLevel)[k]) && !typeis(specDest(specDefaultEntry(), AlwaysLevel)[k], LWs) && implies(typeis(specDest(specDefaultEntry(), AlwaysLevel)[k], *logwr), dyn(specDest(specDefaultEntry(), AlwaysLevel)[k], *logwr) != nil && !typeis(dyn(specDest(specDefaultEntry(), AlwaysLevel)[k], *logwr).Writer, *logwr) && !typeis(dyn(specDest(specDefaultEntry(), AlwaysLevel)[k], *logwr).Writer, LWs)))
+//@   requires [INV-dw.warn] forall(k, 0, len(specDest(specDefaultEntry(), WarnLevel)), !isnil(specDest(specDefaultEntry(), WarnLevel)[k]) && !typeis(specDest(specDefaultEntry(), WarnLevel)[k], LWs) && implies(typeis(specDest(specDefaultEntry(), WarnLevel)[k], *logwr), dyn(specDest(specDefaultEntry(), WarnLevel)[k], *logwr) != nil && !typeis(dyn(specDest(specDefaultEntry(), WarnLevel)[k], *logwr).Writer, *logwr) && !typeis(dyn(specDest(specDefaultEntry(), WarnLevel)[k], *logwr).Writer, LWs)))
+//@   ensures [C02.silent] implies(!old(specAdmits(specDefaultEntry().level, AlwaysLevel)), ghost.trN == old(ghost.trN) && ghost.records == old(ghost.records) && ghost.warns == old(ghost.warns))
+//@   ensures [C02.appendonly] ghost.trN >= old(ghost.trN) && forall(k, 0, old(ghost.trN), ghost.trace[k] == old(ghost.trace[k]) && ghost.trTold[k] == old(ghost.trTold[k]))
+//@   ensures [C02.handler] implies(!isnil(old(specDefaultEntry().handlerOpt)), ghost.trN == old(ghost.trN) && ghost.records == old(ghost.records) && ghost.warns == old(ghost.warns))
+//@   ensures [C13.algebra] implies(isnil(old(specDefaultEntry().handlerOpt)) && old(specAdmits(specDefaultEntry().level, AlwaysLevel)), ghost.records - old(ghost.records) == 1 + ite(old(specAdmits(specDefaultEntry().level, WarnLevel)), ghost.warns - old(ghost.warns), 0)) && ghost.warns >= old(ghost.warns) && ghost.warns <= old(ghost.warns) + 1
+//@   ensures [C13.nocascade] implies(AlwaysLevel == WarnLevel, ghost.warns == old(ghost.warns))
+//@   ensures [C02.deliver] implies(isnil(old(specDefaultEntry().handlerOpt)) && old(specAdmits(specDefaultEntry().level, AlwaysLevel)), ghost.trN >= old(ghost.trN) + old(len(specDest(specDefaultEntry(), AlwaysLevel))))
+//@   ensures [C13.quiet] implies(isnil(old(specDefaultEntry().handlerOpt)) && old(specAdmits(specDefaultEntry().level, AlwaysLevel)) && ghost.warns == old(ghost.warns), ghost.trN == old(ghost.trN) + old(len(specDest(specDefaultEntry(), AlwaysLevel))))
+//@   ensures [C12.flags] flags == old(flags) && inTesting == old(inTesting)
 //@   ensures [C01.gate] implies(!old(specAdmits(specDefaultEntry().level, AlwaysLevel)), ghost.emits == old(ghost.emits))
 //@   ensures [C01.emit] implies(old(specAdmits(specDefaultEntry().level, AlwaysLevel)), ghost.emits > old(ghost.emits))
 //@   at call logctxctx assert [C01.sev] callee.lvl == AlwaysLevel
 //@
 //@ func logctx
-//@   props C01 C12
-//@   requires specDefaultEntry() != nil
+//@   props C01 C02 C12 C13
+//@   requires specDefaultEntry() != nil && specFmtInv(specDefaultEntry())
 //@   assigns everything
+//@   keeps PrintCtx.off, PrintCtx.lvl
 //@   panics [C12.panic] when lvl == PanicLevel && specAdmits(specDefaultEntry().level, lvl) && specInterrupts() && isnil(specDefaultEntry().handlerOpt)
 //@   exits [C12.exit] when lvl == FatalLevel && specAdmits(specDefaultEntry().level, lvl) && specInterrupts() && isnil(specDefaultEntry().handlerOpt)
+//@   requires defaultWriter != nil && ghost.trN >= 0
+//@   requires [INV-dw] forall(k, 0, len(specDest(specDefaultEntry(), lvl)), !isnil(specDest(specDefaultEntry(), lvl)[k]) && !typeis(specDest(specDefaultEntry(), lvl)[k], LWs) && implies(typeis(specDest(specDefaultEntry(), lvl)[k], *logwr), dyn(specDest(specDefaultEntry(), lvl)[k], *logwr) != nil && !typeis(dyn(specDest(specDefaultEntry(), lvl)[k], *logwr).Writer, *logwr) && !typeis(dyn(specDest(specDefaultEntry(), lvl)[k], *logwr).Writer, LWs)))
+//@   requires [INV-dw.warn] forall(k, 0, len(specDest(specDefaultEntry(), WarnLevel)), !isnil(specDest(specDefaultEntry(), WarnLevel)[k]) && !typeis(specDest(specDefaultEntry(), WarnLevel)[k], LWs) && implies(typeis(specDest(specDefaultEntry(), WarnLevel)[k], *logwr), dyn(specDest(specDefaultEntry(), WarnLevel)[k], *logwr) != nil && !typeis(dyn(specDest(specDefaultEntry(), WarnLevel)[k], *logwr).Writer, *logwr) && !typeis(dyn(specDest(specDefaultEntry(), WarnLevel)[k], *logwr).Writer, LWs)))
+//@   ensures [C02.silent] implies(!old(specAdmits(specDefaultEntry().level, lvl)), ghost.trN == old(ghost.trN) && ghost.records == old(ghost.records) && ghost.warns == old(ghost.warns))
+//@   ensures [C02.appendonly] ghost.trN >= old(ghost.trN) && forall(k, 0, old(ghost.trN), ghost.trace[k] == old(ghost.trace[k]) && ghost.trTold[k] == old(ghost.trTold[k]))
+//@   ensures [C02.handler] implies(!isnil(old(specDefaultEntry().handlerOpt)), ghost.trN == old(ghost.trN) && ghost.records == old(ghost.records) && ghost.warns == old(ghost.warns))
+//@   ensures [C13.algebra] implies(isnil(old(specDefaultEntry().handlerOpt)) && old(specAdmits(specDefaultEntry().level, lvl)), ghost.records - old(ghost.records) == 1 + ite(old(specAdmits(specDefaultEntry().level, WarnLevel)), ghost.warns - old(ghost.warns), 0)) && ghost.warns >= old(ghost.warns) && ghost.warns <= old(ghost.warns) + 1
+//@   ensures [C13.nocascade] implies(lvl == WarnLevel, ghost.warns == old(ghost.warns))
+//@   ensures [C02.deliver] implies(isnil(old(specDefaultEntry().handlerOpt)) && old(specAdmits(specDefaultEntry().level, lvl)), ghost.trN >= old(ghost.trN) + old(len(specDest(specDefaultEntry(), lvl))))
+//@   ensures [C13.quiet] implies(isnil(old(specDefaultEntry().handlerOpt)) && old(specAdmits(specDefaultEntry().level, lvl)) && ghost.warns == old(ghost.warns), ghost.trN == old(ghost.trN) + old(len(specDest(specDefaultEntry(), lvl))))
+//@   ensures [C12.flags] flags == old(flags) && inTesting == old(inTesting)
 //@   ensures [C01.gate] implies(!old(specAdmits(specDefaultEntry().level, lvl)), ghost.emits == old(ghost.emits))
 //@   ensures [C01.emit] implies(old(specAdmits(specDefaultEntry().level, lvl)), ghost.emits > old(ghost.emits))
 //@   at call logctxctx assert [C01.sev] callee.lvl == lvl
 //@
 //@ func logctxctx
-//@   props C01 C12
-//@   requires specDefaultEntry() != nil
+//@   props C01 C02 C12 C13
+//@   requires specDefaultEntry() != nil && specFmtInv(specDefaultEntry())
 //@   assigns everything
+//@   keeps PrintCtx.off, PrintCtx.lvl
 //@   panics [C12.panic] when lvl == PanicLevel && specAdmits(specDefaultEntry().level, lvl) && specInterrupts() && isnil(specDefaultEntry().handlerOpt)
 //@   exits [C12.exit] when lvl == FatalLevel && specAdmits(specDefaultEntry().level, lvl) && specInterrupts() && isnil(specDefaultEntry().handlerOpt)
+//@   requires defaultWriter != nil && ghost.trN >= 0
+//@   requires [INV-dw] forall(k, 0, len(specDest(specDefaultEntry(), lvl)), !isnil(specDest(specDefaultEntry(), lvl)[k]) && !typeis(specDest(specDefaultEntry(), lvl)[k], LWs) && implies(typeis(specDest(specDefaultEntry(), lvl)[k], *logwr), dyn(specDest(specDefaultEntry(), lvl)[k], *logwr) != nil && !typeis(dyn(specDest(specDefaultEntry(), lvl)[k], *logwr).Writer, *logwr) && !typeis(dyn(specDest(specDefaultEntry(), lvl)[k], *logwr).Writer, LWs)))
+//@   requires [INV-dw.warn] forall(k, 0, len(specDest(specDefaultEntry(), WarnLevel)), !isnil(specDest(specDefaultEntry(), WarnLevel)[k]) && !typeis(specDest(specDefaultEntry(), WarnLevel)[k], LWs) && implies(typeis(specDest(specDefaultEntry(), WarnLevel)[k], *logwr), dyn(specDest(specDefaultEntry(), WarnLevel)[k], *logwr) != nil && !typeis(dyn(specDest(specDefaultEntry(), WarnLevel)[k], *logwr).Writer, *logwr) && !typeis(dyn(specDest(specDefaultEntry(), WarnLevel)[k], *logwr).Writer, LWs)))
+//@   ensures [C02.silent] implies(!old(specAdmits(specDefaultEntry().level, lvl)), ghost.trN == old(ghost.trN) && ghost.records == old(ghost.records) && ghost.warns == old(ghost.warns))
+//@   ensures [C02.appendonly] ghost.trN >= old(ghost.trN) && forall(k, 0, old(ghost.trN), ghost.trace[k] == old(ghost.trace[k]) && ghost.trTold[k] == old(ghost.trTold[k]))
+//@   ensures [C02.handler] implies(!isnil(old(specDefaultEntry().handlerOpt)), ghost.trN == old(ghost.trN) && ghost.records == old(ghost.records) && ghost.warns == old(ghost.warns))
+//@   ensures [C13.algebra] implies(isnil(old(specDefaultEntry().handlerOpt)) && old(specAdmits(specDefaultEntry().level, lvl)), ghost.records - old(ghost.records) == 1 + ite(old(specAdmits(specDefaultEntry().level, WarnLevel)), ghost.warns - old(ghost.warns), 0)) && ghost.warns >= old(ghost.warns) && ghost.warns <= old(ghost.warns) + 1
+//@   ensures [C13.nocascade] implies(lvl == WarnLevel, ghost.warns == old(ghost.warns))
+//@   ensures [C02.deliver] implies(isnil(old(specDefaultEntry().handlerOpt)) && old(specAdmits(specDefaultEntry().level, lvl)), ghost.trN >= old(ghost.trN) + old(len(specDest(specDefaultEntry(), lvl))))
+//@   ensures [C13.quiet] implies(isnil(old(specDefaultEntry().handlerOpt)) && old(specAdmits(specDefaultEntry().level, lvl)) && ghost.warns == old(ghost.warns), ghost.trN == old(ghost.trN) + old(len(specDest(specDefaultEntry(), lvl))))
+//@   ensures [C12.flags] flags == old(flags) && inTesting == old(inTesting)
 //@   ensures [C01.gate] implies(!old(specAdmits(specDefaultEntry().level, lvl)), ghost.emits == old(ghost.emits))
 //@   ensures [C01.emit] implies(old(specAdmits(specDefaultEntry().level, lvl)), ghost.emits > old(ghost.emits))
 //@   at call (*Entry).logContext assert [C01.sev] callee.lvl == lvl && callee.s == specDefaultEntry()
@@ -725,12 +1427,6 @@ func specLayout(s *PrintCtx) string {
 	}
 	return TimeNano
 }
-
-//@ func (*PrintCtx).pcAppendByte
-//@   trusted
-//@   requires s != nil
-//@   assigns s.buf, s.lastRead, s.buf[:]
-//@   ensures grown(s.buf, old(s.buf))
 
 //@ func (*PrintCtx).appendTimestamp
 //@   props C16
@@ -1089,6 +1785,416 @@ func specTellable(m LogWriter) bool {
 //@   loop 1 invariant [C02.each] rangeindex >= -1 && (rangeindex < len(s) || rangeindex == -1) && ghost.trN == old(ghost.trN) + rangeindex + 1
 //@   loop 1 invariant [C02.each] forall(k, 0, rangeindex+1, ghost.trace[old(ghost.trN)+k] == uf("evWrite", ident(s[k]), ident(p)) && ghost.trTold[old(ghost.trN)+k] == ghost.told[ident(s[k])])
 //@   loop 1 invariant [C02.appendonly] forall(k, 0, old(ghost.trN), ghost.trace[k] == old(ghost.trace[k]) && ghost.trTold[k] == old(ghost.trTold[k]))
+
+// ---- the delivery chain: print -> printImpl -> printOut -> LWs.Write
+
+// specWarnWritersOK is the writer-set invariant INV-dw for the destinations of diagnostic warnings.
+//@ func (*Entry).printOut
+//@   props C02 C03 C13
+//@   dispatch
+//@   requires s != nil && defaultWriter != nil && isnil(s.handlerOpt) && ghost.trN >= 0 && specFmtInv(s)
+//@   requires [INV-dw] forall(k, 0, len(specDest(s, lvl)), !isnil(specDest(s, lvl)[k]) && !typeis(specDest(s, lvl)[k], LWs) && implies(typeis(specDest(s, lvl)[k], *logwr), dyn(specDest(s, lvl)[k], *logwr) != nil && !typeis(dyn(specDest(s, lvl)[k], *logwr).Writer, *logwr) && !typeis(dyn(specDest(s, lvl)[k], *logwr).Writer, LWs)))
+//@   requires [INV-dw.warn] forall(k, 0, len(specDest(s, WarnLevel)), !isnil(specDest(s, WarnLevel)[k]) && !typeis(specDest(s, WarnLevel)[k], LWs) && implies(typeis(specDest(s, WarnLevel)[k], *logwr), dyn(specDest(s, WarnLevel)[k], *logwr) != nil && !typeis(dyn(specDest(s, WarnLevel)[k], *logwr).Writer, *logwr) && !typeis(dyn(specDest(s, WarnLevel)[k], *logwr).Writer, LWs)))
+//@   effect ghost.records = ghost.records + 1
+//@   keeps PrintCtx.off, PrintCtx.lvl
+//@   at call (*Entry).Warn effect ghost.warns = ghost.warns + 1
+//@   at call (*Entry).Warn assert [C13.nocascade] lvl != WarnLevel && callee.s == s
+//@   assigns everything
+//@   ensures [C02.deliver] forall(k, 0, old(len(specDest(s, lvl))), ghost.trace[old(ghost.trN)+k] == old(uf("evWrite", ident(specDest(s, lvl)[k]), ident(msg))))
+//@   ensures [C03.told] forall(k, 0, old(len(specDest(s, lvl))), implies(old(specTellable(specDest(s, lvl)[k])), ghost.trTold[old(ghost.trN)+k] == lvl))
+//@   ensures [C02.appendonly] ghost.trN >= old(ghost.trN) + old(len(specDest(s, lvl))) && forall(k, 0, old(ghost.trN), ghost.trace[k] == old(ghost.trace[k]) && ghost.trTold[k] == old(ghost.trTold[k]))
+//@   ensures [C13.algebra] ghost.records - old(ghost.records) == 1 + ite(old(specAdmits(s.level, WarnLevel)), ghost.warns - old(ghost.warns), 0) && ghost.warns >= old(ghost.warns) && ghost.warns <= old(ghost.warns) + 1
+//@   ensures [C13.nocascade] implies(lvl == WarnLevel, ghost.warns == old(ghost.warns))
+//@   ensures [C13.quiet] implies(ghost.warns == old(ghost.warns), ghost.trN == old(ghost.trN) + old(len(specDest(s, lvl))))
+//@   ensures [C12.flags] flags == old(flags) && inTesting == old(inTesting)
+//@   ensures [C01.emits] ghost.emits >= old(ghost.emits)
+
+//@ func (*Entry).printImpl
+//@   props C02 C13
+//@   requires s != nil && defaultWriter != nil && isnil(s.handlerOpt) && ghost.trN >= 0 && specFmtInv(s) && pc != nil && pc.off == 0 && 0 <= len(pc.buf)
+//@   requires [INV-dw] forall(k, 0, len(specDest(s, pc.lvl)), !isnil(specDest(s, pc.lvl)[k]) && !typeis(specDest(s, pc.lvl)[k], LWs) && implies(typeis(specDest(s, pc.lvl)[k], *logwr), dyn(specDest(s, pc.lvl)[k], *logwr) != nil && !typeis(dyn(specDest(s, pc.lvl)[k], *logwr).Writer, *logwr) && !typeis(dyn(specDest(s, pc.lvl)[k], *logwr).Writer, LWs)))
+//@   requires [INV-dw.warn] forall(k, 0, len(specDest(s, WarnLevel)), !isnil(specDest(s, WarnLevel)[k]) && !typeis(specDest(s, WarnLevel)[k], LWs) && implies(typeis(specDest(s, WarnLevel)[k], *logwr), dyn(specDest(s, WarnLevel)[k], *logwr) != nil && !typeis(dyn(specDest(s, WarnLevel)[k], *logwr).Writer, *logwr) && !typeis(dyn(specDest(s, WarnLevel)[k], *logwr).Writer, LWs)))
+//@   assigns everything
+//@   keeps PrintCtx.off, PrintCtx.lvl
+//@   ensures [C09.pool] pc.off == 0 && pc.lvl == old(pc.lvl)
+//@   ensures [C02.deliver] ghost.trN >= old(ghost.trN) + old(len(specDest(s, pc.lvl)))
+//@   ensures [C02.appendonly] forall(k, 0, old(ghost.trN), ghost.trace[k] == old(ghost.trace[k]) && ghost.trTold[k] == old(ghost.trTold[k]))
+//@   ensures [C13.algebra] ghost.records - old(ghost.records) == 1 + ite(old(specAdmits(s.level, WarnLevel)), ghost.warns - old(ghost.warns), 0) && ghost.warns >= old(ghost.warns) && ghost.warns <= old(ghost.warns) + 1
+//@   ensures [C13.nocascade] implies(old(pc.lvl) == WarnLevel, ghost.warns == old(ghost.warns))
+//@   ensures [C13.quiet] implies(ghost.warns == old(ghost.warns), ghost.trN == old(ghost.trN) + old(len(specDest(s, pc.lvl))))
+//@   ensures [C12.flags] flags == old(flags) && inTesting == old(inTesting)
+//@   ensures [C01.emits] ghost.emits >= old(ghost.emits)
+//@   at call (*Entry).printOut assert [C02.once] callee.s == s && callee.lvl == old(pc.lvl)
+//@   at call (*Entry).printOut assert [C02.newline] len(callee.msg) >= 1 && callee.msg[len(callee.msg)-1] == '\n'
+//@   at call (*Entry).printOut assert [C02.blank] implies(old(pc.lvl) == AlwaysLevel && old(uf("trimsToEmpty", contentid(pc.msg))) == 1, len(callee.msg) == 1)
+
+//@ func (*Entry).print
+//@   props C02 C13
+//@   requires s != nil && defaultWriter != nil && isnil(s.handlerOpt) && ghost.trN >= 0 && specFmtInv(s)
+//@   requires [INV-dw] forall(k, 0, len(specDest(s, lvl)), !isnil(specDest(s, lvl)[k]) && !typeis(specDest(s, lvl)[k], LWs) && implies(typeis(specDest(s, lvl)[k], *logwr), dyn(specDest(s, lvl)[k], *logwr) != nil && !typeis(dyn(specDest(s, lvl)[k], *logwr).Writer, *logwr) && !typeis(dyn(specDest(s, lvl)[k], *logwr).Writer, LWs)))
+//@   requires [INV-dw.warn] forall(k, 0, len(specDest(s, WarnLevel)), !isnil(specDest(s, WarnLevel)[k]) && !typeis(specDest(s, WarnLevel)[k], LWs) && implies(typeis(specDest(s, WarnLevel)[k], *logwr), dyn(specDest(s, WarnLevel)[k], *logwr) != nil && !typeis(dyn(specDest(s, WarnLevel)[k], *logwr).Writer, *logwr) && !typeis(dyn(specDest(s, WarnLevel)[k], *logwr).Writer, LWs)))
+//@   assigns everything
+//@   keeps PrintCtx.off, PrintCtx.lvl
+//@   ensures [C02.deliver] ghost.trN >= old(ghost.trN) + old(len(specDest(s, lvl)))
+//@   ensures [C02.appendonly] forall(k, 0, old(ghost.trN), ghost.trace[k] == old(ghost.trace[k]) && ghost.trTold[k] == old(ghost.trTold[k]))
+//@   ensures [C13.algebra] ghost.records - old(ghost.records) == 1 + ite(old(specAdmits(s.level, WarnLevel)), ghost.warns - old(ghost.warns), 0) && ghost.warns >= old(ghost.warns) && ghost.warns <= old(ghost.warns) + 1
+//@   ensures [C13.nocascade] implies(old(lvl) == WarnLevel, ghost.warns == old(ghost.warns))
+//@   ensures [C13.quiet] implies(ghost.warns == old(ghost.warns), ghost.trN == old(ghost.trN) + old(len(specDest(s, lvl))))
+//@   ensures [C12.flags] flags == old(flags) && inTesting == old(inTesting)
+//@   ensures [C01.emits] ghost.emits >= old(ghost.emits)
+//@   at call (*Entry).printImpl assert [C02.once] callee.s == s && callee.pc.lvl == lvl && callee.pc.msg == msg && callee.pc.now == timestamp && callee.pc.kvps == kvps && callee.pc.stackFrame == stackFrame
+
+//@ func (*PrintCtx).set
+//@   props C02 C09 C11 C16
+//@   requires s != nil && e != nil && specFmtInv(e)
+//@   assigns s.buf, s.jsonMode, s.noColor, s.layout, s.utcTime, s.valueStringer, s.lvl, s.kvps, s.now, s.stackFrame, s.msg
+//@   ensures [C09.set] s.lvl == lvl && s.now == timestamp && s.stackFrame == stackFrame && s.msg == msg && s.kvps == kvps
+//@   ensures [C11.derive] s.jsonMode == (specFormat(e) == fmtJSON) && s.noColor == (specFormat(e) != fmtColor)
+//@   ensures [C16.copy] s.layout == e.timeLayout && s.utcTime == e.modeUTC
+//@   ensures [C09.buf] len(s.buf) == 0 && samearray(s.buf, old(s.buf))
+
+//@ func (*PrintCtx).pcAppendByte
+//@   props C02
+//@   requires s != nil && 0 <= s.off && s.off <= len(s.buf)
+//@   assigns s.buf, s.off, s.lastRead, s.buf[:]
+//@   ensures [C02.append] len(s.buf) - s.off == old(len(s.buf) - s.off) + 1 && 0 <= s.off && s.buf[len(s.buf) - 1] == b
+//@   ensures [C02.keep] forall(i, 0, old(len(s.buf) - s.off), s.buf[s.off + i] == old(s.buf[s.off + i]))
+//@   ensures [C02.array] grown(s.buf, old(s.buf)) && implies(old(s.off) == 0, s.off == 0)
+
+//@ func (*PrintCtx).End
+//@   props C02
+//@   requires s != nil && 0 <= s.off && s.off <= len(s.buf)
+//@   assigns s.buf, s.off, s.lastRead, s.buf[:]
+//@   ensures [C02.newline] 0 <= s.off && s.off <= len(s.buf) && implies(newline, len(s.buf) > s.off && s.buf[len(s.buf) - 1] == '\n')
+//@   ensures [C02.array] implies(old(s.off) == 0, s.off == 0)
+
+//@ func (*PrintCtx).Begin
+//@   props C02
+//@   requires s != nil && 0 <= s.off && s.off <= len(s.buf)
+//@   assigns s.buf, s.off, s.lastRead, s.buf[:]
+//@   ensures [C02.inv] 0 <= s.off && s.off <= len(s.buf) && implies(old(s.off) == 0, s.off == 0)
+
+
+
+
+
+// ---- generated by /verif/tools/gen_auto.py: synthesized contracts for the no-panic sweep of printImpl's call tree
+//@ func convertLevelToLogSlog
+//@   props C02
+//@   auto
+
+//@ func (*Entry).fromCtx
+//@   props C02
+//@   auto
+
+//@ func (*Entry).walkParentAttrs
+//@   props C02
+//@   auto
+
+//@ func argsToAttrs
+//@   props C02
+//@   auto
+
+//@ func (*PrintCtx).checkerr
+//@   props C02
+//@   auto
+
+//@ func (*Entry).printTimestamp
+//@   props C02
+//@   auto
+
+//@ func (*PrintCtx).pcAppendStringKey
+//@   props C02
+//@   auto
+
+//@ func (*PrintCtx).pcAppendColon
+//@   props C02
+//@   auto
+
+//@ func (*PrintCtx).pcAppendComma
+//@   props C02
+//@   auto
+
+//@ func (colorizeToolS).echoColor
+//@   props C02
+//@   auto
+
+//@ func (*Entry).printLoggerName
+//@   props C02
+//@   auto
+
+//@ func (*PrintCtx).PreAlloc
+//@   props C02
+//@   auto
+
+//@ func appendQuotedWith
+//@   props C02
+//@   auto
+
+//@ func appendEscapedRune
+//@   props C02
+//@   auto
+
+//@ func isInGraphicList
+//@   props C02
+//@   auto
+
+//@ func bsearch16
+//@   props C02
+//@   auto
+
+//@ func (*Entry).printSeverity
+//@   props C02
+//@   auto
+
+//@ func (colorizeToolS).wrapRune
+//@   props C02
+//@   auto
+
+//@ func (*Entry).printMsg
+//@   props C02
+//@   auto
+
+//@ func (colorizeToolS).translate
+//@   props C02
+//@   auto
+
+//@ func serializeAttrs
+//@   props C02
+//@   auto
+
+//@ func dedupeSlice[github.com/hedzr/logg/slog.Attrs github.com/hedzr/logg/slog.Attr]
+//@   props C02
+//@   auto
+
+//@ func (colorizeToolS).echoColorAndBg
+//@   props C02
+//@   auto
+
+//@ func (*PrintCtx).appendValue
+//@   props C02
+//@   auto
+
+//@ func (*PrintCtx).appendTime
+//@   props C02
+//@   auto
+
+//@ func (*PrintCtx).appendDurationSlice
+//@   props C02
+//@   auto
+
+//@ func (*PrintCtx).appendTimeSlice
+//@   props C02
+//@   auto
+
+//@ func (*PrintCtx).appendError
+//@   props C02
+//@   auto
+
+//@ func (*Source).Extract
+//@   props C02
+//@   auto
+
+//@ func checkpath
+//@   props C02
+//@   auto
+
+//@ func itoaS[int]
+//@   props C02
+//@   auto
+
+//@ func (*PrintCtx).appendBytes
+//@   props C02
+//@   auto
+
+//@ func (*PrintCtx).appendStringSlice
+//@   props C02
+//@   auto
+
+//@ func (*PrintCtx).appendBoolSlice
+//@   props C02
+//@   auto
+
+//@ func intSliceTo[int]
+//@   props C02
+//@   auto
+
+//@ func intSliceTo[int8]
+//@   props C02
+//@   auto
+
+//@ func intSliceTo[int16]
+//@   props C02
+//@   auto
+
+//@ func intSliceTo[int32]
+//@   props C02
+//@   auto
+
+//@ func intSliceTo[int64]
+//@   props C02
+//@   auto
+
+//@ func itoaS[int8]
+//@   props C02
+//@   auto
+
+//@ func itoaS[int16]
+//@   props C02
+//@   auto
+
+//@ func itoaS[int32]
+//@   props C02
+//@   auto
+
+//@ func itoaS[int64]
+//@   props C02
+//@   auto
+
+//@ func uintSliceTo[uint]
+//@   props C02
+//@   auto
+
+//@ func uintSliceTo[uint16]
+//@   props C02
+//@   auto
+
+//@ func uintSliceTo[uint32]
+//@   props C02
+//@   auto
+
+//@ func uintSliceTo[uint64]
+//@   props C02
+//@   auto
+
+//@ func utoaS[uint]
+//@   props C02
+//@   auto
+
+//@ func utoaS[uint8]
+//@   props C02
+//@   auto
+
+//@ func utoaS[uint16]
+//@   props C02
+//@   auto
+
+//@ func utoaS[uint32]
+//@   props C02
+//@   auto
+
+//@ func utoaS[uint64]
+//@   props C02
+//@   auto
+
+//@ func floatSliceTo[float32]
+//@   props C02
+//@   auto
+
+//@ func ftoaS[float32]
+//@   props C02
+//@   auto
+
+//@ func ftoasimple[float32]
+//@   props C02
+//@   auto
+
+//@ func floatSliceTo[float64]
+//@   props C02
+//@   auto
+
+//@ func ftoaS[float64]
+//@   props C02
+//@   auto
+
+//@ func complexSliceTo[complex64]
+//@   props C02
+//@   auto
+
+//@ func ctoaS[complex64]
+//@   props C02
+//@   auto
+
+//@ func ctoasimple[complex64]
+//@   props C02
+//@   auto
+
+//@ func complexSliceTo[complex128]
+//@   props C02
+//@   auto
+
+//@ func ctoaS[complex128]
+//@   props C02
+//@   auto
+
+//@ func ctoasimple[complex128]
+//@   props C02
+//@   auto
+
+//@ func (*PrintCtx).pcTryQuoteValue
+//@   props C02
+//@   auto
+
+//@ func (*Entry).printFirstLineOfMsg
+//@   props C02
+//@   auto
+
+//@ func (colorizeToolS).splitFirstAndRestLines
+//@   props C02
+//@   auto
+
+//@ func (colorizeToolS).rightPad
+//@   props C02
+//@   auto
+
+//@ func (colorizeToolS).wrapColorAndBg
+//@   props C02
+//@   auto
+
+//@ func (colorizeToolS).echoBgColor
+//@   props C02
+//@   auto
+
+//@ func (*Entry).printPC
+//@   props C02
+//@   auto
+
+//@ func (*PrintCtx).pcAppendString
+//@   props C02
+//@   auto
+
+//@ func checkedfuncname
+//@   props C02
+//@   auto
+
+//@ func (*PrintCtx).AddPrefixedString
+//@   props C02
+//@   auto
+
+//@ func (*PrintCtx).pcAppendStringKeyPrefixed
+//@   props C02
+//@   auto
+
+//@ func (*Entry).printRestLinesOfMsg
+//@   props C02
+//@   auto
+
+//@ func (colorizeToolS).padFunc
+//@   props C02
+//@   auto
+
+//@ func (*PrintCtx).appendErrorAfterPrinted
+//@   props C02
+//@   auto
+
+//@ func (colorizeToolS).pad
+//@   props C02
+//@   auto
+
+//@ func (*PrintCtx).pcAppendRune
+//@   props C02
+//@   auto
+
 
 // ---------------------------------------------------------------- C19 buffer API (generated)
 // ---- generated by /verif/tools/gen_c19.py: the bytes.Buffer specification, for logg's PrintCtx ...
